@@ -23,7 +23,8 @@ theorem run_append (q : List Char) (cap : Nat) (a b : List Char) (qi : Nat) (σ 
       match runSeg q cap qi σ a with
       | .next σ' => run q cap (qi + a.length) σ' b
       | .ret s => .ret s
-      | .panic => .panic := by
+      | .panic => .panic
+      | .orig => .orig := by
   induction a generalizing qi σ with
   | nil => simp [runSeg]
   | cons r rs ih =>
@@ -35,6 +36,7 @@ theorem run_append (q : List Char) (cap : Nat) (a b : List Char) (qi : Nat) (σ 
       rw [this]
     | ret s => simp
     | panic => simp
+    | orig => simp
 
 theorem runSeg_append (q : List Char) (cap : Nat) (a b : List Char) (qi : Nat) (σ : St) :
     runSeg q cap qi σ (a ++ b) =
@@ -52,6 +54,7 @@ theorem runSeg_append (q : List Char) (cap : Nat) (a b : List Char) (qi : Nat) (
       rw [this]
     | ret s => simp
     | panic => simp
+    | orig => simp
 
 /-- If the segment leads to a state, the whole run continues from there. -/
 theorem run_of_runSeg (q : List Char) (cap : Nat) (a b : List Char) (qi : Nat) (σ σ' : St)
@@ -85,52 +88,86 @@ theorem slice_empty (q : List Char) (n : Nat) (hn : n ≤ q.length) : slice? q n
     refine ⟨by omega, by omega, by omega⟩
   rw [if_pos h1]; simp
 
-/-! ### Clean states -/
+/-! ### Ready and clean states -/
 
 /-- Previous runes a clean `unknown` state may carry: white space, the initial
     `rune(0)`, or the `/` that ended a comment. -/
 def cleanPr (c : Char) : Bool := isSpace c || c = Char.ofNat 0 || c = '/'
 
-/-- The state between two tokens: nothing is pending, the next rune to read is
-    at offset `qi`. -/
-structure Clean (qi : Nat) (σ : St) : Prop where
-  hs : (σ.s = .inSpace ∧ isSpace σ.pr = true) ∨ (σ.s = .unknown ∧ cleanPr σ.pr = true)
+/-- Previous runes that do not change the meaning of the next one. -/
+def prOK (c : Char) : Bool :=
+  c ≠ '\\' && c ≠ 'x' && c ≠ 'b' && c ≠ '-' && c ≠ '(' && c ≠ ',' && c ≠ '*'
+
+/-- Unless we are behind `ON DUPLICATE KEY UPDATE` (`d`), the clause state says so. -/
+def NoDupe (d : Bool) (σ : St) : Prop := d = false → σ.sqlState ≠ .onDupeKeyUpdate
+
+variable {d : Bool}
+
+/-- A state in which a segment may begin: nothing is pending, the next rune
+    to read is at offset `qi` (between two items, or right after a literal). -/
+structure Ready (d : Bool) (qi : Nat) (σ : St) : Prop where
+  hs : σ.s = .inSpace ∨ σ.s = .unknown
+  hpr : prOK σ.pr = true
   hfrom : σ.cpFrom = qi
   hto : σ.cpTo ≤ qi
   hesc : σ.escape = false
   hsql : σ.sqlState ≠ .inValues
   hlen : σ.f.length ≤ 2 * qi
-  hlast : σ.f = [] ∨ σ.f.getLast? = some ' '
   hpw : isValuesWord σ.prevWord = false
   hadd : σ.addSpace = false
-  hdupe : σ.sqlState ≠ .onDupeKeyUpdate
+  hdupe : NoDupe d σ
   hpo : σ.parOpen = 0
   hpt : σ.parOpenTotal = 0
 
-theorem cleanPr_cases {c : Char} (h : cleanPr c = true) :
-    c = ' ' ∨ c = '\t' ∨ c = '\r' ∨ c = '\n' ∨ c = Char.ofNat 0 ∨ c = '/' := by
-  simp only [cleanPr, isSpace, Bool.or_eq_true, decide_eq_true_eq] at h
-  rcases h with ((((h | h) | h) | h) | h) | h <;> simp [h]
+/-- The state between two items: ready, and the fingerprint so far ends with a blank. -/
+structure Clean (d : Bool) (qi : Nat) (σ : St) : Prop extends Ready d qi σ where
+  hcp : (σ.s = .inSpace ∧ isSpace σ.pr = true) ∨ (σ.s = .unknown ∧ cleanPr σ.pr = true)
+  hlast : σ.f = [] ∨ σ.f.getLast? = some ' '
 
 theorem isSpace_cases {c : Char} (h : isSpace c = true) :
-    c = ' ' ∨ c = '\t' ∨ c = '\r' ∨ c = '\n' := by
+    c = ' ' ∨ c = '\t' ∨ c = '\r' ∨ c = '\n' ∨ c = Char.ofNat 11 ∨ c = Char.ofNat 12 := by
   simp only [isSpace, Bool.or_eq_true, decide_eq_true_eq] at h
-  rcases h with ((h | h) | h) | h <;> simp [h]
+  rcases h with ((((h | h) | h) | h) | h) | h <;> simp [h]
 
-theorem Clean.s_cases {qi : Nat} {σ : St} (h : Clean qi σ) : σ.s = .inSpace ∨ σ.s = .unknown := by
-  rcases h.hs with h | h
-  · exact Or.inl h.1
-  · exact Or.inr h.1
+theorem cleanPr_cases {c : Char} (h : cleanPr c = true) :
+    isSpace c = true ∨ c = Char.ofNat 0 ∨ c = '/' := by
+  simp only [cleanPr, Bool.or_eq_true, decide_eq_true_eq] at h
+  rcases h with (h | h) | h <;> simp [h]
 
-/-- The previous rune of a clean state is none of the runes that change the
+theorem prOK_of_space {c : Char} (h : isSpace c = true) : prOK c = true := by
+  rcases isSpace_cases h with h | h | h | h | h | h <;> subst h <;> decide
+
+theorem prOK_of_clean {c : Char} (h : cleanPr c = true) : prOK c = true := by
+  rcases cleanPr_cases h with h | h | h
+  · exact prOK_of_space h
+  · subst h; decide
+  · subst h; decide
+
+/-- `Clean` from its fields in the order the proofs below give them. -/
+theorem Clean.of {qi : Nat} {σ : St}
+    (hcp : (σ.s = .inSpace ∧ isSpace σ.pr = true) ∨ (σ.s = .unknown ∧ cleanPr σ.pr = true))
+    (hfrom : σ.cpFrom = qi) (hto : σ.cpTo ≤ qi) (hesc : σ.escape = false) (hsql : σ.sqlState ≠ .inValues)
+    (hlen : σ.f.length ≤ 2 * qi) (hlast : σ.f = [] ∨ σ.f.getLast? = some ' ')
+    (hpw : isValuesWord σ.prevWord = false) (hadd : σ.addSpace = false)
+    (hdupe : NoDupe d σ) (hpo : σ.parOpen = 0) (hpt : σ.parOpenTotal = 0) : Clean d qi σ :=
+  { hs := by rcases hcp with h | h; exact Or.inl h.1; exact Or.inr h.1
+    hpr := by
+      rcases hcp with h | h
+      · exact prOK_of_space h.2
+      · exact prOK_of_clean h.2
+    hfrom := hfrom, hto := hto, hesc := hesc, hsql := hsql, hlen := hlen, hpw := hpw, hadd := hadd,
+    hdupe := hdupe, hpo := hpo, hpt := hpt, hcp := hcp, hlast := hlast }
+
+theorem Ready.s_cases {qi : Nat} {σ : St} (h : Ready d qi σ) : σ.s = .inSpace ∨ σ.s = .unknown := h.hs
+
+/-- The previous rune of a ready state is none of the runes that change the
     meaning of the next one. -/
-theorem Clean.pr_facts {qi : Nat} {σ : St} (h : Clean qi σ) :
+theorem Ready.pr_facts {qi : Nat} {σ : St} (h : Ready d qi σ) :
     σ.pr ≠ '\\' ∧ σ.pr ≠ 'x' ∧ σ.pr ≠ 'b' ∧ σ.pr ≠ '-' ∧ σ.pr ≠ '(' ∧ σ.pr ≠ ',' ∧ σ.pr ≠ '*' := by
-  have : cleanPr σ.pr = true := by
-    rcases h.hs with h | h
-    · simp [cleanPr, h.2]
-    · exact h.2
-  rcases cleanPr_cases this with h | h | h | h | h | h <;> rw [h] <;> decide
+  have := h.hpr
+  simp only [prOK, Bool.and_eq_true, bne_iff_ne, ne_eq, decide_eq_true_eq, Bool.not_eq_true', decide_eq_false_iff_not] at this
+  obtain ⟨⟨⟨⟨⟨⟨h1, h2⟩, h3⟩, h4⟩, h5⟩, h6⟩, h7⟩ := this
+  exact ⟨h1, h2, h3, h4, h5, h6, h7⟩
 
 theorem part3_nocopy (q : List Char) (cap : Nat) (σ : St) (r : Char) (h : σ.cpTo ≤ σ.cpFrom) :
     part3 q cap σ r = .next { σ with pr := r } := by
@@ -142,6 +179,13 @@ theorem part3_nocopy (q : List Char) (cap : Nat) (σ : St) (r : Char) (h : σ.cp
 /-- State in the middle of a word whose last character is `c`. -/
 def midWord (σb : St) (c : Char) : St :=
   { σb with s := if isOpChar c then .inOp else .inWord, pr := c }
+
+theorem litAfter_false {a : Char} (h : litAfter a = false) : a ≠ ',' ∧ a ≠ '(' ∧ isOpChar a = false := by
+  simp only [litAfter, Bool.or_eq_false_iff, decide_eq_false_iff_not] at h
+  exact ⟨h.1.1, h.1.2, h.2⟩
+
+theorem litAfter_of_op {a : Char} (h : isOpChar a = true) : litAfter a = true := by
+  simp [litAfter, h]
 
 theorem step_mid (q : List Char) (cap : Nat) (qi : Int) (σb : St) (a b : Char)
     (hto : σb.cpTo ≤ σb.cpFrom) (hab : okAfter a b = true)
@@ -167,8 +211,8 @@ theorem step_mid (q : List Char) (cap : Nat) (qi : Int) (σb : St) (a b : Char)
     simp only [isOpChar, Bool.or_eq_true, decide_eq_true_eq, not_or] at hb'
     obtain ⟨⟨⟨hb1, hb2⟩, hb3⟩, hb4⟩ := hb'
     by_cases ha : isOpChar a = true
-    · have hd : isDigit b = false := by simpa [ha] using hdig
-      have hdot' : b ≠ '.' := by simpa [ha] using hdot
+    · have hd : isDigit b = false := by simpa [litAfter_of_op ha] using hdig
+      have hdot' : b ≠ '.' := by simpa [litAfter_of_op ha] using hdot
       have hp' : b ≠ '(' := by simpa [ha] using hpar'
       simp [step, midWord, ha, hb, hsp, part2, part3, hd, hq1, hq2, hb1, hb2, hb3, hb4, hnlt, hsl, hpl, hmi,
         hdot', hp', hco, hha]
@@ -178,12 +222,16 @@ theorem step_mid (q : List Char) (cap : Nat) (qi : Int) (σb : St) (a b : Char)
       · have hac : a ≠ ',' ∧ a ≠ '(' := by
           rcases hdig with h | h
           · simp [hd] at h
-          · exact h.1
+          · exact ⟨(litAfter_false h).1, (litAfter_false h).2.1⟩
         simp [step, midWord, ha', hbf, hsp, part2, part3, hd, hnlt, hac.1, hac.2, replaceNumbersInWords]
       · have hd' : isDigit b = false := by simpa using hd
         by_cases hdot' : b = '.'
-        · subst hdot'
-          simp [step, midWord, ha', part2, part3, hnlt, isSpace, isDigit, hbf]
+        · have hac : a ≠ ',' ∧ a ≠ '(' := by
+            rcases hdot with h | h
+            · exact absurd hdot' h
+            · exact ⟨(litAfter_false h).1, (litAfter_false h).2.1⟩
+          subst hdot'
+          simp [step, midWord, ha', part2, part3, hnlt, isSpace, isDigit, hbf, hac.1, hac.2]
         · by_cases hp' : b = '('
           · subst hp'
             have hc := hcall rfl
@@ -199,7 +247,7 @@ def baseWord (σ : St) (qi : Int) (c : Char) : St :=
   if isOpChar c then { σ with cpFrom := qi }
   else { σ with cpFrom := qi, valueNo := 0 }
 
-theorem step_first (q : List Char) (cap : Nat) (qi : Nat) (σ : St) (c : Char) (hc : Clean qi σ)
+theorem step_first (q : List Char) (cap : Nat) (qi : Nat) (σ : St) (c : Char) (hc : Ready d qi σ)
     (hq : qi ≤ q.length) (hok : okFirst c = true) (hcall : c = '(' → σ.prevWord ≠ kwCall) :
     step q cap qi σ c = .next (midWord (baseWord σ qi c) c) := by
   simp only [okFirst, wordBad, Bool.and_eq_true, Bool.not_eq_true', Bool.or_eq_false_iff,
@@ -307,10 +355,10 @@ theorem step_wordEnd (q : List Char) (cap : Nat) (qi0 qi : Int) (σb : St) (a r 
     (hcap : σb.f.length + w.length + 1 ≤ cap) :
     step q cap qi (midWord σb a) r = .next (endWord σb qi w r) := by
   have hd : isDigit r = false := by
-    rcases isSpace_cases hr with h | h | h | h <;> subst h <;> decide
+    rcases isSpace_cases hr with h | h | h | h | h | h <;> subst h <;> decide
   simp only [wordCtx, Bool.and_eq_true, Bool.not_eq_true', Bool.and_eq_false_iff, decide_eq_false_iff_not,
     Bool.not_eq_false', decide_eq_true_eq] at hctx
-  obtain ⟨⟨⟨⟨⟨⟨huse, hnull⟩, hnullc⟩, hasc⟩, hval⟩, _⟩, _⟩ := hctx
+  obtain ⟨⟨⟨⟨⟨huse, hnull⟩, hnullc⟩, hasc⟩, hval⟩, _⟩ := hctx
   have hlw : (lower w).length = w.length := by simp [lower]
   have hp1 : pushAll cap σb.f (lower w) = some (σb.f ++ lower w) := by
     unfold pushAll; rw [if_pos (by rw [hlw]; omega)]
@@ -393,11 +441,12 @@ theorem word_item_core (q : List Char) (cap : Nat) (qi : Nat) (σ0 σb : St) (c 
     (tail : List Char)
     (h1 : step q cap qi σ0 c = .next (midWord σb c))
     (hbfrom : σb.cpFrom = (qi : Int)) (hbto : σb.cpTo ≤ (qi : Int)) (hbesc : σb.escape = false)
-    (hbsql : σb.sqlState ≠ .inValues) (hbdupe : σb.sqlState ≠ .onDupeKeyUpdate) (hblen : σb.f.length ≤ 2 * qi)
+    (hbsql : σb.sqlState ≠ .inValues) (hbdupe : NoDupe d σb) (hblen : σb.f.length ≤ 2 * qi)
     (hbpo : σb.parOpen = 0) (hbpt : σb.parOpenTotal = 0)
     (hq : q.drop qi = (c :: rest) ++ r :: tail) (hcap : 2 * q.length < cap)
     (hshape : wordShape (c :: rest) = true) (hctx : wordCtx σb.prevWord (c :: rest) = true) (hr : isSpace r = true) :
-    ∃ σ', runSeg q cap qi σ0 ((c :: rest) ++ [r]) = .next σ' ∧ Clean (qi + (c :: rest).length + 1) σ' ∧
+    ∃ σ', runSeg q cap qi σ0 ((c :: rest) ++ [r]) = .next σ' ∧
+      Clean (d || keyUpd σb.prevWord (c :: rest)) (qi + (c :: rest).length + 1) σ' ∧
       σ'.f = σb.f ++ lower (c :: rest) ++ [' '] ∧ σ'.prevWord = lower (c :: rest) := by
   simp only [wordShape, Bool.and_eq_true] at hshape
   obtain ⟨⟨hfirst, hchain⟩, hpar⟩ := hshape
@@ -408,7 +457,7 @@ theorem word_item_core (q : List Char) (cap : Nat) (qi : Nat) (σ0 σb : St) (c 
   have hcallAll : '(' ∈ (c :: rest) → σb.prevWord ≠ kwCall := by
     intro hmem
     simp only [wordCtx, Bool.and_eq_true, Bool.not_eq_true', Bool.and_eq_false_iff, decide_eq_false_iff_not] at hctx
-    rcases hctx.1.2 with h | h
+    rcases hctx.2 with h | h
     · have : (c :: rest).contains '(' = true := by
         rw [List.contains_iff_mem]; exact hmem
       rw [this] at h; cases h
@@ -444,7 +493,7 @@ theorem word_item_core (q : List Char) (cap : Nat) (qi : Nat) (σ0 σb : St) (c 
     rw [e2, h3]
   · -- the clean state
     simp only [wordCtx, Bool.and_eq_true, Bool.not_eq_true', Bool.and_eq_false_iff, decide_eq_false_iff_not] at hctx
-    constructor
+    apply Clean.of
     · left; exact ⟨rfl, hr⟩
     · simp [endWord]
     · simp [endWord]; omega
@@ -458,81 +507,637 @@ theorem word_item_core (q : List Char) (cap : Nat) (qi : Nat) (σ0 σb : St) (c 
     · simp only [endWord, List.length_append, lower, List.length_map, List.length_cons, List.length_nil]
       omega
     · right; simp [endWord]
-    · exact hctx.1.1.2
+    · exact hctx.1.2
     · rfl
-    · -- `update` after `key` is excluded by the context condition
-      have hku := hctx.2
+    · -- `update` after `key`: from here on we are behind ON DUPLICATE KEY UPDATE
+      intro hd
+      simp only [Bool.or_eq_false_iff] at hd
       simp only [endWord, newSql]
       split
       · simp
       · split
-        · rename_i h; rcases hku with h' | h'
-          · exact absurd h.1 h'
-          · exact absurd h.2 h'
-        · exact hbdupe
+        · rename_i h
+          have : keyUpd σb.prevWord (c :: rest) = true := by simp [keyUpd, h.1, h.2]
+          rw [this] at hd; cases hd.2
+        · exact hbdupe hd.1
     · exact hbpo
     · exact hbpt
   · simp [endWord]
   · simp [endWord]
 
-/-- **Words.** From a clean state, a word followed by a white-space character
-    contributes its lower-case text and one blank, and leaves a clean state. -/
-theorem word_item (q : List Char) (cap : Nat) (qi : Nat) (σ : St) (w : List Char) (r : Char) (tail : List Char)
-    (hc : Clean qi σ) (hq : q.drop qi = w ++ r :: tail) (hcap : 2 * q.length < cap)
-    (hshape : wordShape w = true) (hctx : wordCtx σ.prevWord w = true) (hr : isSpace r = true) :
-    ∃ σ', runSeg q cap qi σ (w ++ [r]) = .next σ' ∧ Clean (qi + w.length + 1) σ' ∧
-      σ'.f = σ.f ++ lower w ++ [' '] ∧ σ'.prevWord = lower w := by
-  cases w with
-  | nil => simp [wordShape] at hshape
-  | cons c rest =>
-    have hfirst : okFirst c = true := by
-      simp only [wordShape, Bool.and_eq_true] at hshape; exact hshape.1.1
-    have hlt : qi < q.length := lt_length_of_drop (by simpa using hq)
-    have hcall1 : c = '(' → σ.prevWord ≠ kwCall := by
-      intro hc1
-      simp only [wordCtx, Bool.and_eq_true, Bool.not_eq_true', Bool.and_eq_false_iff, decide_eq_false_iff_not] at hctx
-      rcases hctx.1.2 with h | h
-      · have : (c :: rest).contains '(' = true := by rw [List.contains_iff_mem]; simp [hc1]
-        rw [this] at h; cases h
-      · exact h
-    have h1 := step_first q cap qi σ c hc (by omega) hfirst hcall1
-    have hb : ∀ {α : Type} (g : St → α), (∀ τ : St, g { τ with cpFrom := (qi : Int) } = g τ) →
-        (∀ τ : St, g { τ with cpFrom := (qi : Int), valueNo := 0 } = g τ) → g (baseWord σ qi c) = g σ := by
-      intro α g h1 h2
-      simp only [baseWord]; split
-      · exact h1 σ
-      · exact h2 σ
-    have hbprev : (baseWord σ qi c).prevWord = σ.prevWord := hb (·.prevWord) (fun _ => rfl) (fun _ => rfl)
-    have hbf : (baseWord σ qi c).f = σ.f := hb (·.f) (fun _ => rfl) (fun _ => rfl)
-    obtain ⟨σ', h2, h3, h4, h5⟩ := word_item_core q cap qi σ (baseWord σ qi c) c rest r tail h1
-      (by simp only [baseWord]; split <;> rfl)
-      (by rw [hb (·.cpTo) (fun _ => rfl) (fun _ => rfl)]; exact hc.hto)
-      (by rw [hb (·.escape) (fun _ => rfl) (fun _ => rfl)]; exact hc.hesc)
-      (by rw [hb (·.sqlState) (fun _ => rfl) (fun _ => rfl)]; exact hc.hsql)
-      (by rw [hb (·.sqlState) (fun _ => rfl) (fun _ => rfl)]; exact hc.hdupe)
-      (by rw [hbf]; exact hc.hlen)
-      (by rw [hb (·.parOpen) (fun _ => rfl) (fun _ => rfl)]; exact hc.hpo)
-      (by rw [hb (·.parOpenTotal) (fun _ => rfl) (fun _ => rfl)]; exact hc.hpt)
-      hq hcap hshape (by rw [hbprev]; exact hctx) hr
-    exact ⟨σ', h2, h3, by rw [h4, hbf], h5⟩
+theorem drop_after (q : List Char) (qi : Nat) (a b : List Char) (h : q.drop qi = a ++ b) :
+    q.drop (qi + a.length) = b := by
+  have : q.drop (qi + a.length) = (q.drop qi).drop a.length := by rw [List.drop_drop]
+  rw [this, h]; simp
+
+/-! ### Reading a whole word (without the character that ends it) -/
+
+/-- The body of `word_prefix`: the first character has been read (`h1`) and
+    led to the state `midWord σb c`. -/
+theorem word_prefix_core (q : List Char) (cap : Nat) (qi : Nat) (σ0 σb : St) (c : Char) (rest tail : List Char)
+    (h1 : step q cap qi σ0 c = .next (midWord σb c))
+    (hbfrom : σb.cpFrom = (qi : Int)) (hbto : σb.cpTo ≤ (qi : Int))
+    (hq : q.drop qi = (c :: rest) ++ tail) (hshape : wordShape (c :: rest) = true)
+    (hcallAll : '(' ∈ (c :: rest) → σb.prevWord ≠ kwCall) :
+    ∃ a, runSeg q cap qi σ0 (c :: rest) = .next (midWord σb a) ∧ (c :: rest).getLast? = some a ∧ wordBad a = false ∧
+      (∀ k, k ≤ (c :: rest).length → slice? q qi ((qi + k : Nat) : Int) = some ((c :: rest).take k)) := by
+  simp only [wordShape, Bool.and_eq_true] at hshape
+  obtain ⟨⟨hfirst, hchain⟩, hpar⟩ := hshape
+  have hlt : qi < q.length := lt_length_of_drop (by simpa using hq)
+  have hsl : ∀ k, k ≤ (c :: rest).length →
+      slice? q qi ((qi + k : Nat) : Int) = some ((c :: rest).take k) := by
+    intro k hk
+    exact slice_of_drop q (c :: rest) tail qi k hq (by omega) hk
+  have h2 := runSeg_mid q cap σb qi (c :: rest) hbfrom hbto hcallAll hsl hpar rest [] c rfl hchain
+  simp only [List.length_nil, Nat.add_zero] at h2
+  have hlastBad : wordBad ((c :: rest).getLast (by simp)) = false := by
+    rcases List.mem_cons.mp (List.getLast_mem (l := c :: rest) (by simp)) with h | h
+    · rw [h]
+      simp only [okFirst, Bool.and_eq_true, Bool.not_eq_true'] at hfirst
+      exact hfirst.1.1
+    · exact chainOK_notBad c rest hchain _ h
+  refine ⟨(c :: rest).getLast (by simp), ?_, ?_, hlastBad, hsl⟩
+  · simp only [runSeg, h1]; exact h2
+  · exact List.getLast?_eq_some_getLast (by simp)
+
+/-- What the first character of a word changes in a ready state. -/
+theorem baseWord_frame (σ : St) (qi : Int) (c : Char) :
+    (baseWord σ qi c).cpFrom = qi ∧ (baseWord σ qi c).cpTo = σ.cpTo ∧ (baseWord σ qi c).prevWord = σ.prevWord ∧
+    (baseWord σ qi c).f = σ.f ∧ (baseWord σ qi c).escape = σ.escape ∧ (baseWord σ qi c).sqlState = σ.sqlState ∧
+    (baseWord σ qi c).addSpace = σ.addSpace ∧ (baseWord σ qi c).parOpen = σ.parOpen ∧
+    (baseWord σ qi c).parOpenTotal = σ.parOpenTotal := by
+  simp only [baseWord]; split <;> exact ⟨rfl, rfl, rfl, rfl, rfl, rfl, rfl, rfl, rfl⟩
 
 /-! ### Numbers -/
 
 theorem isSpace_not_digit {r : Char} (hr : isSpace r = true) :
-    isDigit r = false ∧ isNumberChar r = false ∧ isNotNumberChar r = false ∧ r ≠ '\'' ∧ r ≠ '"' := by
-  rcases isSpace_cases hr with h | h | h | h <;> subst h <;> decide
+    isDigit r = false ∧ isNumberChar r = false ∧ isNotNumberChar r = false ∧ r ≠ '\'' ∧ r ≠ '"' ∧ r ≠ '+' := by
+  rcases isSpace_cases hr with h | h | h | h | h | h <;> subst h <;> decide
 
-theorem runSeg_number (q : List Char) (cap : Nat) (σ1 : St) (hs : σ1.s = .inNumber) :
-    ∀ (rest : List Char) (qi : Nat), rest.all isNumberChar = true → runSeg q cap qi σ1 rest = .next σ1 := by
+theorem digit_facts {d : Char} (hd : isDigit d = true) :
+    isSpace d = false ∧ isNumberChar d = true ∧ prOK d = true := by
+  have hn : isNumberChar d = true := by simp [isNumberChar, hd]
+  simp only [isDigit, decide_eq_true_eq] at hd
+  refine ⟨?_, hn, ?_⟩
+  · simp only [isSpace, Bool.or_eq_false_iff, decide_eq_false_iff_not]
+    refine ⟨⟨⟨⟨⟨?_, ?_⟩, ?_⟩, ?_⟩, ?_⟩, ?_⟩ <;> intro h <;> subst h <;> revert hd <;> decide
+  · simp only [prOK, Bool.and_eq_true, bne_iff_ne, ne_eq, decide_eq_true_eq, Bool.not_eq_true', decide_eq_false_iff_not]
+    refine ⟨⟨⟨⟨⟨⟨?_, ?_⟩, ?_⟩, ?_⟩, ?_⟩, ?_⟩, ?_⟩ <;> intro h <;> subst h <;> revert hd <;> decide
+
+/-- Reading the rest of a number: `p` is the character before `rest` in the text. -/
+theorem runSeg_numTail (q : List Char) (cap : Nat) (σ1 : St) (hs : σ1.s = .inNumber) :
+    ∀ (rest : List Char) (p : Char) (j : Nat) (tail : List Char), numTail p rest = true →
+      q.drop j = p :: (rest ++ tail) → runSeg q cap (j + 1) σ1 rest = .next σ1 := by
   intro rest
   induction rest with
-  | nil => intro qi _; simp [runSeg]
-  | cons b r ih =>
-    intro qi h
-    simp only [List.all_cons, Bool.and_eq_true] at h
-    have : step q cap qi σ1 b = .next σ1 := by simp [step, hs, h.1]
-    simp only [runSeg, this]
-    exact ih (qi + 1) h.2
+  | nil => intro p j tail _ _; simp [runSeg]
+  | cons c r ih =>
+    intro p j tail h hq
+    unfold numTail at h
+    have hq' : q.drop (j + 1) = c :: (r ++ tail) := by
+      have : q.drop (j + 1) = (q.drop j).drop 1 := by rw [List.drop_drop]
+      rw [this, hq]; simp
+    have hstep : step q cap ((j + 1 : Nat) : Int) σ1 c = .next σ1 := by
+      by_cases hc : c = '-' ∨ c = '+'
+      · rw [if_pos hc] at h
+        simp only [Bool.and_eq_true, Bool.or_eq_true, decide_eq_true_eq] at h
+        rcases hc with hc | hc
+        · subst hc; simp [step, hs, isNumberChar]
+        · subst hc
+          have hp : q[j]? = some p := by
+            have := congrArg List.head? hq
+            simpa [List.head?_drop] using this
+          have e : (((j + 1 : Nat) : Int) - 1).toNat = j := by omega
+          have hn : ¬ (((j + 1 : Nat) : Int) - 1 < 0) := by omega
+          have hpe : q[j]? = some 'e' ∨ q[j]? = some 'E' := by
+            rw [hp]; rcases h.1.1 with h' | h' <;> simp [h']
+          simp [step, hs, isNumberChar, isDigit, e, hpe]
+      · rw [if_neg hc] at h
+        simp only [Bool.and_eq_true] at h
+        simp [step, hs, h.1]
+    simp only [runSeg, hstep]
+    have hnt : numTail c r = true := by
+      by_cases hc : c = '-' ∨ c = '+'
+      · rw [if_pos hc] at h; simp only [Bool.and_eq_true] at h; exact h.2
+      · rw [if_neg hc] at h; simp only [Bool.and_eq_true] at h; exact h.2
+    exact ih c (j + 1) tail hnt hq'
+
+/-- The state the machine is in while it reads a number. -/
+structure NumSt (d : Bool) (σ1 : St) : Prop where
+  hs : σ1.s = .inNumber
+  hpr : prOK σ1.pr = true
+  hprns : isSpace σ1.pr = false
+  hesc : σ1.escape = false
+  hsql : σ1.sqlState ≠ .inValues
+  hpw : isValuesWord σ1.prevWord = false
+  hadd : σ1.addSpace = false
+  hdupe : NoDupe d σ1
+  hpo : σ1.parOpen = 0
+  hpt : σ1.parOpenTotal = 0
+
+/-- The ready state the end of a number leads to. -/
+def numDone (σ1 : St) (qe : Int) : St :=
+  { σ1 with f := σ1.f ++ ['?'], cpFrom := qe, cpTo := qe, s := .unknown }
+
+/-- The character after a number is read as from the ready state `numDone`. -/
+theorem step_num_end (q : List Char) (cap : Nat) (qe : Nat) (σ1 : St) (c : Char) (hn : NumSt d σ1)
+    (hc1 : isNumberChar c = false) (hc2 : isNotNumberChar c = false) (hc3 : c ≠ '+')
+    (hcap : σ1.f.length + 1 ≤ cap) :
+    step q cap qe σ1 c = step q cap qe (numDone σ1 qe) c := by
+  have hpush : push cap σ1.f '?' = some (σ1.f ++ ['?']) := by
+    unfold push; rw [if_pos (by omega)]
+  have hns : ¬ (isSpace c = true ∧ isSpace σ1.pr = true) := by rw [hn.hprns]; simp
+  simp [step, hn.hs, hc1, hc2, hc3, hpush, numDone, hn.hprns]
+
+theorem numDone_ready (qe : Nat) (σ1 : St) (hn : NumSt d σ1) (hlen : σ1.f.length + 1 ≤ 2 * qe) :
+    Ready d qe (numDone σ1 qe) :=
+  { hs := Or.inr rfl, hpr := hn.hpr, hfrom := rfl, hto := by simp [numDone], hesc := hn.hesc, hsql := hn.hsql,
+    hlen := by simp [numDone]; omega, hpw := hn.hpw, hadd := hn.hadd, hdupe := hn.hdupe, hpo := hn.hpo,
+    hpt := hn.hpt }
+
+theorem numTail_of_digit (p d : Char) (r : List Char) (hd : isDigit d = true) (h : numTail d r = true) :
+    numTail p (d :: r) = true := by
+  have hne : ¬ (d = '-' ∨ d = '+') := by
+    intro h'; rcases h' with h' | h' <;> subst h' <;> revert hd <;> decide
+  unfold numTail
+  rw [if_neg hne]
+  simp [(digit_facts hd).2.1, h]
+
+theorem getElem?_of_drop {q : List Char} {n : Nat} {a b : List Char} (h : q.drop n = a ++ b) (k : Nat)
+    (hk : k < a.length) : q[n + k]? = a[k]? := by
+  have : (q.drop n)[k]? = (a ++ b)[k]? := by rw [h]
+  rw [List.getElem?_drop] at this
+  rw [this, List.getElem?_append_left hk]
+
+theorem drop_succ_of_drop {q : List Char} {n : Nat} {c : Char} {t : List Char} (h : q.drop n = c :: t) :
+    q.drop (n + 1) = t := by
+  have : q.drop (n + 1) = (q.drop n).drop 1 := by rw [List.drop_drop]
+  rw [this, h]; simp
+
+/-- **A number at the beginning of a chunk**: plain, signed, or with a leading dot. -/
+theorem num_entry_fresh (q : List Char) (cap : Nat) (qi : Nat) (σ : St) (n tail : List Char)
+    (hc : Ready d qi σ) (hq : q.drop qi = n ++ tail) (hshape : numShape n = true) :
+    ∃ σ1, runSeg q cap qi σ n = .next σ1 ∧ NumSt d σ1 ∧ σ1.f = σ.f ∧ σ1.prevWord = σ.prevWord := by
+  obtain ⟨hp1, hp2, hp3, hp4, hp5, hp6, hp7⟩ := hc.pr_facts
+  have hnlt : ¬ ((qi : Int) > σ.cpFrom) := by rw [hc.hfrom]; omega
+  have hnlt2 : ¬ (σ.cpTo > σ.cpFrom) := by rw [hc.hfrom]; have := hc.hto; omega
+  cases n with
+  | nil => simp [numShape] at hshape
+  | cons c r =>
+    simp only [numShape] at hshape
+    by_cases hd : isDigit c = true
+    · -- 12, 0x1F, 1e-5
+      rw [if_pos hd] at hshape
+      obtain ⟨hcsp, _, hcpr⟩ := digit_facts hd
+      let σ1 : St := { σ with cpTo := qi, s := .inNumber, pr := c }
+      have h1 : step q cap qi σ c = .next σ1 := by
+        rcases hc.s_cases with hs | hs <;> simp [step, hs, hcsp, part2, hd, part3, hnlt, σ1]
+      have h2 := runSeg_numTail q cap σ1 rfl r c qi tail hshape (by simpa using hq)
+      exact ⟨σ1, by simp only [runSeg, h1]; exact h2,
+        ⟨rfl, hcpr, hcsp, hc.hesc, hc.hsql, hc.hpw, hc.hadd, hc.hdupe, hc.hpo, hc.hpt⟩, rfl, rfl⟩
+    · rw [if_neg hd] at hshape
+      by_cases hsd : c = '-' ∨ c = '+' ∨ c = '.'
+      · rw [if_pos hsd] at hshape
+        cases r with
+        | nil => simp at hshape
+        | cons d r' =>
+          simp only [Bool.and_eq_true] at hshape
+          obtain ⟨hdd, htl⟩ := hshape
+          obtain ⟨hdsp, hdnc, hdpr⟩ := digit_facts hdd
+          have hq1 : q.drop (qi + 1) = d :: (r' ++ tail) := drop_succ_of_drop (by simpa using hq)
+          rcases hsd with hs' | hs' | hs'
+          · -- -5
+            subst hs'
+            let σ0 : St := { σ with s := .opOrNumber, pr := '-' }
+            have h1 : step q cap qi σ '-' = .next σ0 := by
+              rcases hc.s_cases with hs | hs <;> simp [step, hs, isSpace, part2, isDigit, part3, hnlt2, hp4, σ0]
+            let σ1 : St := { σ with cpTo := ((qi + 1 : Nat) : Int) - 1, s := .inNumber, pr := d }
+            have hnlt3 : ¬ (((qi + 1 : Nat) : Int) - 1 > σ.cpFrom) := by rw [hc.hfrom]; omega
+            have h2 : step q cap ((qi + 1 : Nat) : Int) σ0 d = .next σ1 := by
+              have hnlt4 : ¬ (σ.cpFrom < (qi : Int)) := by rw [hc.hfrom]; omega
+              simp [step, σ0, hdsp, part2, hdd, part3, hnlt4, σ1]
+            have h3 := runSeg_numTail q cap σ1 rfl r' d (qi + 1) tail htl hq1
+            exact ⟨σ1, by simp only [runSeg, h1, h2]; exact h3,
+              ⟨rfl, hdpr, hdsp, hc.hesc, hc.hsql, hc.hpw, hc.hadd, hc.hdupe, hc.hpo, hc.hpt⟩, rfl, rfl⟩
+          · -- +7
+            subst hs'
+            let σ0 : St := { σ with s := .opOrNumber, pr := '+' }
+            have h1 : step q cap qi σ '+' = .next σ0 := by
+              rcases hc.s_cases with hs | hs <;> simp [step, hs, isSpace, part2, isDigit, part3, hnlt2, σ0]
+            let σ1 : St := { σ with cpTo := ((qi + 1 : Nat) : Int) - 1, s := .inNumber, pr := d }
+            have hnlt3 : ¬ (((qi + 1 : Nat) : Int) - 1 > σ.cpFrom) := by rw [hc.hfrom]; omega
+            have h2 : step q cap ((qi + 1 : Nat) : Int) σ0 d = .next σ1 := by
+              have hnlt4 : ¬ (σ.cpFrom < (qi : Int)) := by rw [hc.hfrom]; omega
+              simp [step, σ0, hdsp, part2, hdd, part3, hnlt4, σ1]
+            have h3 := runSeg_numTail q cap σ1 rfl r' d (qi + 1) tail htl hq1
+            exact ⟨σ1, by simp only [runSeg, h1, h2]; exact h3,
+              ⟨rfl, hdpr, hdsp, hc.hesc, hc.hsql, hc.hpw, hc.hadd, hc.hdupe, hc.hpo, hc.hpt⟩, rfl, rfl⟩
+          · -- .5
+            subst hs'
+            have hnn : numberNext q (qi : Int) = true := by
+              have : q[qi + 1]? = some d := by
+                have := getElem?_of_drop (b := tail) (by simpa using hq : q.drop qi = ('.' :: d :: r') ++ tail) 1 (by simp)
+                simpa using this
+              have e : ((qi : Int) + 1).toNat = qi + 1 := by omega
+              simp [numberNext, e, this, hdd]
+            let σ1 : St := { σ with s := .inNumber, cpTo := qi, pr := '.' }
+            have h1 : step q cap qi σ '.' = .next σ1 := by
+              rcases hc.s_cases with hs | hs <;> simp [step, hs, isSpace, part2, isDigit, part3, hnlt, hnn, σ1]
+            have h3 := runSeg_numTail q cap σ1 rfl (d :: r') '.' qi tail (numTail_of_digit '.' d r' hdd htl)
+              (by simpa using hq)
+            exact ⟨σ1, by simp only [runSeg, h1]; exact h3,
+              ⟨rfl, (by decide : prOK '.' = true), (by decide : isSpace '.' = false), hc.hesc, hc.hsql, hc.hpw, hc.hadd,
+                hc.hdupe, hc.hpo, hc.hpt⟩, rfl, rfl⟩
+      · rw [if_neg hsd] at hshape; cases hshape
+
+theorem litAfter_cases {a : Char} (h : litAfter a = true) : isOpChar a = true ∨ (isOpChar a = false ∧ (a = '(' ∨ a = ',')) := by
+  by_cases ho : isOpChar a = true
+  · exact Or.inl ho
+  · right
+    have ho' : isOpChar a = false := by simpa using ho
+    simp only [litAfter, ho', Bool.or_false, Bool.or_eq_true, decide_eq_true_eq] at h
+    exact ⟨ho', h.symm⟩
+
+/-- The state after the pending word `w` was copied because a number begins. -/
+def copiedNum (σb : St) (qi : Int) (w : List Char) (p : Char) : St :=
+  { σb with prevWord := lower w, f := σb.f ++ lower w, cpFrom := qi, cpTo := qi, s := .inNumber, pr := p }
+
+/-- The digit after `id=`, `f(` or `a,`: the pending word is copied, a number begins. -/
+theorem step_lit_digit (q : List Char) (cap : Nat) (qi0 qi : Int) (σb : St) (a d : Char) (w : List Char)
+    (ha : litAfter a = true) (hd : isDigit d = true) (hgt : qi0 < qi) (hfrom : σb.cpFrom = qi0)
+    (hslice : slice? q qi0 qi = some w) (hval : isValuesWord (lower w) = false)
+    (hadd : σb.addSpace = false) (hcap : σb.f.length + w.length ≤ cap) :
+    step q cap qi (midWord σb a) d = .next (copiedNum σb qi w d) := by
+  obtain ⟨hdsp, _, _⟩ := digit_facts hd
+  have hlw : (lower w).length = w.length := by simp [lower]
+  have hp1 : pushAll cap σb.f (lower w) = some (σb.f ++ lower w) := by
+    unfold pushAll; rw [if_pos (by rw [hlw]; omega)]
+  have hgt' : qi > qi0 := hgt
+  rcases litAfter_cases ha with ho | ⟨ho, hpc⟩
+  · simp [step, midWord, ho, hdsp, part2, hd, part3, hfrom, hgt', hslice, hp1, hval, hadd, copiedNum]
+  · rcases hpc with hpc | hpc <;> subst hpc <;>
+      simp [step, midWord, isOpChar, hdsp, part2, hd, part3, hfrom, hgt', hslice, hp1, hval, hadd, copiedNum]
+
+/-- **A number glued to word text** (`id=1`, `f(-2`, `a,.5`): the pending word
+    is copied, the number is read. -/
+theorem num_entry_afterW (q : List Char) (cap : Nat) (qi0 qi : Nat) (σb : St) (a : Char) (w n tail : List Char)
+    (ha : litAfter a = true) (hbad : wordBad a = false) (hgt : qi0 < qi) (hfrom : σb.cpFrom = (qi0 : Int))
+    (hto : σb.cpTo ≤ (qi0 : Int)) (hslice : slice? q qi0 qi = some w) (hval : isValuesWord (lower w) = false)
+    (hadd : σb.addSpace = false) (hcap : σb.f.length + w.length ≤ cap)
+    (hq : q.drop qi = n ++ tail) (hshape : numShape n = true)
+    (hesc : σb.escape = false) (hsql : σb.sqlState ≠ .inValues) (hdupe : NoDupe d σb)
+    (hpo : σb.parOpen = 0) (hpt : σb.parOpenTotal = 0) :
+    ∃ σ1, runSeg q cap qi (midWord σb a) n = .next σ1 ∧ NumSt d σ1 ∧ σ1.f = σb.f ++ lower w ∧
+      σ1.prevWord = lower w := by
+  have hlw : (lower w).length = w.length := by simp [lower]
+  have hp1 : pushAll cap σb.f (lower w) = some (σb.f ++ lower w) := by
+    unfold pushAll; rw [if_pos (by rw [hlw]; omega)]
+  have hgt' : (qi : Int) > (qi0 : Int) := by omega
+  have hnum : ∀ p, prOK p = true → isSpace p = false → NumSt d (copiedNum σb qi w p) := by
+    intro p h1 h2
+    exact ⟨rfl, h1, h2, hesc, hsql, hval, hadd, hdupe, hpo, hpt⟩
+  simp only [wordBad, Bool.or_eq_false_iff, decide_eq_false_iff_not] at hbad
+  obtain ⟨⟨⟨⟨⟨⟨⟨hasp, _⟩, _⟩, _⟩, _⟩, hami⟩, _⟩, _⟩ := hbad
+  cases n with
+  | nil => simp [numShape] at hshape
+  | cons c r =>
+    simp only [numShape] at hshape
+    by_cases hd : isDigit c = true
+    · rw [if_pos hd] at hshape
+      obtain ⟨hcsp, _, hcpr⟩ := digit_facts hd
+      have h1 := step_lit_digit q cap qi0 qi σb a c w ha hd (by omega) hfrom hslice hval hadd hcap
+      have h2 := runSeg_numTail q cap (copiedNum σb qi w c) rfl r c qi tail hshape (by simpa using hq)
+      exact ⟨_, by simp only [runSeg, h1]; exact h2, hnum c hcpr hcsp, rfl, rfl⟩
+    · rw [if_neg hd] at hshape
+      by_cases hsd : c = '-' ∨ c = '+' ∨ c = '.'
+      · rw [if_pos hsd] at hshape
+        cases r with
+        | nil => simp at hshape
+        | cons d r' =>
+          simp only [Bool.and_eq_true] at hshape
+          obtain ⟨hdd, htl⟩ := hshape
+          obtain ⟨hdsp, hdnc, hdpr⟩ := digit_facts hdd
+          have hq1 : q.drop (qi + 1) = d :: (r' ++ tail) := drop_succ_of_drop (by simpa using hq)
+          have hto' : σb.cpTo ≤ σb.cpFrom := by rw [hfrom]; exact hto
+          have hsign : ∀ sg : Char, (sg = '-' ∨ sg = '+') → σb.cpTo ≤ σb.cpFrom →
+              step q cap qi (midWord σb a) sg = .next { σb with s := .opOrNumber, pr := sg } := by
+            intro sg hsg hto
+            have hn : ¬ σb.cpTo > σb.cpFrom := Int.not_lt.mpr hto
+            rcases hsg with e | e <;> subst e <;>
+              by_cases ho : isOpChar a = true <;>
+                simp [step, midWord, ho, isSpace, hasp, part2, isDigit, part3, hn, hami]
+          have hdig2 : ∀ sg : Char, step q cap ((qi + 1 : Nat) : Int) { σb with s := .opOrNumber, pr := sg } d =
+              .next (copiedNum σb qi w d) := by
+            intro sg
+            have e : ((qi + 1 : Nat) : Int) - 1 = (qi : Int) := by omega
+            simp [step, hdsp, part2, hdd, part3, hfrom, hgt', hslice, hp1, hval, hadd, copiedNum]
+          rcases hsd with hs' | hs' | hs'
+          · subst hs'
+            have h3 := runSeg_numTail q cap (copiedNum σb qi w d) rfl r' d (qi + 1) tail htl hq1
+            exact ⟨_, by simp only [runSeg, hsign '-' (Or.inl rfl) hto', hdig2 '-']; exact h3, hnum d hdpr hdsp, rfl, rfl⟩
+          · subst hs'
+            have h3 := runSeg_numTail q cap (copiedNum σb qi w d) rfl r' d (qi + 1) tail htl hq1
+            exact ⟨_, by simp only [runSeg, hsign '+' (Or.inr rfl) hto', hdig2 '+']; exact h3, hnum d hdpr hdsp, rfl, rfl⟩
+          · subst hs'
+            have hnn : numberNext q (qi : Int) = true := by
+              have : q[qi + 1]? = some d := by
+                have := getElem?_of_drop (b := tail) (by simpa using hq : q.drop qi = ('.' :: d :: r') ++ tail) 1 (by simp)
+                simpa using this
+              have e : ((qi : Int) + 1).toNat = qi + 1 := by omega
+              simp [numberNext, e, this, hdd]
+            have h1 : step q cap qi (midWord σb a) '.' = .next (copiedNum σb qi w '.') := by
+              rcases litAfter_cases ha with ho | ⟨ho, hpc⟩
+              · simp [step, midWord, ho, isSpace, part2, isDigit, part3, hfrom, hgt', hslice, hp1, hval, hadd, copiedNum]
+              · rcases hpc with hpc | hpc <;> subst hpc <;>
+                  simp [step, midWord, isOpChar, isSpace, part2, isDigit, hnn, part3, hfrom, hgt', hslice, hp1, hval, hadd,
+                    copiedNum]
+            have h3 := runSeg_numTail q cap (copiedNum σb qi w '.') rfl (d :: r') '.' qi tail
+              (numTail_of_digit '.' d r' hdd htl) (by simpa using hq)
+            exact ⟨_, by simp only [runSeg, h1]; exact h3,
+              hnum '.' (by decide) (by decide), rfl, rfl⟩
+      · rw [if_neg hsd] at hshape; cases hshape
+
+/-! ### Quoted strings -/
+
+theorem lookahead_of_drop {q : List Char} {qi : Nat} {x : Char} {rest : List Char} (h : q.drop qi = x :: rest) :
+    q[qi + 1]? = rest.head? := by
+  have := congrArg List.head? (drop_succ_of_drop h)
+  simpa [List.head?_drop] using this
+
+/-- Reading the body of a quoted value up to and including its closing quote
+    (a doubled quote character does not close it). -/
+theorem runSeg_quote (q : List Char) (cap : Nat) (σ1 : St) (c : Char) (g : List Char)
+    (hs : σ1.s = .inQuote) (hqc : σ1.quoteChar = c) (hsql : σ1.sqlState ≠ .inValues)
+    (hf : σ1.f = g) (hcap : g.length + 1 ≤ cap) :
+    ∀ (body : List Char) (esc : Bool) (qi : Nat) (tail : List Char), closesAt c esc body = true →
+      q.drop qi = body ++ tail → tail.head? ≠ some c →
+      runSeg q cap qi { σ1 with escape := esc } body =
+        .next { σ1 with escape := false, cpFrom := ((qi + body.length : Nat) : Int), f := g ++ ['?'], s := .unknown } := by
+  intro body
+  induction body with
+  | nil => intro esc qi tail h; simp [closesAt] at h
+  | cons x rest ih =>
+    intro esc qi tail h hq htl
+    have hq1 : q.drop (qi + 1) = rest ++ tail := drop_succ_of_drop (by simpa using hq)
+    have hla : q[qi + 1]? = (rest ++ tail).head? := lookahead_of_drop (by simpa using hq)
+    unfold closesAt at h
+    by_cases hx : x = c
+    · subst hx
+      simp only [ne_eq, not_true_eq_false, if_false] at h
+      cases esc with
+      | true =>
+        simp only [if_true] at h
+        have : step q cap qi { σ1 with escape := true } x = .next { σ1 with escape := false } := by
+          simp [step, hs, hqc]
+        simp only [runSeg, this]
+        have := ih false (qi + 1) tail h hq1 htl
+        rw [this]
+        simp; omega
+      | false =>
+        simp only [Bool.false_eq_true, if_false] at h
+        cases rest with
+        | nil =>
+          have hpush : push cap g '?' = some (g ++ ['?']) := by
+            unfold push; rw [if_pos (by omega)]
+          have hne : ¬ (q[qi + 1]? = some x) := by
+            rw [hla]; simpa using htl
+          have : step q cap qi { σ1 with escape := false } x =
+              .next { σ1 with escape := false, cpFrom := (qi : Int) + 1, f := g ++ ['?'], s := .unknown } := by
+            simp [step, hs, hqc, hsql, hf, hpush, hne]
+          simp only [runSeg, this]
+          simp
+        | cons y rest' =>
+          simp only at h
+          by_cases hy : y = x
+          · subst hy
+            rw [if_pos rfl] at h
+            have hdbl : q[qi + 1]? = some y := by rw [hla]; simp
+            have : step q cap qi { σ1 with escape := false } y = .next { σ1 with escape := true } := by
+              simp [step, hs, hqc, hdbl]
+            simp only [runSeg, this]
+            have := ih true (qi + 1) tail h hq1 htl
+            simp only [runSeg] at this
+            rw [this]
+            simp; omega
+          · rw [if_neg hy] at h; cases h
+    · simp only [ne_eq, hx, not_false_eq_true, if_true] at h
+      cases esc with
+      | true =>
+        simp only [if_true] at h
+        have : step q cap qi { σ1 with escape := true } x = .next { σ1 with escape := false } := by
+          simp [step, hs, hqc, hx]
+        simp only [runSeg, this]
+        have := ih false (qi + 1) tail h hq1 htl
+        rw [this]
+        simp; omega
+      | false =>
+        simp only [Bool.false_eq_true, if_false] at h
+        by_cases hb : x = '\\'
+        · subst hb
+          simp only [if_true] at h
+          have hx' : ¬ ('\\' = σ1.quoteChar) := by rw [hqc]; exact hx
+          have : step q cap qi { σ1 with escape := false } '\\' = .next { σ1 with escape := true } := by
+            simp [step, hs, hx']
+          simp only [runSeg, this]
+          have := ih true (qi + 1) tail h hq1 htl
+          rw [this]
+          simp; omega
+        · simp only [hb, if_false] at h
+          have : step q cap qi { σ1 with escape := false } x = .next { σ1 with escape := false } := by
+            simp [step, hs, hqc, hx, hb]
+          simp only [runSeg, this]
+          have := ih false (qi + 1) tail h hq1 htl
+          rw [this]
+          simp; omega
+
+theorem quote_facts {c : Char} (h : c = '\'' ∨ c = '"') :
+    isSpace c = false ∧ isDigit c = false ∧ prOK c = true := by
+  rcases h with h | h <;> subst h <;> decide
+
+/-- **A quoted string at the beginning of a chunk.** -/
+theorem str_entry_fresh (q : List Char) (cap : Nat) (qi : Nat) (σ : St) (t tail : List Char)
+    (hc : Ready d qi σ) (hq : q.drop qi = t ++ tail) (hcap : 2 * q.length < cap) (hshape : strShape t = true)
+    (htl : ∀ c body, t = c :: body → tail.head? ≠ some c) :
+    ∃ σ2, runSeg q cap qi σ t = .next σ2 ∧ Ready d (qi + t.length) σ2 ∧ σ2.f = σ.f ++ ['?'] ∧
+      σ2.prevWord = σ.prevWord ∧ isSpace σ2.pr = false ∧ σ2.s = .unknown := by
+  cases t with
+  | nil => simp [strShape] at hshape
+  | cons c body =>
+    simp only [strShape, Bool.and_eq_true, Bool.or_eq_true, decide_eq_true_eq] at hshape
+    obtain ⟨hquote, hclose⟩ := hshape
+    have hlt : qi < q.length := lt_length_of_drop (by simpa using hq)
+    obtain ⟨hp1, hp2, hp3, _⟩ := hc.pr_facts
+    obtain ⟨hcsp, hcd, hcpr⟩ := quote_facts hquote
+    have hnlt : ¬ ((qi : Int) > σ.cpFrom) := by rw [hc.hfrom]; omega
+    let σ1 : St := { σ with s := .inQuote, quoteChar := c, cpTo := qi, pr := c }
+    have h1 : step q cap qi σ c = .next σ1 := by
+      rcases hc.s_cases with hs | hs <;>
+        simp [step, hs, hcsp, hcd, part2, hquote, hp1, hp2, hp3, part3, hnlt, σ1]
+    have hesc : σ1 = { σ1 with escape := false } := by simp [σ1, hc.hesc]
+    have hq1 : q.drop (qi + 1) = body ++ tail := drop_succ_of_drop (by simpa using hq)
+    have h2 := runSeg_quote q cap σ1 c σ.f rfl rfl hc.hsql rfl (by have := hc.hlen; omega) body false (qi + 1) tail hclose
+      hq1 (htl c body rfl)
+    rw [← hesc] at h2
+    refine ⟨{ σ1 with escape := false, cpFrom := ((qi + 1 + body.length : Nat) : Int), f := σ.f ++ ['?'], s := .unknown },
+      by simp only [runSeg, h1]; exact h2, ?_, rfl, rfl, hcsp, rfl⟩
+    exact { hs := Or.inr rfl, hpr := hcpr, hfrom := by simp; omega, hto := by simp [σ1]; omega, hesc := rfl,
+            hsql := hc.hsql, hlen := by have := hc.hlen; simp; omega, hpw := hc.hpw, hadd := hc.hadd,
+            hdupe := hc.hdupe, hpo := hc.hpo, hpt := hc.hpt }
+
+/-- The quote after word text: the pending word is copied, a quoted value begins. -/
+theorem step_lit_quote (q : List Char) (cap : Nat) (qi0 qi : Int) (σb : St) (a c : Char) (w : List Char)
+    (hasp : isSpace a = false) (ha1 : a ≠ '\\') (ha2 : a ≠ 'x') (ha3 : a ≠ 'b')
+    (hc : c = '\'' ∨ c = '"') (hgt : qi0 < qi) (hfrom : σb.cpFrom = qi0)
+    (hslice : slice? q qi0 qi = some w) (hval : isValuesWord (lower w) = false)
+    (hadd : σb.addSpace = false) (hcap : σb.f.length + w.length ≤ cap) :
+    step q cap qi (midWord σb a) c =
+      .next { σb with prevWord := lower w, f := σb.f ++ lower w, cpFrom := qi, cpTo := qi, s := .inQuote,
+                      quoteChar := c, pr := c } := by
+  obtain ⟨hcsp, hcd, _⟩ := quote_facts hc
+  have hlw : (lower w).length = w.length := by simp [lower]
+  have hp1 : pushAll cap σb.f (lower w) = some (σb.f ++ lower w) := by
+    unfold pushAll; rw [if_pos (by rw [hlw]; omega)]
+  have hgt' : qi > qi0 := hgt
+  by_cases ho : isOpChar a = true <;>
+    simp [step, midWord, ho, hcsp, hcd, hasp, part2, hc, ha1, ha2, ha3, part3, hfrom, hgt', hslice, hp1, hval, hadd]
+
+/-- **A quoted string glued to word text** (`name='x'`, `f('a'`). -/
+theorem str_entry_afterW (q : List Char) (cap : Nat) (qi0 qi : Nat) (σb : St) (a : Char) (w t tail : List Char)
+    (hbad : wordBad a = false) (ha1 : a ≠ '\\') (ha2 : a ≠ 'x') (ha3 : a ≠ 'b')
+    (hgt : qi0 < qi) (hfrom : σb.cpFrom = (qi0 : Int))
+    (hslice : slice? q qi0 qi = some w) (hwlen : w.length = qi - qi0) (hval : isValuesWord (lower w) = false)
+    (hadd : σb.addSpace = false) (hlen : σb.f.length ≤ 2 * qi0) (hcap : 2 * q.length < cap)
+    (hq : q.drop qi = t ++ tail) (hshape : strShape t = true)
+    (htl : ∀ c body, t = c :: body → tail.head? ≠ some c)
+    (hesc : σb.escape = false) (hsql : σb.sqlState ≠ .inValues) (hdupe : NoDupe d σb)
+    (hpo : σb.parOpen = 0) (hpt : σb.parOpenTotal = 0) :
+    ∃ σ2, runSeg q cap qi (midWord σb a) t = .next σ2 ∧ Ready d (qi + t.length) σ2 ∧
+      σ2.f = σb.f ++ lower w ++ ['?'] ∧ σ2.prevWord = lower w ∧ isSpace σ2.pr = false ∧ σ2.s = .unknown := by
+  cases t with
+  | nil => simp [strShape] at hshape
+  | cons c body =>
+    simp only [strShape, Bool.and_eq_true, Bool.or_eq_true, decide_eq_true_eq] at hshape
+    obtain ⟨hquote, hclose⟩ := hshape
+    have hlt : qi < q.length := lt_length_of_drop (by simpa using hq)
+    obtain ⟨hcsp, hcd, hcpr⟩ := quote_facts hquote
+    have hlw : (lower w).length = w.length := by simp [lower]
+    have h1 := step_lit_quote q cap qi0 qi σb a c w (isSpace_of_not_bad hbad) ha1 ha2 ha3 hquote (by omega) hfrom hslice hval
+      hadd (by omega)
+    let σ1 : St := { σb with prevWord := lower w, f := σb.f ++ lower w, cpFrom := (qi : Int), cpTo := (qi : Int),
+                             s := .inQuote, quoteChar := c, pr := c }
+    have hesc1 : σ1 = { σ1 with escape := false } := by simp [σ1, hesc]
+    have hq1 : q.drop (qi + 1) = body ++ tail := drop_succ_of_drop (by simpa using hq)
+    have h2 := runSeg_quote q cap σ1 c (σb.f ++ lower w) rfl rfl hsql rfl (by simp [hlw]; omega) body false (qi + 1) tail
+      hclose hq1 (htl c body rfl)
+    rw [← hesc1] at h2
+    refine ⟨{ σ1 with escape := false, cpFrom := ((qi + 1 + body.length : Nat) : Int),
+                      f := (σb.f ++ lower w) ++ ['?'], s := .unknown },
+      by simp only [runSeg, h1]; exact h2, ?_, rfl, rfl, hcsp, rfl⟩
+    exact { hs := Or.inr rfl, hpr := hcpr, hfrom := by simp; omega, hto := by simp [σ1]; omega, hesc := rfl,
+            hsql := hsql, hlen := by simp [hlw]; omega, hpw := hval, hadd := hadd,
+            hdupe := hdupe, hpo := hpo, hpt := hpt }
+
+/-! ### Hex and bit strings: `x'0F'`, `b'01'` -/
+
+theorem prefix_facts {p : Char} (h : p = 'x' ∨ p = 'b') :
+    isOpChar p = false ∧ okFirst p = true ∧ wordBad p = false ∧ p ≠ '(' ∧ (∀ a, wordBad a = false → okAfter a p = true) := by
+  rcases h with h | h <;> subst h <;>
+    exact ⟨by decide, by decide, by decide, by decide, fun a _ => by simp [okAfter, wordBad, isSpace, isDigit]⟩
+
+/-- **A hex or bit string at the beginning of a chunk**: the prefix is read as
+    word text, the quote finds nothing to copy in front of it. -/
+theorem pstr_entry_fresh (q : List Char) (cap : Nat) (qi : Nat) (σ : St) (p : Char) (t tail : List Char)
+    (hc : Ready d qi σ) (hp : p = 'x' ∨ p = 'b') (hq : q.drop qi = (p :: t) ++ tail) (hcap : 2 * q.length < cap)
+    (hshape : strShape t = true) (htl : ∀ c body, t = c :: body → tail.head? ≠ some c) :
+    ∃ σ2, runSeg q cap qi σ (p :: t) = .next σ2 ∧ Ready d (qi + (p :: t).length) σ2 ∧ σ2.f = σ.f ++ ['?'] ∧
+      σ2.prevWord = σ.prevWord ∧ isSpace σ2.pr = false ∧ σ2.s = .unknown := by
+  obtain ⟨hpop, hpfirst, _, hppar, _⟩ := prefix_facts hp
+  cases t with
+  | nil => simp [strShape] at hshape
+  | cons c body =>
+    simp only [strShape, Bool.and_eq_true, Bool.or_eq_true, decide_eq_true_eq] at hshape
+    obtain ⟨hquote, hclose⟩ := hshape
+    have hlt : qi < q.length := lt_length_of_drop (by simpa using hq)
+    obtain ⟨hcsp, hcd, hcpr⟩ := quote_facts hquote
+    have h1 := step_first q cap qi σ p hc (by omega) hpfirst (fun e => absurd e hppar)
+    obtain ⟨e1, e2, e3, e4, e5, e6, e7, e8, e9⟩ := baseWord_frame σ qi p
+    let σb := baseWord σ qi p
+    let σ1 : St := { σb with s := .inQuote, quoteChar := c, cpTo := ((qi + 1 : Nat) : Int) - 1, pr := c }
+    have hnlt : ¬ (((qi + 1 : Nat) : Int) - 1 > σb.cpFrom) := by rw [e1]; omega
+    have hpsp : isSpace p = false := by rcases hp with h | h <;> subst h <;> decide
+    have hpb : p ≠ '\\' := by rcases hp with h | h <;> subst h <;> decide
+    have h2 : step q cap ((qi + 1 : Nat) : Int) (midWord σb p) c = .next σ1 := by
+      have hnlt' : ¬ (σb.cpFrom < (qi : Int)) := by rw [e1]; omega
+      simp [step, midWord, hpop, hcsp, hcd, hpsp, part2, hquote, hpb, hp, part3, hnlt', σ1]
+    have hesc1 : σ1 = { σ1 with escape := false } := by
+      have : σb.escape = false := by rw [e5]; exact hc.hesc
+      simp [σ1, this]
+    have hq1 : q.drop (qi + 1 + 1) = body ++ tail := by
+      apply drop_succ_of_drop (c := c)
+      exact drop_succ_of_drop (by simpa using hq)
+    have h3 := runSeg_quote q cap σ1 c σ.f rfl rfl (by show σb.sqlState ≠ _; rw [e6]; exact hc.hsql) e4
+      (by have := hc.hlen; omega) body false (qi + 1 + 1) tail hclose hq1 (htl c body rfl)
+    rw [← hesc1] at h3
+    have h2' : step q cap ((qi + 1 : Nat) : Int) (midWord (baseWord σ (qi : Int) p) p) c = .next σ1 := h2
+    refine ⟨{ σ1 with escape := false, cpFrom := ((qi + 1 + 1 + body.length : Nat) : Int), f := σ.f ++ ['?'], s := .unknown },
+      by simp only [runSeg, h1, h2']; exact h3, ?_, rfl, e3, hcsp, rfl⟩
+    exact { hs := Or.inr rfl, hpr := hcpr, hfrom := by simp; omega, hto := by simp [σ1]; omega, hesc := rfl,
+            hsql := by show σb.sqlState ≠ _; rw [e6]; exact hc.hsql
+            hlen := by have := hc.hlen; simp; omega
+            hpw := by show isValuesWord σb.prevWord = false; rw [e3]; exact hc.hpw
+            hadd := by show σb.addSpace = false; rw [e7]; exact hc.hadd
+            hdupe := by intro hd; show σb.sqlState ≠ _; rw [e6]; exact hc.hdupe hd
+            hpo := by show σb.parOpen = 0; rw [e8]; exact hc.hpo
+            hpt := by show σb.parOpenTotal = 0; rw [e9]; exact hc.hpt }
+
+/-- **A hex or bit string glued to word text** (`a=x'0F'`): the text in front
+    of the prefix is copied. -/
+theorem pstr_entry_afterW (q : List Char) (cap : Nat) (qi0 qi : Nat) (σb : St) (a p : Char) (w t tail : List Char)
+    (hbad : wordBad a = false) (hp : p = 'x' ∨ p = 'b')
+    (hgt : qi0 < qi) (hfrom : σb.cpFrom = (qi0 : Int)) (hto : σb.cpTo ≤ (qi0 : Int))
+    (hslice : slice? q qi0 qi = some w) (hwlen : w.length = qi - qi0) (hval : isValuesWord (lower w) = false)
+    (hadd : σb.addSpace = false) (hlen : σb.f.length ≤ 2 * qi0) (hcap : 2 * q.length < cap)
+    (hq : q.drop qi = (p :: t) ++ tail) (hshape : strShape t = true)
+    (htl : ∀ c body, t = c :: body → tail.head? ≠ some c)
+    (hesc : σb.escape = false) (hsql : σb.sqlState ≠ .inValues) (hdupe : NoDupe d σb)
+    (hpo : σb.parOpen = 0) (hpt : σb.parOpenTotal = 0) :
+    ∃ σ2, runSeg q cap qi (midWord σb a) (p :: t) = .next σ2 ∧ Ready d (qi + (p :: t).length) σ2 ∧
+      σ2.f = σb.f ++ lower w ++ ['?'] ∧ σ2.prevWord = lower w ∧ isSpace σ2.pr = false ∧ σ2.s = .unknown := by
+  obtain ⟨hpop, _, _, hppar, hpok⟩ := prefix_facts hp
+  cases t with
+  | nil => simp [strShape] at hshape
+  | cons c body =>
+    simp only [strShape, Bool.and_eq_true, Bool.or_eq_true, decide_eq_true_eq] at hshape
+    obtain ⟨hquote, hclose⟩ := hshape
+    have hlt : qi < q.length := lt_length_of_drop (by simpa using hq)
+    obtain ⟨hcsp, hcd, hcpr⟩ := quote_facts hquote
+    have hlw : (lower w).length = w.length := by simp [lower]
+    have h1 := step_mid q cap qi σb a p (by rw [hfrom]; exact hto) (hpok a hbad) (fun e => absurd e hppar)
+      (fun e => absurd e hppar)
+    let σ1 : St := { σb with prevWord := lower w, f := σb.f ++ lower w, cpFrom := (qi : Int), cpTo := (qi : Int),
+                             s := .inQuote, quoteChar := c, pr := c }
+    have hp1 : pushAll cap σb.f (lower w) = some (σb.f ++ lower w) := by
+      unfold pushAll; rw [if_pos (by rw [hlw]; omega)]
+    have hpsp : isSpace p = false := by rcases hp with h | h <;> subst h <;> decide
+    have hpb : p ≠ '\\' := by rcases hp with h | h <;> subst h <;> decide
+    have hgt' : (qi0 : Int) < (qi : Int) := by omega
+    have h2 : step q cap ((qi + 1 : Nat) : Int) (midWord σb p) c = .next σ1 := by
+      simp [step, midWord, hpop, hcsp, hcd, hpsp, part2, hquote, hpb, hp, part3, hfrom, hgt', hslice, hp1, hval, hadd, σ1]
+    have hesc1 : σ1 = { σ1 with escape := false } := by simp [σ1, hesc]
+    have hq1 : q.drop (qi + 1 + 1) = body ++ tail := by
+      apply drop_succ_of_drop (c := c)
+      exact drop_succ_of_drop (by simpa using hq)
+    have h3 := runSeg_quote q cap σ1 c (σb.f ++ lower w) rfl rfl hsql rfl (by simp [hlw]; omega) body false (qi + 1 + 1) tail
+      hclose hq1 (htl c body rfl)
+    rw [← hesc1] at h3
+    refine ⟨{ σ1 with escape := false, cpFrom := ((qi + 1 + 1 + body.length : Nat) : Int),
+                      f := (σb.f ++ lower w) ++ ['?'], s := .unknown },
+      by simp only [runSeg, h1, h2]; exact h3, ?_, rfl, rfl, hcsp, rfl⟩
+    exact { hs := Or.inr rfl, hpr := hcpr, hfrom := by simp; omega, hto := by simp [σ1]; omega, hesc := rfl,
+            hsql := hsql, hlen := by simp [hlw]; omega, hpw := hval, hadd := hadd,
+            hdupe := hdupe, hpo := hpo, hpt := hpt }
+
+/-! ### Chunks -/
 
 /-- A space read in the `unknown` state right after a `?` was written. -/
 theorem step_space_after_value (q : List Char) (cap : Nat) (qi : Int) (σ : St) (g : List Char) (r : Char)
@@ -546,463 +1151,443 @@ theorem step_space_after_value (q : List Char) (cap : Nat) (qi : Int) (σ : St) 
   have hq : isSpace '?' = false := by decide
   simp [step, hs, hr, hpr, part2, hd, hf, hpush, part3, hnlt, hq]
 
-/-- **Numeric literals.** -/
-theorem num_item (q : List Char) (cap : Nat) (qi : Nat) (σ : St) (n : List Char) (r : Char) (tail : List Char)
-    (hc : Clean qi σ) (hq : q.drop qi = n ++ r :: tail) (hcap : 2 * q.length < cap)
-    (hshape : numShape n = true) (hr : isSpace r = true) :
-    ∃ σ', runSeg q cap qi σ (n ++ [r]) = .next σ' ∧ Clean (qi + n.length + 1) σ' ∧
-      σ'.f = σ.f ++ ['?', ' '] ∧ σ'.prevWord = σ.prevWord := by
-  cases n with
-  | nil => simp [numShape] at hshape
-  | cons c rest =>
-    simp only [numShape, Bool.and_eq_true] at hshape
-    obtain ⟨hdig, hrest⟩ := hshape
-    have hqlen : qi + (c :: rest).length + 1 ≤ q.length := by
-      have := congrArg List.length hq
-      simp at this ⊢; omega
-    have hcsp : isSpace c = false := by
-      simp only [isDigit, decide_eq_true_eq] at hdig
-      simp only [isSpace, Bool.or_eq_false_iff, decide_eq_false_iff_not]
-      refine ⟨⟨⟨?_, ?_⟩, ?_⟩, ?_⟩ <;> intro h <;> subst h <;> revert hdig <;> decide
-    have hnlt : ¬ ((qi : Int) > σ.cpFrom) := by rw [hc.hfrom]; omega
-    let σ1 : St := { σ with cpTo := qi, s := .inNumber, pr := c }
-    have h1 : step q cap qi σ c = .next σ1 := by
-      rcases hc.s_cases with hs | hs <;> simp [step, hs, hcsp, part2, hdig, part3, hnlt, σ1]
-    have h2 := runSeg_number q cap σ1 rfl rest (qi + 1) hrest
-    obtain ⟨hd, hnc, hnn, _, _⟩ := isSpace_not_digit hr
-    have hpush : push cap σ.f '?' = some (σ.f ++ ['?']) := by
-      unfold push; rw [if_pos (by have := hc.hlen; omega)]
-    let qe : Nat := qi + (c :: rest).length
-    let σ2 : St := { σ1 with f := σ.f ++ ['?'], cpFrom := qe, cpTo := qe, s := .unknown }
-    have h3a : step q cap qe σ1 r = part2 q cap qe σ2 r := by
-      simp [step, σ1, σ2, hnc, hnn, hpush]
-    -- σ2 is in the `unknown` state with the digit as previous rune: the space is added
-    have hq' : isSpace '?' = false := by decide
-    have hpush2 : push cap (σ.f ++ ['?']) ' ' = some (σ.f ++ ['?', ' ']) := by
-      unfold push; rw [if_pos (by have := hc.hlen; simp; omega)]; simp
-    have h3 : step q cap qe σ1 r =
-        .next { σ2 with f := σ.f ++ ['?', ' '], cpFrom := (qe : Int) + 1, pr := r } := by
-      rw [h3a]
-      have hnlt2 : ¬ ((qe : Int) > (qe : Int) + 1) := by omega
-      simp [part2, σ2, σ1, hd, hr, hpush2, part3, hnlt2, hq']
-    refine ⟨{ σ2 with f := σ.f ++ ['?', ' '], cpFrom := (qe : Int) + 1, pr := r }, ?_, ?_, ?_, ?_⟩
-    · have e : (c :: rest) ++ [r] = c :: (rest ++ [r]) := by simp
-      rw [e]
-      simp only [runSeg, h1]
-      rw [runSeg_append, h2]
-      simp only [runSeg]
-      have e2 : qi + 1 + rest.length = qe := by simp [qe]; omega
-      rw [e2, h3]
-    · constructor
-      · right; exact ⟨rfl, by simp [cleanPr, hr]⟩
-      · simp [qe]
-      · simp [σ2, qe]; omega
-      · simp [σ2, σ1, hc.hesc]
+/-- The statement about chunks of at most `n` segments: from a ready state
+    (`fresh`: at the beginning of the chunk; otherwise right after a literal)
+    the segments and the white-space character after them contribute their
+    normal forms and one blank, and leave a clean state. -/
+def ChunkA (q : List Char) (cap : Nat) (n : Nat) : Prop :=
+  ∀ (segs : List Seg), segs.length ≤ n →
+  ∀ (d : Bool) (qi : Nat) (σ : St) (fresh : Bool) (r : Char) (tail : List Char),
+    Ready d qi σ →
+    (fresh = false → σ.s = .unknown ∧ isSpace σ.pr = false ∧ ∃ g, σ.f = g ++ ['?']) →
+    segsOK (if fresh then .start else .afterLit) segs = true →
+    segsCtx σ.prevWord segs = true →
+    q.drop qi = segsText segs ++ r :: tail → isSpace r = true →
+    ∃ σ', runSeg q cap qi σ (segsText segs ++ [r]) = .next σ' ∧
+      Clean (segsDupe σ.prevWord d segs) (qi + (segsText segs).length + 1) σ' ∧
+      σ'.f = σ.f ++ segsNorm segs ++ [' '] ∧ σ'.prevWord = segsPrev σ.prevWord segs
+
+theorem segsText_cons (x : Seg) (l : List Seg) : segsText (x :: l) = x.text ++ segsText l := by
+  simp [segsText]
+
+theorem segsNorm_cons (x : Seg) (l : List Seg) : segsNorm (x :: l) = x.norm ++ segsNorm l := by
+  simp [segsNorm]
+
+/-- The first character of what follows a literal: white space, or the first
+    character of word text that cannot continue a number. -/
+theorem after_lit_head (rest : List Seg) (r : Char) (tail : List Char) (hr : isSpace r = true)
+    (hok : segsOK .afterLit rest = true) :
+    ∃ c xs, segsText rest ++ r :: tail = c :: xs ∧ isNumberChar c = false ∧ isNotNumberChar c = false ∧
+      c ≠ '+' ∧ c ≠ '\'' ∧ c ≠ '"' := by
+  cases rest with
+  | nil =>
+    obtain ⟨_, h1, h2, h3, h4, h5⟩ := isSpace_not_digit hr
+    exact ⟨r, tail, by simp [segsText], h1, h2, h5, h3, h4⟩
+  | cons x rest' =>
+    cases x with
+    | w t =>
+      cases t with
+      | nil => simp [segsOK, wordShape] at hok
+      | cons c t' =>
+        simp only [segsOK, Bool.and_eq_true, notNumberish, Bool.not_eq_true'] at hok
+        obtain ⟨⟨hnn, hws⟩, _⟩ := hok
+        simp only [wordShape, Bool.and_eq_true, okFirst, wordBad, Bool.not_eq_true', Bool.or_eq_false_iff,
+          decide_eq_false_iff_not] at hws
+        obtain ⟨⟨⟨⟨hbad, _⟩, _⟩, _⟩, _⟩ := hws
+        obtain ⟨⟨⟨⟨⟨⟨⟨_, hq1⟩, hq2⟩, _⟩, hpl⟩, _⟩, _⟩, _⟩ := hbad
+        exact ⟨c, t' ++ segsText rest' ++ r :: tail, by simp [segsText, Seg.text], hnn.1, hnn.2, hpl, hq1, hq2⟩
+    | n t => simp [segsOK] at hok
+    | s t => simp [segsOK] at hok
+    | p c t => simp [segsOK] at hok
+
+/-- After a number: the rest of the chunk. -/
+theorem chunk_after_num (q : List Char) (cap : Nat) (n : Nat) (hcap : 2 * q.length < cap) (ih : ChunkA q cap n) :
+    ∀ (rest : List Seg), rest.length ≤ n →
+    ∀ (qe : Nat) (σ1 : St) (r : Char) (tail : List Char),
+      NumSt d σ1 → σ1.f.length + 1 ≤ 2 * qe →
+      segsOK .afterLit rest = true → segsCtx σ1.prevWord rest = true →
+      q.drop qe = segsText rest ++ r :: tail → isSpace r = true →
+      ∃ σ', runSeg q cap qe σ1 (segsText rest ++ [r]) = .next σ' ∧
+        Clean (segsDupe σ1.prevWord d rest) (qe + (segsText rest).length + 1) σ' ∧
+        σ'.f = σ1.f ++ ['?'] ++ segsNorm rest ++ [' '] ∧ σ'.prevWord = segsPrev σ1.prevWord rest := by
+  intro rest hlen qe σ1 r tail hn hfl hok hctx hq hr
+  obtain ⟨c, xs, hcx, hc1, hc2, hc3, _, _⟩ := after_lit_head rest r tail hr hok
+  have hlt : qe < q.length := lt_length_of_drop (by rw [hq, hcx])
+  have hstep := step_num_end q cap qe σ1 c hn hc1 hc2 hc3 (by omega)
+  obtain ⟨c', xs', hcx'⟩ : ∃ c' xs', segsText rest ++ [r] = c' :: xs' := by
+    cases h : segsText rest ++ [r] with
+    | nil => simp at h
+    | cons a b => exact ⟨a, b, rfl⟩
+  have hcc : c' = c := by
+    have h1 : (segsText rest ++ [r]).head? = (segsText rest ++ r :: tail).head? := by
+      cases segsText rest <;> simp
+    rw [hcx', hcx] at h1
+    simpa using h1
+  subst hcc
+  have hrun : runSeg q cap qe σ1 (segsText rest ++ [r]) = runSeg q cap qe (numDone σ1 qe) (segsText rest ++ [r]) := by
+    rw [hcx']; simp only [runSeg, hstep]
+  obtain ⟨σ', h1, h2, h3, h4⟩ := ih rest hlen d qe (numDone σ1 qe) false r tail (numDone_ready qe σ1 hn hfl)
+    (fun _ => ⟨rfl, hn.hprns, σ1.f, rfl⟩) (by simpa using hok) hctx hq hr
+  exact ⟨σ', by rw [hrun]; exact h1, h2, by rw [h3]; simp [numDone], h4⟩
+
+theorem wordCtx_val {prev w : List Char} (h : wordCtx prev w = true) : isValuesWord (lower w) = false := by
+  simp only [wordCtx, Bool.and_eq_true, Bool.not_eq_true'] at h
+  exact h.1.2
+
+theorem isValuesWord_lower (w : List Char) : isValuesWord (lower w) = isValuesWord w := by
+  have : lower (lower w) = lower w := by
+    simp only [lower, List.map_map]
+    apply List.map_congr_left
+    intro c _
+    simp only [Function.comp]
+    unfold Char.toLower
+    split
+    · rename_i h
+      split
+      · rename_i h2
+        exfalso
+        have h1a := UInt32.le_iff_toNat_le.mp h.1
+        have h1b := UInt32.le_iff_toNat_le.mp h.2
+        have h2a := UInt32.le_iff_toNat_le.mp h2.1
+        have e1 : ('a'.val - 'A'.val).toNat = 32 := by decide
+        have e2 : 'A'.val.toNat = 65 := by decide
+        have e3 : 'Z'.val.toNat = 90 := by decide
+        have h2b := UInt32.le_iff_toNat_le.mp h2.2
+        simp only [UInt32.toNat_add] at h2a h2b
+        rw [e1] at h2a h2b
+        rw [e2] at h1a h2a
+        rw [e3] at h1b h2b
+        omega
+      · rfl
+    · rfl
+  simp [isValuesWord, this]
+
+/-- **Word text inside a chunk**: the first character has been read (`h1`);
+    the rest of the word, the segments after it and the white-space character
+    that ends the chunk. -/
+theorem chunk_word (q : List Char) (cap : Nat) (n : Nat) (hcap : 2 * q.length < cap) (ih : ChunkA q cap n)
+    (qi : Nat) (σ0 σb : St) (c : Char) (wr : List Char) (rest : List Seg) (r : Char) (tail : List Char)
+    (hrl : rest.length ≤ n)
+    (h1 : step q cap qi σ0 c = .next (midWord σb c))
+    (hbfrom : σb.cpFrom = (qi : Int)) (hbto : σb.cpTo ≤ (qi : Int)) (hbesc : σb.escape = false)
+    (hbsql : σb.sqlState ≠ .inValues) (hbdupe : NoDupe d σb) (hblen : σb.f.length ≤ 2 * qi)
+    (hbpo : σb.parOpen = 0) (hbpt : σb.parOpenTotal = 0) (hbadd : σb.addSpace = false)
+    (hq : q.drop qi = (c :: wr) ++ (segsText rest ++ r :: tail))
+    (hshape : wordShape (c :: wr) = true) (hctx : wordCtx σb.prevWord (c :: wr) = true)
+    (hok : ∀ a, (c :: wr).getLast? = some a → segsOK (.afterW a) rest = true)
+    (hrctx : segsCtx (lower (c :: wr)) rest = true) (hr : isSpace r = true) :
+    ∃ σ', runSeg q cap qi σ0 ((c :: wr) ++ (segsText rest ++ [r])) = .next σ' ∧
+      Clean (segsDupe σb.prevWord d (Seg.w (c :: wr) :: rest)) (qi + (c :: wr).length + (segsText rest).length + 1) σ' ∧
+      σ'.f = σb.f ++ lower (c :: wr) ++ segsNorm rest ++ [' '] ∧ σ'.prevWord = segsPrev (lower (c :: wr)) rest := by
+  cases rest with
+  | nil =>
+    obtain ⟨σ', h2, h3, h4, h5⟩ := word_item_core q cap qi σ0 σb c wr r tail h1 hbfrom hbto hbesc hbsql hbdupe hblen
+      hbpo hbpt (by simpa [segsText] using hq) hcap hshape hctx hr
+    exact ⟨σ', by simpa [segsText] using h2, by simpa [segsText, segsDupe] using h3, by simpa [segsNorm] using h4,
+      by simpa [segsPrev] using h5⟩
+  | cons x rest' =>
+    have hcallAll : '(' ∈ (c :: wr) → σb.prevWord ≠ kwCall := by
+      intro hmem
+      simp only [wordCtx, Bool.and_eq_true, Bool.not_eq_true', Bool.and_eq_false_iff, decide_eq_false_iff_not] at hctx
+      rcases hctx.2 with h | h
+      · have : (c :: wr).contains '(' = true := by rw [List.contains_iff_mem]; exact hmem
+        rw [this] at h; cases h
+      · exact h
+    obtain ⟨a, hw1, hlast, hbad, hsl⟩ := word_prefix_core q cap qi σ0 σb c wr _ h1 hbfrom hbto hq hshape hcallAll
+    have hoka := hok a hlast
+    have hval := wordCtx_val hctx
+    have hsw := hsl (c :: wr).length (Nat.le_refl _)
+    rw [List.take_length] at hsw
+    have hlw : (lower (c :: wr)).length = (c :: wr).length := by simp [lower]
+    have hq2 : q.drop (qi + (c :: wr).length) = segsText (x :: rest') ++ r :: tail := drop_after q qi _ _ hq
+    have hqlen : qi + (c :: wr).length < q.length := by
+      apply lt_length_of_drop (c := (segsText (x :: rest') ++ r :: tail).head!) (t := (segsText (x :: rest') ++ r :: tail).tail)
+      rw [hq2]
+      cases h : segsText (x :: rest') ++ r :: tail with
+      | nil => simp at h
+      | cons _ _ => rfl
+    simp only [List.length_cons] at hrl
+    cases x with
+    | w t => simp [segsOK] at hoka
+    | n u =>
+      simp only [segsOK, Bool.and_eq_true] at hoka
+      obtain ⟨⟨⟨hla, hns⟩, _⟩, hokr⟩ := hoka
+      have hq3 : q.drop (qi + (c :: wr).length) = u ++ (segsText rest' ++ r :: tail) := by
+        simpa [segsText_cons, Seg.text] using hq2
+      obtain ⟨σ1, hn1, hnst, hf1, hp1⟩ := num_entry_afterW q cap qi (qi + (c :: wr).length) σb a (c :: wr) u _ hla hbad
+        (by simp) hbfrom hbto hsw hval hbadd (by omega) hq3 hns hbesc hbsql hbdupe hbpo hbpt
+      have hulen : 0 < u.length := by
+        cases u with
+        | nil => simp [numShape] at hns
+        | cons _ _ => simp
+      obtain ⟨σ', h2, h3, h4, h5⟩ := chunk_after_num q cap n hcap ih rest' (by omega) (qi + (c :: wr).length + u.length) σ1
+        r tail hnst (by rw [hf1]; simp only [List.length_append, hlw]; omega) hokr
+        (by rw [hp1]; simpa [segsCtx] using hrctx) (drop_after q _ _ _ hq3) hr
+      refine ⟨σ', ?_, ?_, ?_, ?_⟩
+      · rw [runSeg_append, hw1]
+        simp only [segsText_cons, Seg.text, List.append_assoc]
+        rw [runSeg_append, hn1]
+        exact h2
+      · have e : qi + (c :: wr).length + (segsText (Seg.n u :: rest')).length + 1 =
+            qi + (c :: wr).length + u.length + (segsText rest').length + 1 := by
+          simp [segsText_cons, Seg.text]; omega
+        rw [e]; rw [hp1] at h3; simpa [segsDupe] using h3
+      · rw [h4, hf1]; simp [segsNorm_cons, Seg.norm]
+      · rw [h5, hp1]; simp [segsPrev]
+    | s u =>
+      simp only [segsOK, Bool.and_eq_true, bne_iff_ne, ne_eq, decide_eq_true_eq, Bool.not_eq_true',
+        decide_eq_false_iff_not] at hoka
+      obtain ⟨⟨⟨⟨⟨ha1, ha2⟩, ha3⟩, hss⟩, _⟩, hokr⟩ := hoka
+      have hq3 : q.drop (qi + (c :: wr).length) = u ++ (segsText rest' ++ r :: tail) := by
+        simpa [segsText_cons, Seg.text] using hq2
+      obtain ⟨cc, xs, hcx, _, _, _, hnq1, hnq2⟩ := after_lit_head rest' r tail hr hokr
+      have htl : ∀ c0 body, u = c0 :: body → (segsText rest' ++ r :: tail).head? ≠ some c0 := by
+        intro c0 body hu
+        rw [hcx]
+        simp only [List.head?_cons, ne_eq, Option.some.injEq]
+        intro e
+        subst e; subst hu
+        simp only [strShape, Bool.and_eq_true, Bool.or_eq_true, decide_eq_true_eq] at hss
+        rcases hss.1 with h | h
+        · exact hnq1 h
+        · exact hnq2 h
+      obtain ⟨σ2, hs1, hrd, hf2, hp2, hprns, hs2⟩ := str_entry_afterW q cap qi (qi + (c :: wr).length) σb a (c :: wr) u _
+        hbad ha1 ha2 ha3 (by simp) hbfrom hsw (by simp) hval hbadd hblen hcap hq3 hss htl hbesc hbsql hbdupe hbpo hbpt
+      obtain ⟨σ', h2, h3, h4, h5⟩ := ih rest' (by omega) d (qi + (c :: wr).length + u.length) σ2 false r tail hrd
+        (fun _ => ⟨hs2, hprns, σb.f ++ lower (c :: wr), hf2⟩) (by simpa using hokr)
+        (by rw [hp2]; simpa [segsCtx] using hrctx) (drop_after q _ _ _ hq3) hr
+      refine ⟨σ', ?_, ?_, ?_, ?_⟩
+      · rw [runSeg_append, hw1]
+        simp only [segsText_cons, Seg.text, List.append_assoc]
+        rw [runSeg_append, hs1]
+        exact h2
+      · have e : qi + (c :: wr).length + (segsText (Seg.s u :: rest')).length + 1 =
+            qi + (c :: wr).length + u.length + (segsText rest').length + 1 := by
+          simp [segsText_cons, Seg.text]; omega
+        rw [e]; rw [hp2] at h3; simpa [segsDupe] using h3
+      · rw [h4, hf2]; simp [segsNorm_cons, Seg.norm]
+      · rw [h5, hp2]; simp [segsPrev]
+
+    | p pc u =>
+      simp only [segsOK, Bool.and_eq_true, Bool.or_eq_true, decide_eq_true_eq] at hoka
+      obtain ⟨⟨⟨⟨hla, hpc⟩, hss⟩, _⟩, hokr⟩ := hoka
+      have hq3 : q.drop (qi + (c :: wr).length) = (pc :: u) ++ (segsText rest' ++ r :: tail) := by
+        simpa [segsText_cons, Seg.text] using hq2
+      obtain ⟨cc, xs, hcx, _, _, _, hnq1, hnq2⟩ := after_lit_head rest' r tail hr hokr
+      have htl : ∀ c0 body, u = c0 :: body → (segsText rest' ++ r :: tail).head? ≠ some c0 := by
+        intro c0 body hu
+        rw [hcx]
+        simp only [List.head?_cons, ne_eq, Option.some.injEq]
+        intro e
+        subst e; subst hu
+        simp only [strShape, Bool.and_eq_true, Bool.or_eq_true, decide_eq_true_eq] at hss
+        rcases hss.1 with h | h
+        · exact hnq1 h
+        · exact hnq2 h
+      obtain ⟨σ2, hs1, hrd, hf2, hp2, hprns, hs2⟩ := pstr_entry_afterW q cap qi (qi + (c :: wr).length) σb a pc (c :: wr) u _
+        hbad hpc (by simp) hbfrom hbto hsw (by simp) hval hbadd hblen hcap hq3 hss htl hbesc hbsql hbdupe hbpo hbpt
+      obtain ⟨σ', h2, h3, h4, h5⟩ := ih rest' (by omega) d (qi + (c :: wr).length + (pc :: u).length) σ2 false r tail hrd
+        (fun _ => ⟨hs2, hprns, σb.f ++ lower (c :: wr), hf2⟩) (by simpa using hokr)
+        (by rw [hp2]; simpa [segsCtx] using hrctx) (drop_after q _ _ _ hq3) hr
+      refine ⟨σ', ?_, ?_, ?_, ?_⟩
+      · rw [runSeg_append, hw1]
+        simp only [segsText_cons, Seg.text, List.append_assoc]
+        rw [runSeg_append, hs1]
+        exact h2
+      · have e : qi + (c :: wr).length + (segsText (Seg.p pc u :: rest')).length + 1 =
+            qi + (c :: wr).length + (pc :: u).length + (segsText rest').length + 1 := by
+          simp [segsText_cons, Seg.text]; omega
+        rw [e]; rw [hp2] at h3; simpa [segsDupe] using h3
+      · rw [h4, hf2]; simp [segsNorm_cons, Seg.norm]
+      · rw [h5, hp2]; simp [segsPrev]
+
+/-- **Chunks.**  From a ready state, a chunk and the white-space character
+    after it contribute the normal forms of its segments and one blank, and
+    leave a clean state. -/
+theorem chunk_run (q : List Char) (cap : Nat) (hcap : 2 * q.length < cap) : ∀ n, ChunkA q cap n := by
+  intro n
+  induction n with
+  | zero =>
+    intro segs hlen d qi σ fresh r tail hc hnf hok hctx hq hr
+    have : segs = [] := by cases segs <;> simp_all
+    subst this
+    cases fresh with
+    | true => simp [segsOK] at hok
+    | false =>
+      obtain ⟨hs, hprns, g, hg⟩ := hnf rfl
+      have hlt : qi < q.length := lt_length_of_drop (by simpa [segsText] using hq)
+      have h := step_space_after_value q cap qi σ g r hs hg hr hprns (by have := hc.hto; omega)
+        (by have := hc.hlen; rw [hg] at this; simp at this; omega)
+      refine ⟨{ σ with f := g ++ ['?', ' '], cpFrom := (qi : Int) + 1, pr := r },
+        by simp [segsText, runSeg, h], ?_, by simp [segsNorm, hg], by simp [segsPrev]⟩
+      apply Clean.of
+      · right; exact ⟨hs, by simp [cleanPr, hr]⟩
+      · simp [segsText]
+      · have := hc.hto; simp [segsText]; omega
+      · exact hc.hesc
       · exact hc.hsql
-      · have := hc.hlen; simp; omega
+      · have := hc.hlen; rw [hg] at this; simp [segsText] at this ⊢; omega
       · right; simp
       · exact hc.hpw
       · exact hc.hadd
       · exact hc.hdupe
       · exact hc.hpo
       · exact hc.hpt
-    · rfl
-    · rfl
+  | succ n ih =>
+    intro segs hlen d qi σ fresh r tail hc hnf hok hctx hq hr
+    cases segs with
+    | nil => exact ih [] (by simp) d qi σ fresh r tail hc hnf hok hctx hq hr
+    | cons x rest =>
+      simp only [List.length_cons] at hlen
+      have hrl : rest.length ≤ n := by omega
+      have hlt : qi < q.length := by
+        apply lt_length_of_drop (c := (segsText (x :: rest) ++ r :: tail).head!) (t := (segsText (x :: rest) ++ r :: tail).tail)
+        rw [hq]
+        cases h : segsText (x :: rest) ++ r :: tail with
+        | nil => simp at h
+        | cons _ _ => rfl
+      cases x with
+      | w t =>
+        cases t with
+        | nil => cases fresh <;> simp [segsOK, wordShape] at hok
+        | cons c wr =>
+          have hws : wordShape (c :: wr) = true ∧
+              (∀ a, (c :: wr).getLast? = some a → segsOK (.afterW a) rest = true) := by
+            cases fresh <;> simp only [segsOK, Bool.and_eq_true, if_true] at hok
+            · refine ⟨hok.1.2, ?_⟩
+              intro a ha; rw [ha] at hok; exact hok.2
+            · refine ⟨hok.1.2, ?_⟩
+              intro a ha; rw [ha] at hok; exact hok.2
+          simp only [segsCtx, Bool.and_eq_true] at hctx
+          have hfirst : okFirst c = true := by
+            have := hws.1; simp only [wordShape, Bool.and_eq_true] at this; exact this.1.1
+          have hcall1 : c = '(' → σ.prevWord ≠ kwCall := by
+            intro hc1
+            have hcx := hctx.1
+            simp only [wordCtx, Bool.and_eq_true, Bool.not_eq_true', Bool.and_eq_false_iff, decide_eq_false_iff_not] at hcx
+            rcases hcx.2 with h | h
+            · have : (c :: wr).contains '(' = true := by rw [List.contains_iff_mem]; simp [hc1]
+              rw [this] at h; cases h
+            · exact h
+          have h1 := step_first q cap qi σ c hc (by omega) hfirst hcall1
+          obtain ⟨e1, e2, e3, e4, e5, e6, e7, e8, e9⟩ := baseWord_frame σ qi c
+          have hbd : NoDupe d (baseWord σ qi c) := by intro hd; rw [e6]; exact hc.hdupe hd
+          obtain ⟨σ', h2, h3, h4, h5⟩ := chunk_word q cap n hcap ih qi σ (baseWord σ qi c) c wr rest r tail hrl h1
+            e1 (by rw [e2]; exact hc.hto) (by rw [e5]; exact hc.hesc) (by rw [e6]; exact hc.hsql)
+            hbd (by rw [e4]; exact hc.hlen) (by rw [e8]; exact hc.hpo)
+            (by rw [e9]; exact hc.hpt) (by rw [e7]; exact hc.hadd)
+            (by simpa [segsText_cons, Seg.text] using hq) hws.1 (by rw [e3]; exact hctx.1) hws.2 hctx.2 hr
+          refine ⟨σ', by simpa [segsText_cons, Seg.text] using h2, ?_, ?_, ?_⟩
+          · have e : qi + (segsText (Seg.w (c :: wr) :: rest)).length + 1 =
+                qi + (c :: wr).length + (segsText rest).length + 1 := by
+              simp [segsText_cons, Seg.text]; omega
+            rw [e]; rw [e3] at h3; exact h3
+          · rw [h4, e4]; simp [segsNorm_cons, Seg.norm]
+          · rw [h5]; simp [segsPrev]
+      | n u =>
+        cases fresh with
+        | false => simp [segsOK] at hok
+        | true =>
+          simp only [segsOK, Bool.and_eq_true, if_true] at hok
+          obtain ⟨⟨⟨_, hns⟩, _⟩, hokr⟩ := hok
+          have hq3 : q.drop qi = u ++ (segsText rest ++ r :: tail) := by
+            simpa [segsText_cons, Seg.text] using hq
+          obtain ⟨σ1, hn1, hnst, hf1, hp1⟩ := num_entry_fresh q cap qi σ u _ hc hq3 hns
+          have hulen : 0 < u.length := by
+            cases u with
+            | nil => simp [numShape] at hns
+            | cons _ _ => simp
+          obtain ⟨σ', h2, h3, h4, h5⟩ := chunk_after_num q cap n hcap ih rest hrl (qi + u.length) σ1 r tail hnst
+            (by rw [hf1]; have := hc.hlen; omega) hokr (by rw [hp1]; simpa [segsCtx] using hctx)
+            (drop_after q _ _ _ hq3) hr
+          refine ⟨σ', ?_, ?_, ?_, ?_⟩
+          · simp only [segsText_cons, Seg.text, List.append_assoc]
+            rw [runSeg_append, hn1]; exact h2
+          · have e : qi + (segsText (Seg.n u :: rest)).length + 1 = qi + u.length + (segsText rest).length + 1 := by
+              simp [segsText_cons, Seg.text]; omega
+            rw [e]; rw [hp1] at h3; simpa [segsDupe] using h3
+          · rw [h4, hf1]; simp [segsNorm_cons, Seg.norm]
+          · rw [h5, hp1]; simp [segsPrev]
+      | s u =>
+        cases fresh with
+        | false => simp [segsOK] at hok
+        | true =>
+          simp only [segsOK, Bool.and_eq_true, if_true] at hok
+          obtain ⟨⟨⟨_, hss⟩, _⟩, hokr⟩ := hok
+          have hq3 : q.drop qi = u ++ (segsText rest ++ r :: tail) := by
+            simpa [segsText_cons, Seg.text] using hq
+          obtain ⟨cc, xs, hcx, _, _, _, hnq1, hnq2⟩ := after_lit_head rest r tail hr hokr
+          have htl : ∀ c0 body, u = c0 :: body → (segsText rest ++ r :: tail).head? ≠ some c0 := by
+            intro c0 body hu
+            rw [hcx]
+            simp only [List.head?_cons, ne_eq, Option.some.injEq]
+            intro e
+            subst e; subst hu
+            simp only [strShape, Bool.and_eq_true, Bool.or_eq_true, decide_eq_true_eq] at hss
+            rcases hss.1 with h | h
+            · exact hnq1 h
+            · exact hnq2 h
+          obtain ⟨σ2, hs1, hrd, hf2, hp2, hprns, hs2⟩ := str_entry_fresh q cap qi σ u _ hc hq3 hcap hss htl
+          obtain ⟨σ', h2, h3, h4, h5⟩ := ih rest hrl d (qi + u.length) σ2 false r tail hrd
+            (fun _ => ⟨hs2, hprns, σ.f, hf2⟩) (by simpa using hokr)
+            (by rw [hp2]; simpa [segsCtx] using hctx) (drop_after q _ _ _ hq3) hr
+          refine ⟨σ', ?_, ?_, ?_, ?_⟩
+          · simp only [segsText_cons, Seg.text, List.append_assoc]
+            rw [runSeg_append, hs1]; exact h2
+          · have e : qi + (segsText (Seg.s u :: rest)).length + 1 = qi + u.length + (segsText rest).length + 1 := by
+              simp [segsText_cons, Seg.text]; omega
+            rw [e]; rw [hp2] at h3; simpa [segsDupe] using h3
+          · rw [h4, hf2]; simp [segsNorm_cons, Seg.norm]
+          · rw [h5, hp2]; simp [segsPrev]
 
-/-! ### Quoted strings -/
+      | p pc u =>
+        cases fresh with
+        | false => simp [segsOK] at hok
+        | true =>
+          simp only [segsOK, Bool.and_eq_true, if_true, Bool.or_eq_true, decide_eq_true_eq] at hok
+          obtain ⟨⟨⟨⟨_, hpc⟩, hss⟩, _⟩, hokr⟩ := hok
+          have hq3 : q.drop qi = (pc :: u) ++ (segsText rest ++ r :: tail) := by
+            simpa [segsText_cons, Seg.text] using hq
+          obtain ⟨cc, xs, hcx, _, _, _, hnq1, hnq2⟩ := after_lit_head rest r tail hr hokr
+          have htl : ∀ c0 body, u = c0 :: body → (segsText rest ++ r :: tail).head? ≠ some c0 := by
+            intro c0 body hu
+            rw [hcx]
+            simp only [List.head?_cons, ne_eq, Option.some.injEq]
+            intro e
+            subst e; subst hu
+            simp only [strShape, Bool.and_eq_true, Bool.or_eq_true, decide_eq_true_eq] at hss
+            rcases hss.1 with h | h
+            · exact hnq1 h
+            · exact hnq2 h
+          obtain ⟨σ2, hs1, hrd, hf2, hp2, hprns, hs2⟩ := pstr_entry_fresh q cap qi σ pc u _ hc hpc hq3 hcap hss htl
+          obtain ⟨σ', h2, h3, h4, h5⟩ := ih rest hrl d (qi + (pc :: u).length) σ2 false r tail hrd
+            (fun _ => ⟨hs2, hprns, σ.f, hf2⟩) (by simpa using hokr)
+            (by rw [hp2]; simpa [segsCtx] using hctx) (drop_after q _ _ _ hq3) hr
+          refine ⟨σ', ?_, ?_, ?_, ?_⟩
+          · simp only [segsText_cons, Seg.text, List.append_assoc]
+            rw [runSeg_append, hs1]; exact h2
+          · have e : qi + (segsText (Seg.p pc u :: rest)).length + 1 =
+                qi + (pc :: u).length + (segsText rest).length + 1 := by
+              simp [segsText_cons, Seg.text]; omega
+            rw [e]; rw [hp2] at h3; simpa [segsDupe] using h3
+          · rw [h4, hf2]; simp [segsNorm_cons, Seg.norm]
+          · rw [h5, hp2]; simp [segsPrev]
 
-/-- Reading the body of a quoted value up to and including its closing quote. -/
-theorem runSeg_quote (q : List Char) (cap : Nat) (σ1 : St) (c : Char) (g : List Char)
-    (hs : σ1.s = .inQuote) (hqc : σ1.quoteChar = c) (hsql : σ1.sqlState ≠ .inValues)
-    (hf : σ1.f = g) (hcap : g.length + 1 ≤ cap) :
-    ∀ (body : List Char) (esc : Bool) (qi : Nat), closesAt c esc body = true →
-      runSeg q cap qi { σ1 with escape := esc } body =
-        .next { σ1 with escape := false, cpFrom := ((qi + body.length : Nat) : Int), f := g ++ ['?'], s := .unknown } := by
-  intro body
-  induction body with
-  | nil => intro esc qi h; simp [closesAt] at h
-  | cons x rest ih =>
-    intro esc qi h
-    unfold closesAt at h
-    by_cases hx : x = c
-    · subst hx
-      simp only [ne_eq, not_true_eq_false, if_false] at h
-      cases esc with
-      | true =>
-        simp only [if_true] at h
-        have : step q cap qi { σ1 with escape := true } x = .next { σ1 with escape := false } := by
-          simp [step, hs, hqc]
-        simp only [runSeg, this]
-        have := ih false (qi + 1) h
-        rw [this]
-        simp; omega
-      | false =>
-        simp only [Bool.false_eq_true, if_false, List.isEmpty_iff] at h
-        subst h
-        have hpush : push cap g '?' = some (g ++ ['?']) := by
-          unfold push; rw [if_pos (by omega)]
-        have : step q cap qi { σ1 with escape := false } x =
-            .next { σ1 with escape := false, cpFrom := (qi : Int) + 1, f := g ++ ['?'], s := .unknown } := by
-          simp [step, hs, hqc, hsql, hf, hpush]
-        simp only [runSeg, this]
-        simp
-    · simp only [ne_eq, hx, not_false_eq_true, if_true] at h
-      cases esc with
-      | true =>
-        simp only [if_true] at h
-        have : step q cap qi { σ1 with escape := true } x = .next { σ1 with escape := false } := by
-          simp [step, hs, hqc, hx]
-        simp only [runSeg, this]
-        have := ih false (qi + 1) h
-        rw [this]
-        simp; omega
-      | false =>
-        simp only [Bool.false_eq_true, if_false] at h
-        by_cases hb : x = '\\'
-        · subst hb
-          simp only [if_true] at h
-          have hx' : ¬ ('\\' = σ1.quoteChar) := by rw [hqc]; exact hx
-          have : step q cap qi { σ1 with escape := false } '\\' = .next { σ1 with escape := true } := by
-            simp [step, hs, hx']
-          simp only [runSeg, this]
-          have := ih true (qi + 1) h
-          rw [this]
-          simp; omega
-        · simp only [hb, if_false] at h
-          have : step q cap qi { σ1 with escape := false } x = .next { σ1 with escape := false } := by
-            simp [step, hs, hqc, hx, hb]
-          simp only [runSeg, this]
-          have := ih false (qi + 1) h
-          rw [this]
-          simp; omega
+/-! ### White space between items -/
 
-/-- **Quoted strings.** -/
-theorem str_item (q : List Char) (cap : Nat) (qi : Nat) (σ : St) (t : List Char) (r : Char) (tail : List Char)
-    (hc : Clean qi σ) (hq : q.drop qi = t ++ r :: tail) (hcap : 2 * q.length < cap)
-    (hshape : strShape t = true) (hr : isSpace r = true) :
-    ∃ σ', runSeg q cap qi σ (t ++ [r]) = .next σ' ∧ Clean (qi + t.length + 1) σ' ∧
-      σ'.f = σ.f ++ ['?', ' '] ∧ σ'.prevWord = σ.prevWord := by
-  cases t with
-  | nil => simp [strShape] at hshape
-  | cons c body =>
-    simp only [strShape, Bool.and_eq_true, Bool.or_eq_true, decide_eq_true_eq] at hshape
-    obtain ⟨hquote, hclose⟩ := hshape
-    have hqlen : qi + (c :: body).length + 1 ≤ q.length := by
-      have := congrArg List.length hq
-      simp at this ⊢; omega
-    obtain ⟨hp1, hp2, hp3, _⟩ := hc.pr_facts
-    have hcfacts : isSpace c = false ∧ isDigit c = false := by
-      rcases hquote with h | h <;> subst h <;> decide
-    have hnlt : ¬ ((qi : Int) > σ.cpFrom) := by rw [hc.hfrom]; omega
-    let σ1 : St := { σ with s := .inQuote, quoteChar := c, cpTo := qi, pr := c }
-    have h1 : step q cap qi σ c = .next σ1 := by
-      rcases hc.s_cases with hs | hs <;>
-        simp [step, hs, hcfacts.1, hcfacts.2, part2, hquote, hp1, hp2, hp3, part3, hnlt, σ1]
-    have hesc : σ1 = { σ1 with escape := false } := by simp [σ1, hc.hesc]
-    have h2 := runSeg_quote q cap σ1 c σ.f rfl rfl hc.hsql rfl (by have := hc.hlen; omega) body false (qi + 1) hclose
-    rw [← hesc] at h2
-    let qe : Nat := qi + (c :: body).length
-    have e2 : qi + 1 + body.length = qe := by simp [qe]; omega
-    rw [e2] at h2
-    let σ2 : St := { σ1 with escape := false, cpFrom := (qe : Int), f := σ.f ++ ['?'], s := .unknown }
-    have hcsp : isSpace σ2.pr = false := hcfacts.1
-    have h3 := step_space_after_value q cap qe σ2 σ.f r rfl rfl hr hcsp
-      (by simp [σ2, σ1, qe]; omega) (by have := hc.hlen; omega)
-    refine ⟨{ σ2 with f := σ.f ++ ['?', ' '], cpFrom := (qe : Int) + 1, pr := r }, ?_, ?_, ?_, ?_⟩
-    · have e : (c :: body) ++ [r] = c :: (body ++ [r]) := by simp
-      rw [e]
-      simp only [runSeg, h1]
-      rw [runSeg_append, h2]
-      simp only [runSeg]
-      rw [e2, h3]
-    · constructor
-      · right; exact ⟨rfl, by simp [cleanPr, hr]⟩
-      · simp [qe]
-      · simp [σ2, σ1, qe]; omega
-      · rfl
-      · exact hc.hsql
-      · have := hc.hlen; simp; omega
-      · right; simp
-      · exact hc.hpw
-      · exact hc.hadd
-      · exact hc.hdupe
-      · exact hc.hpo
-      · exact hc.hpt
-    · rfl
-    · rfl
-
-/-! ### Unspaced comparisons: `id=1`, `name>='x'` -/
-
-/-- Reading a whole word (without the character that ends it). -/
-theorem word_prefix (q : List Char) (cap : Nat) (qi : Nat) (σ : St) (w tail : List Char)
-    (hc : Clean qi σ) (hq : q.drop qi = w ++ tail) (hshape : wordShape w = true)
-    (hcallAll : '(' ∈ w → σ.prevWord ≠ kwCall) :
-    ∃ σb a, runSeg q cap qi σ w = .next (midWord σb a) ∧ w.getLast? = some a ∧ wordBad a = false ∧
-      σb.cpFrom = (qi : Int) ∧ σb.cpTo ≤ (qi : Int) ∧ σb.prevWord = σ.prevWord ∧ σb.f = σ.f ∧
-      σb.escape = σ.escape ∧ σb.sqlState = σ.sqlState ∧ σb.addSpace = σ.addSpace ∧
-      σb.parOpen = σ.parOpen ∧ σb.parOpenTotal = σ.parOpenTotal ∧
-      (∀ k, k ≤ w.length → slice? q qi ((qi + k : Nat) : Int) = some (w.take k)) ∧
-      (∃ c rest, w = c :: rest ∧ σb = baseWord σ qi c) := by
-  cases w with
-  | nil => simp [wordShape] at hshape
-  | cons c rest =>
-    simp only [wordShape, Bool.and_eq_true] at hshape
-    obtain ⟨⟨hfirst, hchain⟩, hpar⟩ := hshape
-    have hlt : qi < q.length := lt_length_of_drop (by simpa using hq)
-    have h1 := step_first q cap qi σ c hc (by omega) hfirst (fun h => hcallAll (by simp [h]))
-    let σb := baseWord σ qi c
-    have hbfrom : σb.cpFrom = (qi : Int) := by
-      simp only [σb, baseWord]; split <;> rfl
-    have hbto : σb.cpTo ≤ (qi : Int) := by
-      have : σb.cpTo = σ.cpTo := by simp only [σb, baseWord]; split <;> rfl
-      rw [this]; exact hc.hto
-    have hbprev : σb.prevWord = σ.prevWord := by simp only [σb, baseWord]; split <;> rfl
-    have hbf : σb.f = σ.f := by simp only [σb, baseWord]; split <;> rfl
-    have hbesc : σb.escape = σ.escape := by simp only [σb, baseWord]; split <;> rfl
-    have hbsql : σb.sqlState = σ.sqlState := by simp only [σb, baseWord]; split <;> rfl
-    have hbadd : σb.addSpace = σ.addSpace := by simp only [σb, baseWord]; split <;> rfl
-    have hbpo : σb.parOpen = σ.parOpen := by simp only [σb, baseWord]; split <;> rfl
-    have hbpt : σb.parOpenTotal = σ.parOpenTotal := by simp only [σb, baseWord]; split <;> rfl
-    have hsl : ∀ k, k ≤ (c :: rest).length →
-        slice? q qi ((qi + k : Nat) : Int) = some ((c :: rest).take k) := by
-      intro k hk
-      exact slice_of_drop q (c :: rest) tail qi k hq (by omega) hk
-    have h2 := runSeg_mid q cap σb qi (c :: rest) hbfrom hbto (by rw [hbprev]; exact hcallAll) hsl hpar
-      rest [] c rfl hchain
-    simp only [List.length_nil, Nat.add_zero] at h2
-    have hlastBad : wordBad ((c :: rest).getLast (by simp)) = false := by
-      rcases List.mem_cons.mp (List.getLast_mem (l := c :: rest) (by simp)) with h | h
-      · rw [h]
-        simp only [okFirst, Bool.and_eq_true, Bool.not_eq_true'] at hfirst
-        exact hfirst.1.1
-      · exact chainOK_notBad c rest hchain _ h
-    refine ⟨σb, (c :: rest).getLast (by simp), ?_, ?_, hlastBad, hbfrom, hbto, hbprev, hbf, hbesc, hbsql, hbadd, hbpo, hbpt, hsl, ⟨c, rest, rfl, rfl⟩⟩
-    · simp only [runSeg, h1]; exact h2
-    · exact List.getLast?_eq_some_getLast (by simp)
-
-theorem isOpChar_facts {a : Char} (h : isOpChar a = true) :
-    isSpace a = false ∧ a ≠ '\\' ∧ a ≠ 'x' ∧ a ≠ 'b' := by
-  simp only [isOpChar, Bool.or_eq_true, decide_eq_true_eq] at h
-  rcases h with ((h | h) | h) | h <;> subst h <;> decide
-
-/-- The digit after `id=`: the pending word is copied, a number begins. -/
-theorem step_cmp_digit (q : List Char) (cap : Nat) (qi0 qi : Int) (σb : St) (a d : Char) (w : List Char)
-    (ha : isOpChar a = true) (hd : isDigit d = true) (hgt : qi0 < qi) (hfrom : σb.cpFrom = qi0)
-    (hslice : slice? q qi0 qi = some w) (hval : isValuesWord (lower w) = false)
-    (hadd : σb.addSpace = false) (hcap : σb.f.length + w.length ≤ cap) :
-    step q cap qi (midWord σb a) d =
-      .next { σb with prevWord := lower w, f := σb.f ++ lower w, cpFrom := qi, cpTo := qi, s := .inNumber, pr := d } := by
-  have hdsp : isSpace d = false := by
-    simp only [isDigit, decide_eq_true_eq] at hd
-    simp only [isSpace, Bool.or_eq_false_iff, decide_eq_false_iff_not]
-    refine ⟨⟨⟨?_, ?_⟩, ?_⟩, ?_⟩ <;> intro h <;> subst h <;> revert hd <;> decide
-  have hlw : (lower w).length = w.length := by simp [lower]
-  have hp1 : pushAll cap σb.f (lower w) = some (σb.f ++ lower w) := by
-    unfold pushAll; rw [if_pos (by rw [hlw]; omega)]
-  have hgt' : qi > qi0 := hgt
-  simp [step, midWord, ha, hdsp, part2, hd, part3, hfrom, hgt', hslice, hp1, hval, hadd]
-
-/-- The quote after `name=`: the pending word is copied, a quoted value begins. -/
-theorem step_cmp_quote (q : List Char) (cap : Nat) (qi0 qi : Int) (σb : St) (a c : Char) (w : List Char)
-    (ha : isOpChar a = true) (hc : c = '\'' ∨ c = '"') (hgt : qi0 < qi) (hfrom : σb.cpFrom = qi0)
-    (hslice : slice? q qi0 qi = some w) (hval : isValuesWord (lower w) = false)
-    (hadd : σb.addSpace = false) (hcap : σb.f.length + w.length ≤ cap) :
-    step q cap qi (midWord σb a) c =
-      .next { σb with prevWord := lower w, f := σb.f ++ lower w, cpFrom := qi, cpTo := qi, s := .inQuote,
-                      quoteChar := c, pr := c } := by
-  obtain ⟨_, ha1, ha2, ha3⟩ := isOpChar_facts ha
-  have hcf : isSpace c = false ∧ isDigit c = false := by
-    rcases hc with h | h <;> subst h <;> decide
-  have hlw : (lower w).length = w.length := by simp [lower]
-  have hp1 : pushAll cap σb.f (lower w) = some (σb.f ++ lower w) := by
-    unfold pushAll; rw [if_pos (by rw [hlw]; omega)]
-  have hgt' : qi > qi0 := hgt
-  simp [step, midWord, ha, hcf.1, hcf.2, part2, hc, ha1, ha2, ha3, part3, hfrom, hgt', hslice, hp1, hval, hadd]
-
-/-- The white space that ends a number. -/
-theorem num_end (q : List Char) (cap : Nat) (qe : Nat) (σ1 : St) (r : Char)
-    (hs : σ1.s = .inNumber) (hr : isSpace r = true) (hcap : σ1.f.length + 2 ≤ cap) :
-    step q cap qe σ1 r =
-      .next { σ1 with f := σ1.f ++ ['?', ' '], cpFrom := (qe : Int) + 1, cpTo := qe, s := .unknown, pr := r } := by
-  obtain ⟨hd, hnc, hnn, _, _⟩ := isSpace_not_digit hr
-  have hpush : push cap σ1.f '?' = some (σ1.f ++ ['?']) := by
-    unfold push; rw [if_pos (by omega)]
-  have hpush2 : push cap (σ1.f ++ ['?']) ' ' = some (σ1.f ++ ['?', ' ']) := by
-    unfold push; rw [if_pos (by simp; omega)]; simp
-  have hq' : isSpace '?' = false := by decide
-  have hnlt2 : ¬ ((qe : Int) > (qe : Int) + 1) := by omega
-  simp [step, hs, hnc, hnn, hpush, part2, hd, hr, hpush2, part3, hnlt2, hq']
-
-/-- **Unspaced comparison with a number**: `id=1`. -/
-theorem cmp_num_item (q : List Char) (cap : Nat) (qi : Nat) (σ : St) (w n : List Char) (r : Char) (tail : List Char)
-    (hc : Clean qi σ) (hq : q.drop qi = (w ++ n) ++ r :: tail) (hcap : 2 * q.length < cap)
-    (hw : cmpShape w = true) (hn : numShape n = true)
-    (hcall : (w.contains '(' && decide (σ.prevWord = kwCall)) = false) (hr : isSpace r = true) :
-    ∃ σ', runSeg q cap qi σ ((w ++ n) ++ [r]) = .next σ' ∧ Clean (qi + (w ++ n).length + 1) σ' ∧
-      σ'.f = σ.f ++ (lower w ++ ['?']) ++ [' '] ∧ σ'.prevWord = lower w := by
-  simp only [cmpShape, Bool.and_eq_true, Bool.not_eq_true'] at hw
-  obtain ⟨⟨hshape, hlastop⟩, hval⟩ := hw
-  have hcallAll : '(' ∈ w → σ.prevWord ≠ kwCall := by
-    intro hmem
-    have : w.contains '(' = true := by rw [List.contains_iff_mem]; exact hmem
-    simp only [this, Bool.true_and, decide_eq_false_iff_not] at hcall
-    exact hcall
-  have hq1 : q.drop qi = w ++ (n ++ r :: tail) := by simpa using hq
-  obtain ⟨σb, a, h1, hlast, _, hbfrom, hbto, hbprev, hbf, hbesc, hbsql, hbadd, hbpo, hbpt, hsl, _⟩ :=
-    word_prefix q cap qi σ w _ hc hq1 hshape hcallAll
-  have ha : isOpChar a = true := by rw [hlast] at hlastop; exact hlastop
-  cases n with
-  | nil => simp [numShape] at hn
-  | cons d rest =>
-    simp only [numShape, Bool.and_eq_true] at hn
-    have hqlen : qi + w.length + (d :: rest).length + 1 ≤ q.length := by
-      have := congrArg List.length hq
-      simp at this ⊢; omega
-    have hwpos : 0 < w.length := by
-      cases w with
-      | nil => simp at hlast
-      | cons _ _ => simp
-    have hsw := hsl w.length (Nat.le_refl _)
-    rw [List.take_length] at hsw
-    have h2 := step_cmp_digit q cap qi ((qi + w.length : Nat) : Int) σb a d w ha hn.1 (by omega) hbfrom hsw hval
-      (by rw [hbadd]; exact hc.hadd) (by rw [hbf]; have := hc.hlen; omega)
-    let σ1 : St := { σb with prevWord := lower w, f := σb.f ++ lower w, cpFrom := ((qi + w.length : Nat) : Int),
-                             cpTo := ((qi + w.length : Nat) : Int), s := .inNumber, pr := d }
-    have h3 := runSeg_number q cap σ1 rfl rest (qi + w.length + 1) hn.2
-    let qe : Nat := qi + w.length + 1 + rest.length
-    have hlw : (lower w).length = w.length := by simp [lower]
-    have h4 := num_end q cap qe σ1 r rfl hr (by
-      show (σb.f ++ lower w).length + 2 ≤ cap
-      rw [hbf]; have := hc.hlen; simp [hlw]; omega)
-    refine ⟨{ σ1 with f := σ1.f ++ ['?', ' '], cpFrom := (qe : Int) + 1, cpTo := qe, s := .unknown, pr := r }, ?_, ?_, ?_, ?_⟩
-    · have e : (w ++ d :: rest) ++ [r] = w ++ (d :: (rest ++ [r])) := by simp
-      rw [e, runSeg_append, h1]
-      simp only [runSeg, h2]
-      rw [runSeg_append, h3]
-      simp only [runSeg]
-      rw [h4]
-    · constructor
-      · right; exact ⟨rfl, by simp [cleanPr, hr]⟩
-      · simp [qe]; omega
-      · simp [qe]; omega
-      · show σb.escape = false
-        rw [hbesc]; exact hc.hesc
-      · show σb.sqlState ≠ .inValues
-        rw [hbsql]; exact hc.hsql
-      · show (σb.f ++ lower w ++ ['?', ' ']).length ≤ _
-        rw [hbf]; have := hc.hlen; simp [hlw]; omega
-      · right; simp [σ1]
-      · exact hval
-      · show σb.addSpace = false
-        rw [hbadd]; exact hc.hadd
-      · show σb.sqlState ≠ .onDupeKeyUpdate
-        rw [hbsql]; exact hc.hdupe
-      · show σb.parOpen = 0
-        rw [hbpo]; exact hc.hpo
-      · show σb.parOpenTotal = 0
-        rw [hbpt]; exact hc.hpt
-    · show σb.f ++ lower w ++ ['?', ' '] = _
-      rw [hbf]; simp
-    · rfl
-
-/-- **Unspaced comparison with a quoted string**: `name>='x'`. -/
-theorem cmp_str_item (q : List Char) (cap : Nat) (qi : Nat) (σ : St) (w t : List Char) (r : Char) (tail : List Char)
-    (hc : Clean qi σ) (hq : q.drop qi = (w ++ t) ++ r :: tail) (hcap : 2 * q.length < cap)
-    (hw : cmpShape w = true) (ht : strShape t = true)
-    (hcall : (w.contains '(' && decide (σ.prevWord = kwCall)) = false) (hr : isSpace r = true) :
-    ∃ σ', runSeg q cap qi σ ((w ++ t) ++ [r]) = .next σ' ∧ Clean (qi + (w ++ t).length + 1) σ' ∧
-      σ'.f = σ.f ++ (lower w ++ ['?']) ++ [' '] ∧ σ'.prevWord = lower w := by
-  simp only [cmpShape, Bool.and_eq_true, Bool.not_eq_true'] at hw
-  obtain ⟨⟨hshape, hlastop⟩, hval⟩ := hw
-  have hcallAll : '(' ∈ w → σ.prevWord ≠ kwCall := by
-    intro hmem
-    have : w.contains '(' = true := by rw [List.contains_iff_mem]; exact hmem
-    simp only [this, Bool.true_and, decide_eq_false_iff_not] at hcall
-    exact hcall
-  have hq1 : q.drop qi = w ++ (t ++ r :: tail) := by simpa using hq
-  obtain ⟨σb, a, h1, hlast, _, hbfrom, hbto, hbprev, hbf, hbesc, hbsql, hbadd, hbpo, hbpt, hsl, _⟩ :=
-    word_prefix q cap qi σ w _ hc hq1 hshape hcallAll
-  have ha : isOpChar a = true := by rw [hlast] at hlastop; exact hlastop
-  cases t with
-  | nil => simp [strShape] at ht
-  | cons c body =>
-    simp only [strShape, Bool.and_eq_true, Bool.or_eq_true, decide_eq_true_eq] at ht
-    obtain ⟨hquote, hclose⟩ := ht
-    have hqlen : qi + w.length + (c :: body).length + 1 ≤ q.length := by
-      have := congrArg List.length hq
-      simp at this ⊢; omega
-    have hwpos : 0 < w.length := by
-      cases w with
-      | nil => simp at hlast
-      | cons _ _ => simp
-    have hsw := hsl w.length (Nat.le_refl _)
-    rw [List.take_length] at hsw
-    have hlw : (lower w).length = w.length := by simp [lower]
-    have h2 := step_cmp_quote q cap qi ((qi + w.length : Nat) : Int) σb a c w ha hquote (by omega) hbfrom hsw hval
-      (by rw [hbadd]; exact hc.hadd) (by rw [hbf]; have := hc.hlen; omega)
-    let σ1 : St := { σb with prevWord := lower w, f := σb.f ++ lower w, cpFrom := ((qi + w.length : Nat) : Int),
-                             cpTo := ((qi + w.length : Nat) : Int), s := .inQuote, quoteChar := c, pr := c }
-    have hesc : σ1 = { σ1 with escape := false } := by
-      have : σb.escape = false := by rw [hbesc]; exact hc.hesc
-      simp [σ1, this]
-    have h3 := runSeg_quote q cap σ1 c (σb.f ++ lower w) rfl rfl (by show σb.sqlState ≠ _; rw [hbsql]; exact hc.hsql) rfl
-      (by rw [hbf]; have := hc.hlen; simp [hlw]; omega) body false (qi + w.length + 1) hclose
-    rw [← hesc] at h3
-    let qe : Nat := qi + w.length + 1 + body.length
-    let σ2 : St := { σ1 with escape := false, cpFrom := (qe : Int), f := (σb.f ++ lower w) ++ ['?'], s := .unknown }
-    have hcsp : isSpace σ2.pr = false := by
-      show isSpace c = false
-      rcases hquote with h | h <;> subst h <;> decide
-    have h4 := step_space_after_value q cap qe σ2 (σb.f ++ lower w) r rfl rfl hr hcsp
-      (by simp [σ2, σ1, qe]; omega) (by rw [hbf]; have := hc.hlen; simp [hlw]; omega)
-    refine ⟨{ σ2 with f := (σb.f ++ lower w) ++ ['?', ' '], cpFrom := (qe : Int) + 1, pr := r }, ?_, ?_, ?_, ?_⟩
-    · have e : (w ++ c :: body) ++ [r] = w ++ (c :: (body ++ [r])) := by simp
-      rw [e, runSeg_append, h1]
-      simp only [runSeg, h2]
-      rw [runSeg_append, h3]
-      simp only [runSeg]
-      rw [h4]
-    · constructor
-      · right; exact ⟨rfl, by simp [cleanPr, hr]⟩
-      · simp [qe]; omega
-      · simp [σ2, σ1, qe]; omega
-      · rfl
-      · show σb.sqlState ≠ .inValues
-        rw [hbsql]; exact hc.hsql
-      · show (σb.f ++ lower w ++ ['?', ' ']).length ≤ _
-        rw [hbf]; have := hc.hlen; simp [hlw]; omega
-      · right; simp
-      · exact hval
-      · show σb.addSpace = false
-        rw [hbadd]; exact hc.hadd
-      · show σb.sqlState ≠ .onDupeKeyUpdate
-        rw [hbsql]; exact hc.hdupe
-      · show σb.parOpen = 0
-        rw [hbpo]; exact hc.hpo
-      · show σb.parOpenTotal = 0
-        rw [hbpt]; exact hc.hpt
-    · show σb.f ++ lower w ++ ['?', ' '] = _
-      rw [hbf]; simp
-    · rfl
-
-/-! ### Separator pieces: white space and comments -/
-
-/-- What a separator piece preserves. -/
+/-- What a separator preserves. -/
 def SameOut (σ σ' : St) : Prop := σ'.f = σ.f ∧ σ'.prevWord = σ.prevWord
 
-theorem cleanPr_slash : cleanPr '/' = true := by decide
-theorem cleanPr_nl : cleanPr '\n' = true := by decide
-
 theorem ws_piece (q : List Char) (cap : Nat) (qi : Nat) (σ : St) (r : Char)
-    (hc : Clean qi σ) (hr : isSpace r = true) :
-    ∃ σ', step q cap qi σ r = .next σ' ∧ Clean (qi + 1) σ' ∧ SameOut σ σ' := by
+    (hc : Clean d qi σ) (hr : isSpace r = true) :
+    ∃ σ', step q cap qi σ r = .next σ' ∧ Clean d (qi + 1) σ' ∧ SameOut σ σ' := by
   refine ⟨{ σ with cpFrom := (qi : Int) + 1, pr := r }, ?_, ?_, rfl, rfl⟩
   · obtain ⟨hd, _⟩ := isSpace_not_digit hr
     by_cases hp : isSpace σ.pr = true
     · rcases hc.s_cases with hs | hs <;> simp [step, hs, hr, hp]
     · have hp' : isSpace σ.pr = false := by simpa using hp
       have hs : σ.s = .unknown := by
-        rcases hc.hs with h | h
+        rcases hc.hcp with h | h
         · rw [h.2] at hp'; cases hp'
         · exact h.1
       have hnlt : ¬ (σ.cpTo > (qi : Int) + 1) := by have := hc.hto; omega
@@ -1010,8 +1595,8 @@ theorem ws_piece (q : List Char) (cap : Nat) (qi : Nat) (σ : St) (r : Char)
       rcases hc.hlast with h | h
       · simp [step, hs, hr, hp', part2, hd, hc.hfrom, h, part3, hnlt]
       · simp [step, hs, hr, hp', part2, hd, hc.hfrom, h, hsp, part3, hnlt]
-  · constructor
-    · rcases hc.hs with h | h
+  · apply Clean.of
+    · rcases hc.hcp with h | h
       · left; exact ⟨h.1, hr⟩
       · right; exact ⟨h.1, by simp [cleanPr, hr]⟩
     · simp
@@ -1026,242 +1611,23 @@ theorem ws_piece (q : List Char) (cap : Nat) (qi : Nat) (σ : St) (r : Char)
     · exact hc.hpo
     · exact hc.hpt
 
-/-- Skipping the body of a `/* … */` comment (after its first character `p`). -/
-theorem runSeg_mlc (q : List Char) (cap : Nat) (σ3 : St) (hs : σ3.s = .inMLC) :
-    ∀ (rest : List Char) (p : Char) (qi : Nat), mlcTail (p :: rest) = true →
-      runSeg q cap qi { σ3 with pr := p } rest =
-        .next { σ3 with s := .unknown, cpFrom := ((qi + rest.length : Nat) : Int), pr := '/' } := by
-  intro rest
-  induction rest with
-  | nil => intro p qi h; simp [mlcTail] at h
-  | cons b r ih =>
-    intro p qi h
-    unfold mlcTail at h
-    by_cases hpb : p = '*' ∧ b = '/'
-    · rw [if_pos hpb] at h
-      simp only [List.isEmpty_iff] at h
-      subst h
-      obtain ⟨hp, hb⟩ := hpb
-      subst hp; subst hb
-      simp [runSeg, step, hs]
-    · rw [if_neg hpb] at h
-      have : step q cap qi { σ3 with pr := p } b = .next { σ3 with pr := b } := by
-        simp [step, hs, hpb]
-      simp only [runSeg, this]
-      rw [ih b (qi + 1) h]
-      simp; omega
+/-- A run of white space between two items. -/
+theorem ws_run (q : List Char) (cap : Nat) :
+    ∀ (ws : List Char) (qi : Nat) (σ : St), Clean d qi σ → ws.all isSpace = true →
+      ∃ σ', runSeg q cap qi σ ws = .next σ' ∧ Clean d (qi + ws.length) σ' ∧ SameOut σ σ' := by
+  intro ws
+  induction ws with
+  | nil => intro qi σ hc _; exact ⟨σ, by simp [runSeg], by simpa using hc, rfl, rfl⟩
+  | cons c rest ih =>
+    intro qi σ hc hok
+    simp only [List.all_cons, Bool.and_eq_true] at hok
+    obtain ⟨σ1, h1, hc1, hs1⟩ := ws_piece q cap qi σ c hc hok.1
+    obtain ⟨σ2, h2, hc2, hs2⟩ := ih (qi + 1) σ1 hc1 hok.2
+    refine ⟨σ2, by simp only [runSeg, h1]; exact h2, ?_, ⟨hs2.1.trans hs1.1, hs2.2.trans hs1.2⟩⟩
+    have e : qi + (c :: rest).length = qi + 1 + rest.length := by simp; omega
+    rw [e]; exact hc2
 
-/-- Skipping a one-line comment up to and including its newline. -/
-theorem runSeg_olc (q : List Char) (cap : Nat) (σ4 : St) (hs : σ4.s = .inOLC) :
-    ∀ (body : List Char) (qi : Nat), lineTail body = true →
-      runSeg q cap qi σ4 body =
-        .next { σ4 with s := .unknown, cpFrom := ((qi + body.length : Nat) : Int), pr := '\n', addSpace := false } := by
-  intro body
-  induction body with
-  | nil => intro qi h; simp [lineTail] at h
-  | cons b r ih =>
-    intro qi h
-    unfold lineTail at h
-    by_cases hb : b = '\n'
-    · rw [if_pos hb] at h
-      simp only [List.isEmpty_iff] at h
-      subst h; subst hb
-      simp [runSeg, step, hs]
-    · rw [if_neg hb] at h
-      have : step q cap qi σ4 b = .next σ4 := by simp [step, hs, hb]
-      simp only [runSeg, this]
-      rw [ih (qi + 1) h]
-      simp; omega
-
-theorem mlc_piece (q : List Char) (cap : Nat) (qi : Nat) (σ : St) (body : List Char)
-    (hc : Clean qi σ) (hok : (SepPiece.mlc body).ok = true) :
-    ∃ σ', runSeg q cap qi σ (SepPiece.mlc body).text = .next σ' ∧
-      Clean (qi + (SepPiece.mlc body).text.length) σ' ∧ SameOut σ σ' := by
-  simp only [SepPiece.ok, Bool.and_eq_true, Bool.not_eq_true', decide_eq_false_iff_not] at hok
-  obtain ⟨htail, hbang⟩ := hok
-  cases body with
-  | nil => simp [mlcTail] at htail
-  | cons b rest =>
-    have hb : b ≠ '!' := by simpa using hbang
-    have hnlt : ¬ (σ.cpTo > σ.cpFrom) := by rw [hc.hfrom]; have := hc.hto; omega
-    have h1 : step q cap qi σ '/' = .next { σ with s := .divOrMLC, pr := '/' } := by
-      rcases hc.s_cases with hs | hs <;> simp [step, hs, isSpace, part2, isDigit, part3, hnlt]
-    have h2 : step q cap ((qi + 1 : Nat) : Int) { σ with s := .divOrMLC, pr := '/' } '*' =
-        .next { σ with s := .mlcOrMySQLCode, pr := '*' } := by
-      simp [step, isSpace, part2, isDigit, part3, hnlt]
-    have h3 : step q cap ((qi + 1 + 1 : Nat) : Int) { σ with s := .mlcOrMySQLCode, pr := '*' } b =
-        .next { σ with s := .inMLC, pr := b } := by
-      simp [step, hb]
-    have h4 := runSeg_mlc q cap { σ with s := .inMLC, pr := b } rfl rest b (qi + 1 + 1 + 1) htail
-    refine ⟨{ σ with s := .unknown, cpFrom := ((qi + 1 + 1 + 1 + rest.length : Nat) : Int), pr := '/' }, ?_, ?_, rfl, rfl⟩
-    · simp only [SepPiece.text, runSeg, h1, h2, h3]
-      exact h4
-    · constructor
-      · right; first | exact ⟨rfl, cleanPr_slash⟩ | exact ⟨rfl, cleanPr_nl⟩
-      · simp [SepPiece.text]; omega
-      · have := hc.hto; simp [SepPiece.text]; omega
-      · exact hc.hesc
-      · exact hc.hsql
-      · have := hc.hlen; simp [SepPiece.text]; omega
-      · exact hc.hlast
-      · exact hc.hpw
-      · exact hc.hadd
-      · exact hc.hdupe
-      · exact hc.hpo
-      · exact hc.hpt
-
-theorem hash_piece (q : List Char) (cap : Nat) (qi : Nat) (σ : St) (body : List Char)
-    (hc : Clean qi σ) (hok : (SepPiece.hash body).ok = true) :
-    ∃ σ', runSeg q cap qi σ (SepPiece.hash body).text = .next σ' ∧
-      Clean (qi + (SepPiece.hash body).text.length) σ' ∧ SameOut σ σ' := by
-  simp only [SepPiece.ok] at hok
-  have hnlt : ¬ (σ.cpTo > σ.cpFrom) := by rw [hc.hfrom]; have := hc.hto; omega
-  have h1 : step q cap qi σ '#' = .next { σ with s := .inOLC, pr := '#' } := by
-    rcases hc.s_cases with hs | hs <;> simp [step, hs, isSpace, part2, isDigit, part3, hnlt]
-  have h2 := runSeg_olc q cap { σ with s := .inOLC, pr := '#' } rfl body (qi + 1) hok
-  refine ⟨{ σ with s := .unknown, cpFrom := ((qi + 1 + body.length : Nat) : Int), pr := '\n', addSpace := false }, ?_, ?_, rfl, rfl⟩
-  · simp only [SepPiece.text, runSeg, h1]
-    exact h2
-  · constructor
-    · right; first | exact ⟨rfl, cleanPr_slash⟩ | exact ⟨rfl, cleanPr_nl⟩
-    · simp [SepPiece.text]; omega
-    · have := hc.hto; simp [SepPiece.text]; omega
-    · exact hc.hesc
-    · exact hc.hsql
-    · have := hc.hlen; simp [SepPiece.text]; omega
-    · exact hc.hlast
-    · exact hc.hpw
-    · rfl
-    · exact hc.hdupe
-    · exact hc.hpo
-    · exact hc.hpt
-
-theorem dash_piece (q : List Char) (cap : Nat) (qi : Nat) (σ : St) (c : Char) (body : List Char)
-    (hc : Clean qi σ) (hok : (SepPiece.dash c body).ok = true) :
-    ∃ σ', runSeg q cap qi σ (SepPiece.dash c body).text = .next σ' ∧
-      Clean (qi + (SepPiece.dash c body).text.length) σ' ∧ SameOut σ σ' := by
-  simp only [SepPiece.ok, Bool.and_eq_true, Bool.or_eq_true, decide_eq_true_eq] at hok
-  obtain ⟨hcws, htail⟩ := hok
-  obtain ⟨_, _, _, hpd, _⟩ := hc.pr_facts
-  have hnlt : ¬ (σ.cpTo > σ.cpFrom) := by rw [hc.hfrom]; have := hc.hto; omega
-  have hcsp : isSpace c = true ∧ isDigit c = false := by
-    rcases hcws with (h | h) | h <;> subst h <;> decide
-  have h1 : step q cap qi σ '-' = .next { σ with s := .opOrNumber, pr := '-' } := by
-    rcases hc.s_cases with hs | hs <;> simp [step, hs, isSpace, part2, isDigit, part3, hnlt, hpd]
-  have h2 : step q cap ((qi + 1 : Nat) : Int) { σ with s := .opOrNumber, pr := '-' } '-' =
-      .next { σ with s := .inDash, pr := '-' } := by
-    simp [step, isSpace, part2, isDigit, part3, hnlt]
-  let σ3 : St := if σ.cpTo > 2 then { σ with s := .inOLC, cpTo := ((qi + 1 + 1 : Nat) : Int) - 2, addSpace := true, pr := c }
-    else { σ with s := .inOLC, pr := c }
-  have hdash : isSpace '-' = false := by decide
-  have h3 : step q cap ((qi + 1 + 1 : Nat) : Int) { σ with s := .inDash, pr := '-' } c = .next σ3 := by
-    by_cases hgt : σ.cpTo > 2
-    · have hn2 : ¬ (σ.cpFrom < (qi : Int) + 1 + 1 - 2) := by rw [hc.hfrom]; omega
-      simp [step, hcsp.1, hcsp.2, hdash, part2, hgt, part3, hn2, σ3]
-    · simp [step, hcsp.1, hcsp.2, hdash, part2, hgt, part3, hnlt, σ3]
-  have hs3 : σ3.s = .inOLC := by simp only [σ3]; split <;> rfl
-  have h4 := runSeg_olc q cap σ3 hs3 body (qi + 1 + 1 + 1) htail
-  refine ⟨{ σ3 with s := .unknown, cpFrom := ((qi + 1 + 1 + 1 + body.length : Nat) : Int), pr := '\n', addSpace := false }, ?_, ?_, ?_, ?_⟩
-  · simp only [SepPiece.text, runSeg, h1, h2, h3]
-    exact h4
-  · have hto3 : σ3.cpTo ≤ (qi : Int) := by
-      simp only [σ3]; split
-      · simp; omega
-      · exact hc.hto
-    have hf3 : σ3.f = σ.f := by simp only [σ3]; split <;> rfl
-    constructor
-    · right; first | exact ⟨rfl, cleanPr_slash⟩ | exact ⟨rfl, cleanPr_nl⟩
-    · simp [SepPiece.text]; omega
-    · simp [SepPiece.text]; omega
-    · show σ3.escape = false
-      simp only [σ3]; split <;> exact hc.hesc
-    · show σ3.sqlState ≠ .inValues
-      simp only [σ3]; split <;> exact hc.hsql
-    · show σ3.f.length ≤ _
-      rw [hf3]; have := hc.hlen; simp [SepPiece.text]; omega
-    · show σ3.f = [] ∨ _
-      rw [hf3]; exact hc.hlast
-    · show isValuesWord σ3.prevWord = false
-      simp only [σ3]; split <;> exact hc.hpw
-    · rfl
-    · show σ3.sqlState ≠ .onDupeKeyUpdate
-      simp only [σ3]; split <;> exact hc.hdupe
-    · show σ3.parOpen = 0
-      simp only [σ3]; split <;> exact hc.hpo
-    · show σ3.parOpenTotal = 0
-      simp only [σ3]; split <;> exact hc.hpt
-  · show σ3.f = σ.f
-    simp only [σ3]; split <;> rfl
-  · show σ3.prevWord = σ.prevWord
-    simp only [σ3]; split <;> rfl
-
-/-! ### Value lists: `in (1, 2)`, `values ('a', f(b))` -/
-
-/-- The state after a value list and at least one white-space character. -/
-structure AfterList (qi : Nat) (σ : St) : Prop where
-  hs : σ.s = .moreValuesOrUnknown
-  hpr : isSpace σ.pr = true
-  hto : σ.cpTo ≤ σ.cpFrom
-  hfromle : σ.cpFrom ≤ qi
-  hesc : σ.escape = false
-  hsql : σ.sqlState = .inValues
-  hvn : σ.valueNo = 1
-  hlen : σ.f.length ≤ 2 * qi
-  hpo : σ.parOpen = 0
-  hpt : σ.parOpenTotal = 0
-  hadd : σ.addSpace = false
-
-theorem ws_piece_al (q : List Char) (cap : Nat) (qi : Nat) (σ : St) (r : Char)
-    (hc : AfterList qi σ) (hr : isSpace r = true) :
-    ∃ σ', step q cap qi σ r = .next σ' ∧ AfterList (qi + 1) σ' ∧ SameOut σ σ' := by
-  refine ⟨{ σ with cpFrom := (qi : Int) + 1, pr := r }, ?_, ?_, rfl, rfl⟩
-  · simp [step, hc.hs, hr, hc.hpr]
-  · constructor
-    · exact hc.hs
-    · exact hr
-    · have := hc.hto; have := hc.hfromle; simp; omega
-    · simp
-    · exact hc.hesc
-    · exact hc.hsql
-    · exact hc.hvn
-    · have := hc.hlen; simp; omega
-    · exact hc.hpo
-    · exact hc.hpt
-    · exact hc.hadd
-
-/-- The first character of the word that follows a value list. -/
-theorem step_first_al (q : List Char) (cap : Nat) (qi : Nat) (σ : St) (c : Char) (hc : AfterList qi σ)
-    (hok : okFirst c = true) (hop : isOpChar c = false) (hpar : c ≠ '(') (hcomma : c ≠ ',') :
-    step q cap qi σ c =
-      .next (midWord { σ with valueNo := 0, cpFrom := (qi : Int), sqlState := .unknown } c) := by
-  simp only [okFirst, wordBad, Bool.and_eq_true, Bool.not_eq_true', Bool.or_eq_false_iff,
-    decide_eq_false_iff_not] at hok
-  obtain ⟨⟨hbad, hd⟩, hdot⟩ := hok
-  obtain ⟨⟨⟨⟨⟨⟨⟨hsp, hq1⟩, hq2⟩, hsl⟩, hpl⟩, hmi⟩, hha⟩, hco⟩ := hbad
-  have hnlt : ¬ σ.cpTo > (qi : Int) := by have := hc.hto; have := hc.hfromle; omega
-  have hb' := hop
-  simp only [isOpChar, Bool.or_eq_false_iff, decide_eq_false_iff_not] at hb'
-  obtain ⟨⟨⟨hb1, hb2⟩, hb3⟩, hb4⟩ := hb'
-  simp [step, midWord, hop, hsp, part2, part3, hd, hq1, hq2, hb1, hb2, hb3, hb4, hnlt, hsl, hpl,
-    hmi, hdot, hpar, hcomma, hco, hha, hc.hs, hc.hsql]
-
-/-- **A word after a value list** (`… in (1, 2) and …`). -/
-theorem word_item_al (q : List Char) (cap : Nat) (qi : Nat) (σ : St) (w : List Char) (r : Char) (tail : List Char)
-    (hc : AfterList qi σ) (hq : q.drop qi = w ++ r :: tail) (hcap : 2 * q.length < cap)
-    (hshape : wordShape w = true) (hctx : wordCtx σ.prevWord w = true) (hr : isSpace r = true)
-    (hplain : plainFirst w = true) :
-    ∃ σ', runSeg q cap qi σ (w ++ [r]) = .next σ' ∧ Clean (qi + w.length + 1) σ' ∧
-      σ'.f = σ.f ++ lower w ++ [' '] ∧ σ'.prevWord = lower w := by
-  cases w with
-  | nil => simp [wordShape] at hshape
-  | cons c rest =>
-    simp only [plainFirst, Bool.and_eq_true, Bool.not_eq_true', decide_eq_true_eq] at hplain
-    have hfirst : okFirst c = true := by
-      simp only [wordShape, Bool.and_eq_true] at hshape; exact hshape.1.1
-    have h1 := step_first_al q cap qi σ c hc hfirst hplain.1.1 hplain.1.2 hplain.2
-    exact word_item_core q cap qi σ { σ with valueNo := 0, cpFrom := (qi : Int), sqlState := .unknown } c rest r tail
-      h1 rfl (by have := hc.hto; have := hc.hfromle; simp; omega) hc.hesc (by simp) (by simp) hc.hlen hc.hpo hc.hpt
-      hq hcap hshape hctx hr
+/-! ### Value lists: `in (1, 2)`, `values ('a', f(b)), (2, 3)` -/
 
 /-- Inside the parentheses of a value list, at depth `d`. -/
 structure InList (d : Int) (σ : St) : Prop where
@@ -1282,17 +1648,22 @@ theorem ListFrame.trans {a b c : St} (h1 : ListFrame a b) (h2 : ListFrame b c) :
   ⟨h2.1.trans h1.1, h2.2.1.trans h1.2.1, h2.2.2.1.trans h1.2.2.1, h2.2.2.2.1.trans h1.2.2.2.1,
     h2.2.2.2.2.1.trans h1.2.2.2.2.1, h2.2.2.2.2.2.1.trans h1.2.2.2.2.2.1, h2.2.2.2.2.2.2.trans h1.2.2.2.2.2.2⟩
 
-/-- A quoted value inside a list is skipped up to its closing quote. -/
+
+/-- A quoted value inside a list is skipped up to its closing quote (a doubled
+    quote character does not close it). -/
 theorem skip_quoted_run (q : List Char) (cap : Nat) (σ : St) (c : Char) (hsql : σ.sqlState = .inValues) :
-    ∀ (body : List Char) (esc : Bool) (qi : Nat) (rest' : List Char), skipQuoted c esc body = some rest' →
+    ∀ (body : List Char) (esc : Bool) (qi : Nat) (rest' tail : List Char), skipQuoted c esc body = some rest' →
+      q.drop qi = body ++ tail → tail.head? ≠ some c →
       ∃ pre, body = pre ++ rest' ∧
         runSeg q cap qi { σ with s := .inQuote, quoteChar := c, escape := esc } pre =
           .next { σ with s := .inValues, quoteChar := c, escape := false, cpFrom := ((qi + pre.length : Nat) : Int) } := by
   intro body
   induction body with
-  | nil => intro esc qi rest' h; simp [skipQuoted] at h
+  | nil => intro esc qi rest' tail h; simp [skipQuoted] at h
   | cons x rest ih =>
-    intro esc qi rest' h
+    intro esc qi rest' tail h hq htl
+    have hq1 : q.drop (qi + 1) = rest ++ tail := drop_succ_of_drop (by simpa using hq)
+    have hla : q[qi + 1]? = (rest ++ tail).head? := lookahead_of_drop (by simpa using hq)
     unfold skipQuoted at h
     by_cases hx : x = c
     · subst hx
@@ -1300,23 +1671,49 @@ theorem skip_quoted_run (q : List Char) (cap : Nat) (σ : St) (c : Char) (hsql :
       cases esc with
       | true =>
         simp only [if_true] at h
-        obtain ⟨pre, hpre, hrun⟩ := ih false (qi + 1) rest' h
+        obtain ⟨pre, hpre, hrun⟩ := ih false (qi + 1) rest' tail h hq1 htl
         refine ⟨x :: pre, by simp [hpre], ?_⟩
         have : step q cap qi { σ with s := .inQuote, quoteChar := x, escape := true } x =
             .next { σ with s := .inQuote, quoteChar := x, escape := false } := by simp [step]
         simp only [runSeg, this, hrun]
         simp; omega
       | false =>
-        simp only [Bool.false_eq_true, if_false, Option.some.injEq] at h
-        subst h
-        refine ⟨[x], by simp, ?_⟩
-        simp [runSeg, step, hsql]
+        simp only [Bool.false_eq_true, if_false] at h
+        have hclose : ¬ (q[qi + 1]? = some x) →
+            step q cap qi { σ with s := .inQuote, quoteChar := x, escape := false } x =
+              .next { σ with s := .inValues, quoteChar := x, escape := false, cpFrom := (qi : Int) + 1 } := by
+          intro hne
+          simp [step, hsql, hne]
+        cases rest with
+        | nil =>
+          simp only [Option.some.injEq] at h
+          subst h
+          have hne : ¬ (q[qi + 1]? = some x) := by rw [hla]; simpa using htl
+          exact ⟨[x], by simp, by simp [runSeg, hclose hne]⟩
+        | cons y rest2 =>
+          simp only at h
+          by_cases hy : y = x
+          · subst hy
+            rw [if_pos rfl] at h
+            obtain ⟨pre, hpre, hrun⟩ := ih true (qi + 1) rest' tail h hq1 htl
+            refine ⟨y :: pre, by simp [hpre], ?_⟩
+            have hdbl : q[qi + 1]? = some y := by rw [hla]; simp
+            have : step q cap qi { σ with s := .inQuote, quoteChar := y, escape := false } y =
+                .next { σ with s := .inQuote, quoteChar := y, escape := true } := by simp [step, hdbl]
+            simp only [runSeg, this, hrun]
+            simp; omega
+          · rw [if_neg hy] at h
+            simp only [Option.some.injEq] at h
+            subst h
+            have hne : ¬ (q[qi + 1]? = some x) := by
+              rw [hla]; simp only [List.cons_append, List.head?_cons, Option.some.injEq]; exact hy
+            exact ⟨[x], by simp, by simp [runSeg, hclose hne]⟩
     · simp only [ne_eq, hx, not_false_eq_true, if_true] at h
       have hx' : ¬ (x = c) := hx
       cases esc with
       | true =>
         simp only [if_true] at h
-        obtain ⟨pre, hpre, hrun⟩ := ih false (qi + 1) rest' h
+        obtain ⟨pre, hpre, hrun⟩ := ih false (qi + 1) rest' tail h hq1 htl
         refine ⟨x :: pre, by simp [hpre], ?_⟩
         have : step q cap qi { σ with s := .inQuote, quoteChar := c, escape := true } x =
             .next { σ with s := .inQuote, quoteChar := c, escape := false } := by simp [step, hx']
@@ -1327,14 +1724,14 @@ theorem skip_quoted_run (q : List Char) (cap : Nat) (σ : St) (c : Char) (hsql :
         by_cases hb : x = '\\'
         · subst hb
           simp only [if_true] at h
-          obtain ⟨pre, hpre, hrun⟩ := ih true (qi + 1) rest' h
+          obtain ⟨pre, hpre, hrun⟩ := ih true (qi + 1) rest' tail h hq1 htl
           refine ⟨'\\' :: pre, by simp [hpre], ?_⟩
           have : step q cap qi { σ with s := .inQuote, quoteChar := c, escape := false } '\\' =
               .next { σ with s := .inQuote, quoteChar := c, escape := true } := by simp [step, hx']
           simp only [runSeg, this, hrun]
           simp; omega
         · simp only [hb, if_false] at h
-          obtain ⟨pre, hpre, hrun⟩ := ih false (qi + 1) rest' h
+          obtain ⟨pre, hpre, hrun⟩ := ih false (qi + 1) rest' tail h hq1 htl
           refine ⟨x :: pre, by simp [hpre], ?_⟩
           have : step q cap qi { σ with s := .inQuote, quoteChar := c, escape := false } x =
               .next { σ with s := .inQuote, quoteChar := c, escape := false } := by simp [step, hx', hb]
@@ -1344,13 +1741,14 @@ theorem skip_quoted_run (q : List Char) (cap : Nat) (σ : St) (c : Char) (hsql :
 /-- Reading the content of a value list: the state stays inside the list and
     ends at depth 1 (the closing parenthesis comes next). -/
 theorem list_scan_run (q : List Char) (cap : Nat) :
-    ∀ (fuel : Nat) (d : Nat) (l : List Char) (σ : St) (qi : Nat), listScan fuel d l = true → 1 ≤ d →
-      InList (d : Int) σ → ∃ σ', runSeg q cap qi σ l = .next σ' ∧ InList 1 σ' ∧ ListFrame σ σ' := by
+    ∀ (fuel : Nat) (d : Nat) (l : List Char) (σ : St) (qi : Nat) (tail : List Char), listScan fuel d l = true → 1 ≤ d →
+      InList (d : Int) σ → q.drop qi = l ++ tail → tail.head? = some ')' →
+      ∃ σ', runSeg q cap qi σ l = .next σ' ∧ InList 1 σ' ∧ ListFrame σ σ' := by
   intro fuel
   induction fuel with
-  | zero => intro d l σ qi h; simp [listScan] at h
+  | zero => intro d l σ qi tail h; simp [listScan] at h
   | succ fuel ih =>
-    intro d l σ qi h hd hin
+    intro d l σ qi tail h hd hin hdq htl
     cases l with
     | nil =>
       simp only [listScan, beq_iff_eq] at h
@@ -1358,6 +1756,7 @@ theorem list_scan_run (q : List Char) (cap : Nat) :
       exact ⟨σ, by simp [runSeg], hin, ListFrame.refl σ⟩
     | cons c rest =>
       simp only [listScan] at h
+      have hdq1 : q.drop (qi + 1) = rest ++ tail := drop_succ_of_drop (by simpa using hdq)
       by_cases hq : c = '\'' ∨ c = '"'
       · rw [if_pos hq] at h
         cases hsk : skipQuoted c false rest with
@@ -1367,14 +1766,18 @@ theorem list_scan_run (q : List Char) (cap : Nat) :
           simp only at h
           have h1 : step q cap qi σ c = .next { σ with s := .inQuote, quoteChar := c } := by
             simp [step, hin.hs, hq]
-          obtain ⟨pre, hpre, hrun⟩ := skip_quoted_run q cap σ c hin.hsql rest false (qi + 1) rest' hsk
+          have htlc : tail.head? ≠ some c := by
+            rw [htl]; rcases hq with e | e <;> subst e <;> decide
+          obtain ⟨pre, hpre, hrun⟩ := skip_quoted_run q cap σ c hin.hsql rest false (qi + 1) rest' tail hsk hdq1 htlc
+          have hq2 : q.drop (qi + 1 + pre.length) = rest' ++ tail := by
+            apply drop_after q (qi + 1) pre; rw [hdq1, hpre]; simp
           have hescσ : ({ σ with s := .inQuote, quoteChar := c } : St) =
               { σ with s := .inQuote, quoteChar := c, escape := false } := by
             have := hin.hesc; cases σ; simp_all
           let σ2 : St := { σ with s := .inValues, quoteChar := c, escape := false,
                                   cpFrom := ((qi + 1 + pre.length : Nat) : Int) }
           have hin2 : InList (d : Int) σ2 := ⟨rfl, hin.hsql, hin.hpo, rfl, hin.hpt⟩
-          obtain ⟨σ', h3, hin3, hfr3⟩ := ih d rest' σ2 (qi + 1 + pre.length) h hd hin2
+          obtain ⟨σ', h3, hin3, hfr3⟩ := ih d rest' σ2 (qi + 1 + pre.length) tail h hd hin2 hq2 htl
           refine ⟨σ', ?_, hin3, ListFrame.trans ⟨rfl, rfl, rfl, rfl, rfl, rfl, rfl⟩ hfr3⟩
           simp only [runSeg, h1]
           rw [hpre, runSeg_append, hescσ, hrun]
@@ -1392,7 +1795,7 @@ theorem list_scan_run (q : List Char) (cap : Nat) :
             simp [step, hin.hs, isSpace, hne, hgt, σ2]
           have hin2 : InList ((d + 1 : Nat) : Int) σ2 :=
             ⟨hin.hs, hin.hsql, by simp [σ2, hin.hpo], hin.hesc, hin.hpt⟩
-          obtain ⟨σ', h3, hin3, hfr3⟩ := ih (d + 1) rest σ2 (qi + 1) h (by omega) hin2
+          obtain ⟨σ', h3, hin3, hfr3⟩ := ih (d + 1) rest σ2 (qi + 1) tail h (by omega) hin2 hdq1 htl
           exact ⟨σ', by simp only [runSeg, h1]; exact h3, hin3, ListFrame.trans ⟨rfl, rfl, rfl, rfl, rfl, rfl, rfl⟩ hfr3⟩
         · rw [if_neg ho] at h
           by_cases hcl : c = ')'
@@ -1408,7 +1811,7 @@ theorem list_scan_run (q : List Char) (cap : Nat) :
                 simp [step, hin.hs, isSpace, hgt, hgt2, σ2]
               have hin2 : InList ((d - 1 : Nat) : Int) σ2 :=
                 ⟨hin.hs, hin.hsql, by simp [σ2, hin.hpo]; omega, hin.hesc, by have := hin.hpt; simp [σ2]; omega⟩
-              obtain ⟨σ', h3, hin3, hfr3⟩ := ih (d - 1) rest σ2 (qi + 1) h (by omega) hin2
+              obtain ⟨σ', h3, hin3, hfr3⟩ := ih (d - 1) rest σ2 (qi + 1) tail h (by omega) hin2 hdq1 htl
               exact ⟨σ', by simp only [runSeg, h1]; exact h3, hin3, ListFrame.trans ⟨rfl, rfl, rfl, rfl, rfl, rfl, rfl⟩ hfr3⟩
           · rw [if_neg hcl] at h
             have h1 : step q cap qi σ c = .next σ := by
@@ -1416,7 +1819,7 @@ theorem list_scan_run (q : List Char) (cap : Nat) :
               by_cases hsp : isSpace c = true
               · simp [step, hin.hs, hq1, hq2, hsp, ho, hcl]
               · simp [step, hin.hs, hq1, hq2, hsp, ho, hcl, hgt]
-            obtain ⟨σ', h3, hin3, hfr3⟩ := ih d rest σ (qi + 1) h hd hin
+            obtain ⟨σ', h3, hin3, hfr3⟩ := ih d rest σ (qi + 1) tail h hd hin hdq1 htl
             exact ⟨σ', by simp only [runSeg, h1]; exact h3, hin3, hfr3⟩
 
 theorem valuesWord_cases (kw : List Char) (h : isValuesWord kw = true) :
@@ -1463,9 +1866,9 @@ theorem runSeg_ws_inValues (q : List Char) (cap : Nat) (σ : St) (hs : σ.s = .i
   | cons c rest ih =>
     intro qi h
     simp only [List.all_cons, Bool.and_eq_true] at h
-    obtain ⟨_, _, _, hq1, hq2⟩ := isSpace_not_digit h.1
+    obtain ⟨_, _, _, hq1, hq2, _⟩ := isSpace_not_digit h.1
     have hp : c ≠ ')' ∧ c ≠ '(' := by
-      rcases isSpace_cases h.1 with e | e | e | e <;> subst e <;> decide
+      rcases isSpace_cases h.1 with e | e | e | e | e | e <;> subst e <;> decide
     have : step q cap qi σ c = .next σ := by simp [step, hs, hq1, hq2, hp.1, hp.2, h.1]
     simp only [runSeg, this]
     exact ih (qi + 1) h.2
@@ -1491,6 +1894,53 @@ theorem step_kw_paren (q : List Char) (cap : Nat) (qi0 qi : Int) (σb : St) (a :
   have hgt' : qi > qi0 := hgt
   simp [step, midWord, haop, isSpace, part2, isDigit, hcall, hdupe, hfrom, hslice, hkw, hvn, part3, hgt', hp1, h7]
 
+/-- Reading a whole word (without the character that ends it). -/
+theorem word_prefix (q : List Char) (cap : Nat) (qi : Nat) (σ : St) (w tail : List Char)
+    (hc : Ready d qi σ) (hq : q.drop qi = w ++ tail) (hshape : wordShape w = true)
+    (hcallAll : '(' ∈ w → σ.prevWord ≠ kwCall) :
+    ∃ σb a, runSeg q cap qi σ w = .next (midWord σb a) ∧ w.getLast? = some a ∧ wordBad a = false ∧
+      σb.cpFrom = (qi : Int) ∧ σb.cpTo ≤ (qi : Int) ∧ σb.prevWord = σ.prevWord ∧ σb.f = σ.f ∧
+      σb.escape = σ.escape ∧ σb.sqlState = σ.sqlState ∧ σb.addSpace = σ.addSpace ∧
+      σb.parOpen = σ.parOpen ∧ σb.parOpenTotal = σ.parOpenTotal ∧
+      (∀ k, k ≤ w.length → slice? q qi ((qi + k : Nat) : Int) = some (w.take k)) ∧
+      (∃ c rest, w = c :: rest ∧ σb = baseWord σ qi c) := by
+  cases w with
+  | nil => simp [wordShape] at hshape
+  | cons c rest =>
+    simp only [wordShape, Bool.and_eq_true] at hshape
+    obtain ⟨⟨hfirst, hchain⟩, hpar⟩ := hshape
+    have hlt : qi < q.length := lt_length_of_drop (by simpa using hq)
+    have h1 := step_first q cap qi σ c hc (by omega) hfirst (fun h => hcallAll (by simp [h]))
+    let σb := baseWord σ qi c
+    have hbfrom : σb.cpFrom = (qi : Int) := by
+      simp only [σb, baseWord]; split <;> rfl
+    have hbto : σb.cpTo ≤ (qi : Int) := by
+      have : σb.cpTo = σ.cpTo := by simp only [σb, baseWord]; split <;> rfl
+      rw [this]; exact hc.hto
+    have hbprev : σb.prevWord = σ.prevWord := by simp only [σb, baseWord]; split <;> rfl
+    have hbf : σb.f = σ.f := by simp only [σb, baseWord]; split <;> rfl
+    have hbesc : σb.escape = σ.escape := by simp only [σb, baseWord]; split <;> rfl
+    have hbsql : σb.sqlState = σ.sqlState := by simp only [σb, baseWord]; split <;> rfl
+    have hbadd : σb.addSpace = σ.addSpace := by simp only [σb, baseWord]; split <;> rfl
+    have hbpo : σb.parOpen = σ.parOpen := by simp only [σb, baseWord]; split <;> rfl
+    have hbpt : σb.parOpenTotal = σ.parOpenTotal := by simp only [σb, baseWord]; split <;> rfl
+    have hsl : ∀ k, k ≤ (c :: rest).length →
+        slice? q qi ((qi + k : Nat) : Int) = some ((c :: rest).take k) := by
+      intro k hk
+      exact slice_of_drop q (c :: rest) tail qi k hq (by omega) hk
+    have h2 := runSeg_mid q cap σb qi (c :: rest) hbfrom hbto (by rw [hbprev]; exact hcallAll) hsl hpar
+      rest [] c rfl hchain
+    simp only [List.length_nil, Nat.add_zero] at h2
+    have hlastBad : wordBad ((c :: rest).getLast (by simp)) = false := by
+      rcases List.mem_cons.mp (List.getLast_mem (l := c :: rest) (by simp)) with h | h
+      · rw [h]
+        simp only [okFirst, Bool.and_eq_true, Bool.not_eq_true'] at hfirst
+        exact hfirst.1.1
+      · exact chainOK_notBad c rest hchain _ h
+    refine ⟨σb, (c :: rest).getLast (by simp), ?_, ?_, hlastBad, hbfrom, hbto, hbprev, hbf, hbesc, hbsql, hbadd, hbpo, hbpt, hsl, ⟨c, rest, rfl, rfl⟩⟩
+    · simp only [runSeg, h1]; exact h2
+    · exact List.getLast?_eq_some_getLast (by simp)
+
 /-- The parenthesis that closes the list: `(?+)` (or `()`) is written. -/
 theorem step_close_list (q : List Char) (cap : Nat) (qOpen n : Nat) (σ : St)
     (hin : InList 1 σ) (hvn : σ.valueNo = 0) (hfp : σ.firstPar = (qOpen : Int))
@@ -1511,21 +1961,9 @@ theorem step_close_list (q : List Char) (cap : Nat) (qOpen n : Nat) (σ : St)
     have hgt : (qOpen : Int) + 1 + (n : Int) - (qOpen : Int) > 1 := by omega
     simp [step, hin.hs, hin.hpo, hpt, hvn, hfp, hp, hn, hgt]
 
-/-- The white space after the closing parenthesis. -/
-theorem step_space_after_list (q : List Char) (cap : Nat) (qi : Int) (σ : St) (r : Char)
-    (hs : σ.s = .moreValuesOrUnknown) (hpr : σ.pr = ')') (hvn : σ.valueNo = 1) (hr : isSpace r = true)
-    (hto : σ.cpTo ≤ σ.cpFrom) (hcap : σ.f.length + 1 ≤ cap) :
-    step q cap qi σ r = .next { σ with f := σ.f ++ [' '], pr := r } := by
-  have hd := (isSpace_not_digit hr).1
-  have hnlt : ¬ σ.cpTo > σ.cpFrom := Int.not_lt.mpr hto
-  have hpush : push cap σ.f ' ' = some (σ.f ++ [' ']) := by
-    unfold push; rw [if_pos (by omega)]
-  have hps : isSpace ')' = false := by decide
-  simp [step, hs, hr, hpr, hps, part2, hd, hvn, hpush, part3, hnlt]
-
 /-- `kw gap (`: the state right after the opening parenthesis of the list. -/
 theorem vlist_open (q : List Char) (cap : Nat) (qi : Nat) (σ : St) (kw gap tail : List Char)
-    (hc : Clean qi σ) (hq : q.drop qi = kw ++ (gap ++ '(' :: tail)) (hcap : 2 * q.length < cap)
+    (hc : Ready false qi σ) (hq : q.drop qi = kw ++ (gap ++ '(' :: tail)) (hcap : 2 * q.length < cap)
     (hkwShape : wordShape kw = true) (hkw : isValuesWord kw = true)
     (hplain : kw.all (fun c => !isOpChar c && c ≠ '(') = true) (hgap : gap.all isSpace = true)
     (hcall : σ.prevWord ≠ kwCall) :
@@ -1551,7 +1989,7 @@ theorem vlist_open (q : List Char) (cap : Nat) (qi : Nat) (σ : St) (kw gap tail
   have hbvn : σb.valueNo = 0 := by rw [hσb]; simp [baseWord, hc0.1]
   have hsw := hsl kw.length (Nat.le_refl _)
   rw [List.take_length] at hsw
-  have hdupe : σb.sqlState ≠ .onDupeKeyUpdate := by rw [hbsql]; exact hc.hdupe
+  have hdupe : σb.sqlState ≠ .onDupeKeyUpdate := by rw [hbsql]; exact hc.hdupe rfl
   have hlw : (lower kw).length = kw.length := by simp [lower]
   have hcapk : σb.f.length + kw.length ≤ cap := by rw [hbf]; have := hc.hlen; omega
   cases gap with
@@ -1599,34 +2037,273 @@ theorem vlist_open (q : List Char) (cap : Nat) (qi : Nat) (σ : St) (kw gap tail
       simp; omega
     · rfl
 
-/-- **Value lists**: `in (1, 'a')`, `values(f(b), ")")`.  From a clean state
-    the keyword, the parenthesised list and the white-space character after it
-    contribute `in(?+) ` (`in() ` for an empty list). -/
-theorem vlist_item (q : List Char) (cap : Nat) (qi : Nat) (σ : St) (kw gap content : List Char) (r : Char)
-    (tail : List Char) (hc : Clean qi σ)
-    (hq : q.drop qi = (kw ++ gap ++ '(' :: content ++ [')']) ++ r :: tail) (hcap : 2 * q.length < cap)
-    (hshape : listShape kw gap content = true) (hcall : σ.prevWord ≠ kwCall) (hr : isSpace r = true) :
-    ∃ σ', runSeg q cap qi σ ((kw ++ gap ++ '(' :: content ++ [')']) ++ [r]) = .next σ' ∧
-      AfterList (qi + (kw ++ gap ++ '(' :: content ++ [')']).length + 1) σ' ∧
-      σ'.f = σ.f ++ (Item.vlist kw gap content).norm ++ [' '] ∧ σ'.prevWord = lower kw := by
-  simp only [listShape, Bool.and_eq_true] at hshape
-  obtain ⟨⟨⟨⟨hkwShape, hkw⟩, hplain⟩, hgap⟩, hcontent⟩ := hshape
-  have hq1 : q.drop qi = kw ++ (gap ++ '(' :: (content ++ ')' :: r :: tail)) := by simpa using hq
-  obtain ⟨σL, h1, hinL, hvnL, hfpL, hpwL, hfL, htoL, haddL⟩ :=
-    vlist_open q cap qi σ kw gap _ hc hq1 hcap hkwShape hkw hplain hgap hcall
-  have hqlen : qi + kw.length + gap.length + 1 + content.length + 2 ≤ q.length := by
+/-- The state after a row `( … )` of a value list: `F` is the fingerprint up
+    to and including `(?+)`; a blank has been written after it iff white space
+    has been read since. -/
+structure Between (qi : Nat) (σ : St) (F : List Char) : Prop where
+  hs : σ.s = .moreValuesOrUnknown
+  hto : σ.cpTo ≤ σ.cpFrom
+  hfromle : σ.cpFrom ≤ qi
+  hesc : σ.escape = false
+  hsql : σ.sqlState = .inValues
+  hvn : 1 ≤ σ.valueNo
+  hlen : F.length + 1 ≤ 2 * qi
+  hpo : σ.parOpen = 0
+  hpt : σ.parOpenTotal = 0
+  hadd : σ.addSpace = false
+  hpw : σ.prevWord = kwValue ∨ σ.prevWord = kwValues ∨ σ.prevWord = kwIn
+  hf : (σ.f = F ∧ isSpace σ.pr = false) ∨ σ.f = F ++ [' ']
+  hF : ∃ g, F = g ++ [')']
+
+/-- White space after a row: one blank after `(?+)`, however much there is. -/
+theorem between_ws (q : List Char) (cap : Nat) (qi : Nat) (σ : St) (F : List Char) (r : Char)
+    (hb : Between qi σ F) (hr : isSpace r = true) (hcap : 2 * qi < cap) :
+    ∃ σ', step q cap qi σ r = .next σ' ∧ Between (qi + 1) σ' F ∧ σ'.f = F ++ [' '] ∧ isSpace σ'.pr = true ∧
+      σ'.prevWord = σ.prevWord := by
+  obtain ⟨g, hg⟩ := hb.hF
+  have hd := (isSpace_not_digit hr).1
+  have hnlt : ¬ σ.cpTo > σ.cpFrom := Int.not_lt.mpr hb.hto
+  by_cases hp : isSpace σ.pr = true
+  · have hf : σ.f = F ++ [' '] := by
+      rcases hb.hf with h | h
+      · rw [h.2] at hp; cases hp
+      · exact h
+    refine ⟨{ σ with cpFrom := (qi : Int) + 1, pr := r }, by simp [step, hb.hs, hr, hp], ?_, hf, hr, rfl⟩
+    exact { hs := hb.hs, hto := by have := hb.hto; have := hb.hfromle; simp; omega, hfromle := by simp,
+            hesc := hb.hesc, hsql := hb.hsql, hvn := hb.hvn, hlen := by have := hb.hlen; omega, hpo := hb.hpo,
+            hpt := hb.hpt, hadd := hb.hadd, hpw := hb.hpw, hf := Or.inr hf, hF := hb.hF }
+  · have hp' : isSpace σ.pr = false := by simpa using hp
+    rcases hb.hf with h | h
+    · have hpush : push cap σ.f ' ' = some (σ.f ++ [' ']) := by
+        unfold push; rw [if_pos (by rw [h.1]; have := hb.hlen; omega)]
+      have hlastns : (σ.f.getLast?.map isSpace) ≠ some true := by
+        rw [h.1, hg]; simp; decide
+      have hpos : σ.f.length > 0 := by rw [h.1, hg]; simp
+      refine ⟨{ σ with f := σ.f ++ [' '], pr := r }, ?_, ?_, by simp [h.1], hr, rfl⟩
+      · simp [step, hb.hs, hr, hp', part2, hd, hpos, hlastns, hpush, part3, hnlt]
+      · exact { hs := hb.hs, hto := hb.hto, hfromle := by have := hb.hfromle; show σ.cpFrom ≤ _; omega,
+                hesc := hb.hesc, hsql := hb.hsql, hvn := hb.hvn, hlen := by have := hb.hlen; omega, hpo := hb.hpo,
+                hpt := hb.hpt, hadd := hb.hadd, hpw := hb.hpw, hf := Or.inr (by simp [h.1]), hF := hb.hF }
+    · have hlasts : (σ.f.getLast?.map isSpace) = some true := by
+        rw [h]; simp; decide
+      refine ⟨{ σ with pr := r }, ?_, ?_, h, hr, rfl⟩
+      · simp [step, hb.hs, hr, hp', part2, hd, hlasts, part3, hnlt]
+      · exact { hs := hb.hs, hto := hb.hto, hfromle := by have := hb.hfromle; show σ.cpFrom ≤ _; omega,
+                hesc := hb.hesc, hsql := hb.hsql, hvn := hb.hvn, hlen := by have := hb.hlen; omega, hpo := hb.hpo,
+                hpt := hb.hpt, hadd := hb.hadd, hpw := hb.hpw, hf := Or.inr h, hF := hb.hF }
+
+/-- A (possibly empty) run of white space after a row. -/
+theorem between_ws_run (q : List Char) (cap : Nat) (hcap : 2 * q.length < cap) :
+    ∀ (ws : List Char) (qi : Nat) (σ : St) (F : List Char), Between qi σ F → ws.all isSpace = true →
+      qi + ws.length ≤ q.length →
+      ∃ σ', runSeg q cap qi σ ws = .next σ' ∧ Between (qi + ws.length) σ' F ∧ σ'.prevWord = σ.prevWord ∧
+        (ws ≠ [] → σ'.f = F ++ [' '] ∧ isSpace σ'.pr = true) ∧ (ws = [] → σ' = σ) := by
+  intro ws
+  induction ws with
+  | nil => intro qi σ F hb _ _; exact ⟨σ, by simp [runSeg], by simpa using hb, rfl, by simp, fun _ => rfl⟩
+  | cons c rest ih =>
+    intro qi σ F hb hok hl
+    simp only [List.all_cons, Bool.and_eq_true] at hok
+    simp only [List.length_cons] at hl
+    obtain ⟨σ1, h1, hb1, hf1, hp1, hw1⟩ := between_ws q cap qi σ F c hb hok.1 (by omega)
+    obtain ⟨σ2, h2, hb2, hw2, hne2, he2⟩ := ih (qi + 1) σ1 F hb1 hok.2 (by omega)
+    refine ⟨σ2, by simp only [runSeg, h1]; exact h2, ?_, by rw [hw2, hw1], ?_, by simp⟩
+    · have e : qi + (c :: rest).length = qi + 1 + rest.length := by simp; omega
+      rw [e]; exact hb2
+    · intro _
+      cases rest with
+      | nil => rw [he2 rfl]; exact ⟨hf1, hp1⟩
+      | cons _ _ => exact hne2 (by simp)
+
+/-- The comma between two rows. -/
+theorem between_comma (q : List Char) (cap : Nat) (qi : Nat) (σ : St) (F : List Char) (hb : Between qi σ F) :
+    step q cap qi σ ',' = .next { σ with pr := ',' } ∧ Between (qi + 1) { σ with pr := ',' } F := by
+  have hnlt : ¬ σ.cpTo > σ.cpFrom := Int.not_lt.mpr hb.hto
+  refine ⟨by simp [step, hb.hs, isSpace, part2, isDigit, part3, hnlt], ?_⟩
+  exact { hs := hb.hs, hto := hb.hto, hfromle := by have := hb.hfromle; show σ.cpFrom ≤ _; omega,
+          hesc := hb.hesc, hsql := hb.hsql, hvn := hb.hvn, hlen := by have := hb.hlen; omega, hpo := hb.hpo,
+          hpt := hb.hpt, hadd := hb.hadd, hpw := hb.hpw,
+          hf := by
+            rcases hb.hf with h | h
+            · left; exact ⟨h.1, (by decide : isSpace ',' = false)⟩
+            · right; exact h
+          hF := hb.hF }
+
+/-- The parenthesis that opens a further row. -/
+theorem between_open (q : List Char) (cap : Nat) (qi : Nat) (σ : St) (F : List Char) (hb : Between qi σ F) :
+    step q cap qi σ '(' =
+      .next { σ with s := .inValues, sqlState := .inValues, parOpen := 1, firstPar := (qi : Int), pr := '(' } := by
+  have hnlt : ¬ σ.cpTo > σ.cpFrom := Int.not_lt.mpr hb.hto
+  have hcall : σ.prevWord ≠ kwCall := by
+    rcases hb.hpw with h | h | h <;> rw [h] <;> decide
+  have hvn : ¬ (σ.valueNo = 0) := by have := hb.hvn; omega
+  have hsq : σ.sqlState ≠ .onDupeKeyUpdate := by rw [hb.hsql]; decide
+  simp [step, hb.hs, isSpace, part2, isDigit, hcall, hsq, hb.hpw, hvn, part3, hnlt]
+
+/-- The parenthesis that closes a further row: nothing is written. -/
+theorem step_close_row (q : List Char) (cap : Nat) (qi : Int) (σ : St)
+    (hin : InList 1 σ) (hvn : 1 ≤ σ.valueNo) :
+    step q cap qi σ ')' =
+      .next { σ with parOpen := 0, parOpenTotal := 0, valueNo := σ.valueNo + 1,
+                     s := .moreValuesOrUnknown, pr := ')', cpFrom := qi + 1 } := by
+  have hpt : ¬ (σ.parOpenTotal + 1 = 0) := by have := hin.hpt; omega
+  have hv : ¬ (σ.valueNo + 1 = 1) := by omega
+  simp [step, hin.hs, hin.hpo, hpt, hv]
+
+/-- The text of a gap that holds white space only. -/
+theorem gapText_ws' : ∀ (g : Gap), gapOK g = true → gapIsWs g = true → (gapText g).all isSpace = true := by
+  intro g
+  induction g with
+  | nil => intro _ _; rfl
+  | cons p rest ih =>
+    intro hok hws
+    simp only [gapOK, gapIsWs, List.all_cons, Bool.and_eq_true] at hok hws
+    cases p with
+    | ws c =>
+      simp only [gapText, List.flatMap_cons, SepPiece.text, List.cons_append, List.nil_append, List.all_cons,
+        Bool.and_eq_true]
+      exact ⟨by simpa [SepPiece.ok] using hok.1, ih hok.2 hws.2⟩
+    | mlc b => simp [SepPiece.isWs] at hws
+    | dash c b => simp [SepPiece.isWs] at hws
+    | hash b => simp [SepPiece.isWs] at hws
+
+theorem gapText_ws (g : Gap) (h : wsGap g = true) : (gapText g).all isSpace = true := by
+  simp only [wsGap, Bool.and_eq_true] at h
+  exact gapText_ws' g h.1 h.2
+
+/-- **A further row** `, ( … )` of a value list: nothing is written but the
+    blank that separates the list from what follows. -/
+theorem row_run (q : List Char) (cap : Nat) (hcap : 2 * q.length < cap) (qi : Nat) (σ : St) (F : List Char)
+    (r : Row) (tail : List Char) (hb : Between qi σ F) (hr : r.core = true)
+    (hq : q.drop qi = r.text ++ tail) :
+    ∃ σ', runSeg q cap qi σ r.text = .next σ' ∧ Between (qi + r.text.length) σ' F ∧ σ'.prevWord = σ.prevWord ∧
+      σ'.pr = ')' := by
+  simp only [Row.core, Bool.and_eq_true] at hr
+  obtain ⟨⟨hw1, hw2⟩, hcontent⟩ := hr
+  have hws1 := gapText_ws r.g1 hw1
+  have hws2 := gapText_ws r.g2 hw2
+  generalize hg1 : gapText r.g1 = ws1 at *
+  generalize hg2 : gapText r.g2 = ws2 at *
+  have htext : r.text = ws1 ++ ',' :: (ws2 ++ '(' :: (r.content ++ [')'])) := by simp [Row.text, hg1, hg2]
+  rw [htext] at hq ⊢
+  have hqlen : qi + ws1.length + 1 + ws2.length + 1 + r.content.length + 1 ≤ q.length := by
     have := congrArg List.length hq
     simp at this; omega
-  obtain ⟨qOpen, hqOpen⟩ : ∃ n : Nat, n = qi + kw.length + gap.length := ⟨_, rfl⟩
+  -- white space, comma, white space
+  obtain ⟨σ1, h1, hb1, hp1, _, _⟩ := between_ws_run q cap hcap ws1 qi σ F hb hws1 (by omega)
+  obtain ⟨h2, hb2⟩ := between_comma q cap (qi + ws1.length) σ1 F hb1
+  obtain ⟨σ3, h3, hb3, hp3, _, _⟩ := between_ws_run q cap hcap ws2 (qi + ws1.length + 1) _ F hb2 hws2 (by omega)
+  have hp3' : σ3.prevWord = σ.prevWord := by rw [hp3]; exact hp1
+  -- the parenthesis and the content
+  obtain ⟨qo, hqo⟩ : ∃ n : Nat, n = qi + ws1.length + 1 + ws2.length := ⟨_, rfl⟩
+  rw [← hqo] at hb3
+  have h4 := between_open q cap qo σ3 F hb3
+  let σ4 : St := { σ3 with s := .inValues, sqlState := .inValues, parOpen := 1, firstPar := (qo : Int), pr := '(' }
+  have hin4 : InList 1 σ4 := ⟨rfl, rfl, rfl, hb3.hesc, by show (0 : Int) ≤ σ3.parOpenTotal; rw [hb3.hpt]; omega⟩
+  have hq5 : q.drop (qo + 1) = r.content ++ (')' :: tail) := by
+    have e : qo + 1 = qi + (ws1 ++ ',' :: (ws2 ++ ['('])).length := by simp; omega
+    rw [e]
+    apply drop_after q qi
+    rw [hq]; simp
+  obtain ⟨σ5, h5, hin5, hfr5⟩ := list_scan_run q cap (r.content.length + 1) 1 r.content σ4 (qo + 1) (')' :: tail) hcontent
+    (Nat.le_refl _) hin4 hq5 rfl
+  obtain ⟨hfr_pw, hfr_f, hfr_vn, hfr_fp, hfr_to, hfr_add, hfr_pr⟩ := hfr5
+  have h6 := step_close_row q cap ((qo + 1 + r.content.length : Nat) : Int) σ5 hin5 (by rw [hfr_vn]; exact hb3.hvn)
+  refine ⟨{ σ5 with parOpen := 0, parOpenTotal := 0, valueNo := σ5.valueNo + 1,
+                    s := .moreValuesOrUnknown, pr := ')', cpFrom := ((qo + 1 + r.content.length : Nat) : Int) + 1 },
+    ?_, ?_, ?_, rfl⟩
+  · rw [runSeg_append, h1]
+    simp only [runSeg, h2]
+    rw [runSeg_append, h3]
+    have e1 : qi + ws1.length + 1 + ws2.length = qo := by omega
+    rw [e1]
+    simp only [runSeg, h4]
+    rw [runSeg_append, h5]
+    simp only [runSeg, h6]
+  · have e : qi + (ws1 ++ ',' :: (ws2 ++ '(' :: (r.content ++ [')']))).length = qo + 1 + r.content.length + 1 := by
+      simp; omega
+    rw [e]
+    exact { hs := rfl
+            hto := by
+              show σ5.cpTo ≤ ((qo + 1 + r.content.length : Nat) : Int) + 1
+              rw [hfr_to]; have := hb3.hto; have := hb3.hfromle; show σ3.cpTo ≤ _; omega
+            hfromle := by simp
+            hesc := hin5.hesc, hsql := hin5.hsql
+            hvn := by show 1 ≤ σ5.valueNo + 1; rw [hfr_vn]; have := hb3.hvn; show 1 ≤ σ3.valueNo + 1; omega
+            hlen := by have := hb3.hlen; omega
+            hpo := rfl, hpt := rfl
+            hadd := by show σ5.addSpace = false; rw [hfr_add]; exact hb3.hadd
+            hpw := by show σ5.prevWord = _ ∨ _; rw [hfr_pw]; exact hb3.hpw
+            hf := by
+              show (σ5.f = F ∧ isSpace ')' = false) ∨ σ5.f = F ++ [' ']
+              rw [hfr_f]
+              rcases hb3.hf with h | h
+              · left; exact ⟨h.1, by decide⟩
+              · right; exact h
+            hF := hb.hF }
+  · show σ5.prevWord = _
+    rw [hfr_pw]; exact hp3'
+
+/-- Further rows of a value list. -/
+theorem rows_run (q : List Char) (cap : Nat) (hcap : 2 * q.length < cap) :
+    ∀ (rows : List Row) (qi : Nat) (σ : St) (F : List Char) (tail : List Char), Between qi σ F → σ.pr = ')' →
+      rows.all Row.core = true → q.drop qi = rows.flatMap Row.text ++ tail →
+      ∃ σ', runSeg q cap qi σ (rows.flatMap Row.text) = .next σ' ∧
+        Between (qi + (rows.flatMap Row.text).length) σ' F ∧ σ'.prevWord = σ.prevWord ∧ σ'.pr = ')' ∧
+        (rows = [] → σ' = σ) := by
+  intro rows
+  induction rows with
+  | nil => intro qi σ F tail hb hp _ _; exact ⟨σ, by simp [runSeg], by simpa using hb, rfl, hp, fun _ => rfl⟩
+  | cons r rest ih =>
+    intro qi σ F tail hb hp hcore hq
+    simp only [List.all_cons, Bool.and_eq_true] at hcore
+    have hq1 : q.drop qi = r.text ++ (rest.flatMap Row.text ++ tail) := by simpa using hq
+    obtain ⟨σ1, h1, hb1, hw1, hp1⟩ := row_run q cap hcap qi σ F r _ hb hcore.1 hq1
+    obtain ⟨σ2, h2, hb2, hw2, hp2, _⟩ := ih (qi + r.text.length) σ1 F tail hb1 hp1 hcore.2 (drop_after q qi _ _ hq1)
+    refine ⟨σ2, ?_, ?_, by rw [hw2, hw1], hp2, by simp⟩
+    · simp only [List.flatMap_cons]
+      exact runSeg_trans q cap _ _ qi σ σ1 σ2 h1 h2
+    · simpa [List.flatMap_cons, Nat.add_assoc] using hb2
+
+/-- **Value lists**: `in (1, 'a')`, `values(f(b), ")"), (2, 3)`.  From a
+    ready state the keyword and the parenthesised rows contribute `in(?+)`
+    (`in()` for an empty first row). -/
+theorem vlist_run (q : List Char) (cap : Nat) (hcap : 2 * q.length < cap) (qi : Nat) (σ : St)
+    (kw : List Char) (gap : Gap) (content : List Char) (rows : List Row) (tail : List Char) (hc : Ready false qi σ)
+    (hq : q.drop qi = (Item.vlist kw gap content rows).text ++ tail)
+    (hcore : (Item.vlist kw gap content rows).core = true) (hcall : σ.prevWord ≠ kwCall) :
+    ∃ σ', runSeg q cap qi σ (Item.vlist kw gap content rows).text = .next σ' ∧
+      Between (qi + (Item.vlist kw gap content rows).text.length) σ' (σ.f ++ (Item.vlist kw gap content rows).norm) ∧
+      σ'.prevWord = lower kw ∧ σ'.pr = ')' ∧
+      (rows = [] → σ'.f = σ.f ++ (Item.vlist kw gap content rows).norm) := by
+  simp only [Item.core, Bool.and_eq_true, kwShape] at hcore
+  obtain ⟨⟨⟨⟨⟨hkwShape, hkw⟩, hplain⟩, hgapw⟩, hcontent⟩, hrows⟩ := hcore
+  have hgap := gapText_ws gap hgapw
+  generalize hgt : gapText gap = ws at *
+  have htext : (Item.vlist kw gap content rows).text =
+      (kw ++ ws ++ ['(']) ++ (content ++ (')' :: rows.flatMap Row.text)) := by simp [Item.text, hgt]
+  rw [htext] at hq ⊢
+  have hq1 : q.drop qi = kw ++ (ws ++ '(' :: (content ++ ')' :: (rows.flatMap Row.text ++ tail))) := by
+    simpa using hq
+  obtain ⟨σL, h1, hinL, hvnL, hfpL, hpwL, hfL, htoL, haddL⟩ :=
+    vlist_open q cap qi σ kw ws _ hc hq1 hcap hkwShape hkw hplain hgap hcall
+  have hqlen : qi + kw.length + ws.length + 1 + content.length + 1 ≤ q.length := by
+    have := congrArg List.length hq
+    simp at this; omega
+  obtain ⟨qOpen, hqOpen⟩ : ∃ n : Nat, n = qi + kw.length + ws.length := ⟨_, rfl⟩
   rw [← hqOpen] at hfpL htoL
-  -- the content
-  obtain ⟨σ2, h2, hin2, hfr2⟩ := list_scan_run q cap (content.length + 1) 1 content σL (qOpen + 1) hcontent
-    (Nat.le_refl _) hinL
+  have hq2 : q.drop (qOpen + 1) = content ++ (')' :: (rows.flatMap Row.text ++ tail)) := by
+    have e : qOpen + 1 = qi + (kw ++ ws ++ ['(']).length := by simp; omega
+    rw [e]; apply drop_after q qi; rw [hq]; simp
+  obtain ⟨σ2, h2, hin2, hfr2⟩ := list_scan_run q cap (content.length + 1) 1 content σL (qOpen + 1) _ hcontent
+    (Nat.le_refl _) hinL hq2 rfl
   obtain ⟨hfr_pw, hfr_f, hfr_vn, hfr_fp, hfr_to, hfr_add, hfr_pr⟩ := hfr2
   have hlw : (lower kw).length = kw.length := by simp [lower]
   have hflen : σ2.f.length = σ.f.length + kw.length := by rw [hfr_f, hfL]; simp [hlw]
   have hlen0 := hc.hlen
-  -- the closing parenthesis
+  have hkwpos : 2 ≤ kw.length := by
+    rcases valuesWord_cases kw hkw with h | h | h <;>
+      · have := congrArg List.length h; simp [lower] at this; rw [this]; decide
   have h3 := step_close_list q cap qOpen content.length σ2 hin2 (by rw [hfr_vn]; exact hvnL)
     (by rw [hfr_fp]; exact hfpL) (by rw [hflen]; omega)
   obtain ⟨mark, hmarkdef⟩ : ∃ m : List Char, m = (if content.length = 0 then ['(', ')'] else ['(', '?', '+', ')']) :=
@@ -1634,285 +2311,245 @@ theorem vlist_item (q : List Char) (cap : Nat) (qi : Nat) (σ : St) (kw gap cont
   rw [← hmarkdef] at h3
   have hmarklen : mark.length ≤ 4 := by rw [hmarkdef]; split <;> simp
   have hmark2 : content.length = 0 → mark.length = 2 := by intro h; rw [hmarkdef]; simp [h]
-  have hto2 : σ2.cpTo ≤ (qOpen : Int) := by rw [hfr_to]; exact htoL
-  -- the white space after the list
-  have h4 := step_space_after_list q cap ((qOpen + 1 + content.length + 1 : Nat) : Int)
-    { σ2 with parOpen := 0, parOpenTotal := 0, valueNo := 1, f := σ2.f ++ mark, firstPar := 0,
-              s := .moreValuesOrUnknown, pr := ')', cpFrom := ((qOpen + 1 + content.length : Nat) : Int) + 1 }
-    r rfl rfl rfl hr
-    (by show σ2.cpTo ≤ ((qOpen + 1 + content.length : Nat) : Int) + 1; omega)
-    (by show (σ2.f ++ mark).length + 1 ≤ cap
-        simp only [List.length_append, hflen]; omega)
-  refine ⟨{ σ2 with parOpen := 0, parOpenTotal := 0, valueNo := 1, f := σ2.f ++ mark ++ [' '], firstPar := 0,
-                    s := .moreValuesOrUnknown, pr := r,
-                    cpFrom := ((qOpen + 1 + content.length : Nat) : Int) + 1 }, ?_, ?_, ?_, ?_⟩
-  · have e : (kw ++ gap ++ '(' :: content ++ [')']) ++ [r] = (kw ++ gap ++ ['(']) ++ (content ++ (')' :: [r])) := by
-      simp
-    have e1 : qi + (kw ++ gap ++ ['(']).length = qOpen + 1 := by simp; omega
-    rw [e, runSeg_append, h1]
-    show runSeg q cap (qi + (kw ++ gap ++ ['(']).length) σL (content ++ (')' :: [r])) = _
-    rw [e1, runSeg_append, h2]
-    simp only [runSeg, h3, h4]
-  · constructor
-    · rfl
-    · exact hr
-    · show σ2.cpTo ≤ ((qOpen + 1 + content.length : Nat) : Int) + 1; omega
-    · show ((qOpen + 1 + content.length : Nat) : Int) + 1 ≤ _
+  have hmarklast : ∃ g, mark = g ++ [')'] := by
+    rw [hmarkdef]; split
+    · exact ⟨['('], rfl⟩
+    · exact ⟨['(', '?', '+'], rfl⟩
+  have hnorm : (Item.vlist kw gap content rows).norm = lower kw ++ mark := by
+    rw [hmarkdef]; simp only [Item.norm]; cases content <;> simp
+  let σ3 : St := { σ2 with parOpen := 0, parOpenTotal := 0, valueNo := 1, f := σ2.f ++ mark, firstPar := 0,
+                           s := .moreValuesOrUnknown, pr := ')', cpFrom := ((qOpen + 1 + content.length : Nat) : Int) + 1 }
+  have hf3 : σ3.f = σ.f ++ (Item.vlist kw gap content rows).norm := by
+    show σ2.f ++ mark = _
+    rw [hfr_f, hfL, hnorm]; simp
+  have hb3 : Between (qOpen + 1 + content.length + 1) σ3 (σ.f ++ (Item.vlist kw gap content rows).norm) :=
+    { hs := rfl
+      hto := by show σ2.cpTo ≤ ((qOpen + 1 + content.length : Nat) : Int) + 1; rw [hfr_to]; omega
+      hfromle := by simp [σ3]
+      hesc := hin2.hesc, hsql := hin2.hsql, hvn := by simp [σ3]
+      hlen := by
+        rw [hnorm]; simp only [List.length_append, hlw]
+        by_cases hcz : content.length = 0
+        · have := hmark2 hcz; omega
+        · omega
+      hpo := rfl, hpt := rfl
+      hadd := by show σ2.addSpace = false; rw [hfr_add]; exact haddL
+      hpw := by
+        show σ2.prevWord = _ ∨ _
+        rw [hfr_pw, hpwL]; exact valuesWord_cases kw hkw
+      hf := Or.inl ⟨hf3, (by decide : isSpace ')' = false)⟩
+      hF := by
+        obtain ⟨g, hg⟩ := hmarklast
+        exact ⟨σ.f ++ lower kw ++ g, by rw [hnorm, hg]; simp⟩ }
+  have hq3 : q.drop (qOpen + 1 + content.length + 1) = rows.flatMap Row.text ++ tail := by
+    have e : qOpen + 1 + content.length + 1 = qi + ((kw ++ ws ++ ['(']) ++ (content ++ [')'])).length := by
       simp; omega
-    · exact hin2.hesc
-    · exact hin2.hsql
-    · rfl
-    · show (σ2.f ++ mark ++ [' ']).length ≤ _
-      simp only [List.length_append, hflen, List.length_cons, List.length_nil]
-      by_cases hcz : content.length = 0
-      · have := hmark2 hcz; simp; omega
-      · simp; omega
-    · rfl
-    · rfl
-    · show σ2.addSpace = false; rw [hfr_add]; exact haddL
-  · show σ2.f ++ mark ++ [' '] = _
-    rw [hfr_f, hfL, hmarkdef]
-    simp only [Item.norm]
-    cases content <;> simp
-  · show σ2.prevWord = _; rw [hfr_pw]; exact hpwL
+    rw [e]; apply drop_after q qi; rw [hq]; simp
+  obtain ⟨σ4, h4, hb4, hw4, hp4, he4⟩ := rows_run q cap hcap rows _ σ3 _ tail hb3 rfl hrows hq3
+  refine ⟨σ4, ?_, ?_, ?_, hp4, ?_⟩
+  · rw [runSeg_append, h1]
+    have e1 : qi + (kw ++ ws ++ ['(']).length = qOpen + 1 := by simp; omega
+    simp only [e1]
+    rw [runSeg_append, h2]
+    simp only [runSeg, h3]
+    exact h4
+  · have e : qi + ((kw ++ ws ++ ['(']) ++ (content ++ (')' :: rows.flatMap Row.text))).length =
+        qOpen + 1 + content.length + 1 + (rows.flatMap Row.text).length := by simp; omega
+    rw [e]; exact hb4
+  · rw [hw4]; show σ2.prevWord = _; rw [hfr_pw]; exact hpwL
+  · intro hr; rw [he4 hr]; exact hf3
 
 /-! ### Composition -/
 
-theorem piece_run (q : List Char) (cap : Nat) (qi : Nat) (σ : St) (p : SepPiece)
-    (hc : Clean qi σ) (hok : p.ok = true) :
-    ∃ σ', runSeg q cap qi σ p.text = .next σ' ∧ Clean (qi + p.text.length) σ' ∧ SameOut σ σ' := by
-  cases p with
-  | ws c =>
-    obtain ⟨σ', h1, h2, h3⟩ := ws_piece q cap qi σ c hc hok
-    exact ⟨σ', by simp [SepPiece.text, runSeg, h1], by simpa [SepPiece.text] using h2, h3⟩
-  | mlc body => exact mlc_piece q cap qi σ body hc hok
-  | dash c body => exact dash_piece q cap qi σ c body hc hok
-  | hash body => exact hash_piece q cap qi σ body hc hok
+/-- The first character of the word text that follows a value list. -/
+theorem step_first_al (q : List Char) (cap : Nat) (qi : Nat) (σ : St) (F : List Char) (c : Char) (hc : Between qi σ F)
+    (hok : okFirst c = true) (hop : isOpChar c = false) (hpar : c ≠ '(') (hcomma : c ≠ ',') :
+    step q cap qi σ c =
+      .next (midWord { σ with valueNo := 0, cpFrom := (qi : Int), sqlState := .unknown } c) := by
+  simp only [okFirst, wordBad, Bool.and_eq_true, Bool.not_eq_true', Bool.or_eq_false_iff,
+    decide_eq_false_iff_not] at hok
+  obtain ⟨⟨hbad, hd⟩, hdot⟩ := hok
+  obtain ⟨⟨⟨⟨⟨⟨⟨hsp, hq1⟩, hq2⟩, hsl⟩, hpl⟩, hmi⟩, hha⟩, hco⟩ := hbad
+  have hnlt : ¬ σ.cpTo > (qi : Int) := by have := hc.hto; have := hc.hfromle; omega
+  have hb' := hop
+  simp only [isOpChar, Bool.or_eq_false_iff, decide_eq_false_iff_not] at hb'
+  obtain ⟨⟨⟨hb1, hb2⟩, hb3⟩, hb4⟩ := hb'
+  simp [step, midWord, hop, hsp, part2, part3, hd, hq1, hq2, hb1, hb2, hb3, hb4, hnlt, hsl, hpl,
+    hmi, hdot, hpar, hcomma, hco, hha, hc.hs, hc.hsql]
 
-theorem pieces_run (q : List Char) (cap : Nat) :
-    ∀ (ps : List SepPiece) (qi : Nat) (σ : St), Clean qi σ → ps.all SepPiece.ok = true →
-      ∃ σ', runSeg q cap qi σ (ps.flatMap SepPiece.text) = .next σ' ∧
-        Clean (qi + (ps.flatMap SepPiece.text).length) σ' ∧ SameOut σ σ' := by
-  intro ps
-  induction ps with
-  | nil => intro qi σ hc _; exact ⟨σ, by simp [runSeg], by simpa using hc, rfl, rfl⟩
-  | cons p rest ih =>
-    intro qi σ hc hok
-    simp only [List.all_cons, Bool.and_eq_true] at hok
-    obtain ⟨σ1, h1, hc1, hs1⟩ := piece_run q cap qi σ p hc hok.1
-    obtain ⟨σ2, h2, hc2, hs2⟩ := ih (qi + p.text.length) σ1 hc1 hok.2
-    refine ⟨σ2, ?_, ?_, ?_⟩
-    · simp only [List.flatMap_cons]
-      exact runSeg_trans q cap _ _ qi σ σ1 σ2 h1 h2
-    · simpa [List.flatMap_cons, Nat.add_assoc] using hc2
-    · exact ⟨hs2.1.trans hs1.1, hs2.2.trans hs1.2⟩
+/-- **A chunk after a value list** (`… in (1, 2) and …`, `… in (1))`). -/
+theorem chunk_after_list (q : List Char) (cap : Nat) (hcap : 2 * q.length < cap) (qi : Nat) (σ : St) (F : List Char)
+    (segs : List Seg) (r : Char) (tail : List Char) (hb : Between qi σ F)
+    (hplain : (Item.chunk segs).isPlain = true) (hok : segsOK .start segs = true)
+    (hctx : segsCtx σ.prevWord segs = true)
+    (hq : q.drop qi = segsText segs ++ r :: tail) (hr : isSpace r = true) :
+    ∃ σ', runSeg q cap qi σ (segsText segs ++ [r]) = .next σ' ∧
+      Clean (segsDupe σ.prevWord false segs) (qi + (segsText segs).length + 1) σ' ∧
+      σ'.f = σ.f ++ segsNorm segs ++ [' '] ∧ σ'.prevWord = segsPrev σ.prevWord segs := by
+  cases segs with
+  | nil => simp [Item.isPlain] at hplain
+  | cons x rest =>
+    cases x with
+    | n u => simp [Item.isPlain] at hplain
+    | s u => simp [Item.isPlain] at hplain
+    | p pc u => simp [Item.isPlain] at hplain
+    | w t =>
+      cases t with
+      | nil => simp [Item.isPlain, plainFirst] at hplain
+      | cons c wr =>
+        simp only [Item.isPlain, plainFirst, Bool.and_eq_true, Bool.not_eq_true', decide_eq_true_eq] at hplain
+        simp only [segsOK, Bool.and_eq_true, true_and] at hok
+        have hws : wordShape (c :: wr) = true := hok.1
+        have hfirst : okFirst c = true := by
+          have := hws; simp only [wordShape, Bool.and_eq_true] at this; exact this.1.1
+        simp only [segsCtx, Bool.and_eq_true] at hctx
+        have h1 := step_first_al q cap qi σ F c hb hfirst hplain.1.1 hplain.1.2 hplain.2
+        have hflen : σ.f.length ≤ 2 * qi := by
+          have := hb.hlen
+          rcases hb.hf with h | h
+          · rw [h.1]; omega
+          · rw [h]; simp; omega
+        obtain ⟨σ', h2, h3, h4, h5⟩ := chunk_word q cap rest.length hcap (chunk_run q cap hcap rest.length) qi σ
+          { σ with valueNo := 0, cpFrom := (qi : Int), sqlState := .unknown } c wr rest r tail (Nat.le_refl _) h1
+          rfl (by have := hb.hto; have := hb.hfromle; simp; omega) hb.hesc (by simp)
+          (d := false) (by intro _; simp) hflen hb.hpo hb.hpt
+          hb.hadd (by simpa [segsText_cons, Seg.text] using hq) hws hctx.1
+          (by intro a ha; have := hok.2; rw [ha] at this; exact this) hctx.2 hr
+        refine ⟨σ', by simpa [segsText_cons, Seg.text] using h2, ?_, ?_, ?_⟩
+        · have e : qi + (segsText (Seg.w (c :: wr) :: rest)).length + 1 =
+              qi + (c :: wr).length + (segsText rest).length + 1 := by
+            simp [segsText_cons, Seg.text]; omega
+          rw [e]; exact h3
+        · rw [h4]; simp [segsNorm_cons, Seg.norm]
+        · rw [h5]; simp [segsPrev]
 
-/-- White-space pieces after a value list. -/
-theorem ws_pieces_run_al (q : List Char) (cap : Nat) :
-    ∀ (ps : List SepPiece) (qi : Nat) (σ : St), AfterList qi σ →
-      ps.all (fun p => match p with | .ws _ => true | _ => false) = true → ps.all SepPiece.ok = true →
-      ∃ σ', runSeg q cap qi σ (ps.flatMap SepPiece.text) = .next σ' ∧
-        AfterList (qi + (ps.flatMap SepPiece.text).length) σ' ∧ SameOut σ σ' := by
-  intro ps
-  induction ps with
-  | nil => intro qi σ hc _ _; exact ⟨σ, by simp [runSeg], by simpa using hc, rfl, rfl⟩
-  | cons p rest ih =>
-    intro qi σ hc hws hok
-    simp only [List.all_cons, Bool.and_eq_true] at hws hok
-    cases p with
-    | ws c =>
-      obtain ⟨σ1, h1, hc1, hs1⟩ := ws_piece_al q cap qi σ c hc hok.1
-      obtain ⟨σ2, h2, hc2, hs2⟩ := ih (qi + 1) σ1 hc1 hws.2 hok.2
-      refine ⟨σ2, ?_, ?_, ?_⟩
-      · simp only [List.flatMap_cons, SepPiece.text, List.cons_append, List.nil_append, runSeg, h1]
-        exact h2
-      · simpa [List.flatMap_cons, SepPiece.text, Nat.add_assoc, Nat.add_comm] using hc2
-      · exact ⟨hs2.1.trans hs1.1, hs2.2.trans hs1.2⟩
-    | mlc b => simp at hws
-    | dash c b => simp at hws
-    | hash b => simp at hws
-
-/-- The separator pieces after the first white-space character of a separator. -/
-theorem sep_rest_run (q : List Char) (cap : Nat) (qi : Nat) (σ σ1 : St) (it : Item) (sep : Sep)
-    (h1 : runSeg q cap qi σ (it.text ++ [sep.first]) = .next σ1)
-    (hc1 : Clean (qi + it.text.length + 1) σ1) (hpieces : sep.pieces.all SepPiece.ok = true) :
-    ∃ σ', runSeg q cap qi σ (it.text ++ sep.text) = .next σ' ∧
-      Clean (qi + (it.text ++ sep.text).length) σ' ∧ SameOut σ1 σ' := by
-  obtain ⟨σ2, h2, hc2, hs2⟩ := pieces_run q cap sep.pieces (qi + it.text.length + 1) σ1 hc1 hpieces
-  refine ⟨σ2, ?_, ?_, hs2⟩
-  · have e : it.text ++ sep.text = (it.text ++ [sep.first]) ++ sep.pieces.flatMap SepPiece.text := by
-      simp [Sep.text]
-    rw [e]
-    apply runSeg_trans q cap _ _ qi σ σ1 σ2 h1
-    simpa [Nat.add_assoc] using h2
-  · have e : qi + (it.text ++ sep.text).length =
-        qi + it.text.length + 1 + (sep.pieces.flatMap SepPiece.text).length := by
-      simp [Sep.text]; omega
-    rw [e]; exact hc2
-
-/-- An item (not a value list) with its separator: the normal form and one
-    blank are appended, the state is clean again. -/
-theorem item_sep_run (q : List Char) (cap : Nat) (qi : Nat) (σ : St) (it : Item) (sep : Sep) (tail : List Char)
-    (hc : Clean qi σ) (hq : q.drop qi = it.text ++ sep.text ++ tail) (hcap : 2 * q.length < cap)
-    (hshape : it.shapeOK = true)
-    (hctx : it.ctxOK1 σ.prevWord = true)
-    (hsep : sep.ok = true) (hnl : it.isList = false) :
-    ∃ σ', runSeg q cap qi σ (it.text ++ sep.text) = .next σ' ∧
-      Clean (qi + (it.text ++ sep.text).length) σ' ∧
-      σ'.f = σ.f ++ it.norm ++ [' '] ∧ σ'.prevWord = it.nextPrev σ.prevWord := by
-  simp only [Sep.ok, Bool.and_eq_true] at hsep
-  have hq' : q.drop qi = it.text ++ sep.first :: (sep.pieces.flatMap SepPiece.text ++ tail) := by
-    simpa [Sep.text] using hq
-  have key : ∃ σ1, runSeg q cap qi σ (it.text ++ [sep.first]) = .next σ1 ∧
-      Clean (qi + it.text.length + 1) σ1 ∧ σ1.f = σ.f ++ it.norm ++ [' '] ∧
-      σ1.prevWord = it.nextPrev σ.prevWord := by
-    cases it with
-    | word w =>
-      obtain ⟨σ1, h1, h2, h3, h4⟩ := word_item q cap qi σ w sep.first _ hc hq' hcap hshape hctx hsep.1
-      exact ⟨σ1, h1, h2, h3, h4⟩
-    | num n =>
-      obtain ⟨σ1, h1, h2, h3, h4⟩ := num_item q cap qi σ n sep.first _ hc hq' hcap hshape hsep.1
-      exact ⟨σ1, h1, h2, by simpa [Item.norm] using h3, h4⟩
-    | str t =>
-      obtain ⟨σ1, h1, h2, h3, h4⟩ := str_item q cap qi σ t sep.first _ hc hq' hcap hshape hsep.1
-      exact ⟨σ1, h1, h2, by simpa [Item.norm] using h3, h4⟩
-    | cmpNum w n =>
-      simp only [Item.shapeOK, Bool.and_eq_true] at hshape
-      simp only [Item.ctxOK1, Bool.not_eq_true'] at hctx
-      obtain ⟨σ1, h1, h2, h3, h4⟩ := cmp_num_item q cap qi σ w n sep.first _ hc hq' hcap hshape.1 hshape.2 hctx hsep.1
-      exact ⟨σ1, h1, h2, by simpa [Item.norm] using h3, h4⟩
-    | cmpStr w t =>
-      simp only [Item.shapeOK, Bool.and_eq_true] at hshape
-      simp only [Item.ctxOK1, Bool.not_eq_true'] at hctx
-      obtain ⟨σ1, h1, h2, h3, h4⟩ := cmp_str_item q cap qi σ w t sep.first _ hc hq' hcap hshape.1 hshape.2 hctx hsep.1
-      exact ⟨σ1, h1, h2, by simpa [Item.norm] using h3, h4⟩
-    | vlist kw gap content => exact absurd hnl (by simp [Item.isList])
-  obtain ⟨σ1, h1, hc1, hf1, hp1⟩ := key
-  obtain ⟨σ2, h2, hc2, hs2⟩ := sep_rest_run q cap qi σ σ1 it sep h1 hc1 hsep.2
-  exact ⟨σ2, h2, hc2, by rw [hs2.1, hf1], by rw [hs2.2, hp1]⟩
-
-/-- The word after a value list, with its separator. -/
-theorem word_sep_run_al (q : List Char) (cap : Nat) (qi : Nat) (σ : St) (w : List Char) (sep : Sep) (tail : List Char)
-    (hc : AfterList qi σ) (hq : q.drop qi = (Item.word w).text ++ sep.text ++ tail) (hcap : 2 * q.length < cap)
-    (hshape : wordShape w = true) (hctx : wordCtx σ.prevWord w = true) (hsep : sep.ok = true)
-    (hplain : plainFirst w = true) :
-    ∃ σ', runSeg q cap qi σ ((Item.word w).text ++ sep.text) = .next σ' ∧
-      Clean (qi + ((Item.word w).text ++ sep.text).length) σ' ∧
-      σ'.f = σ.f ++ (Item.word w).norm ++ [' '] ∧ σ'.prevWord = lower w := by
-  simp only [Sep.ok, Bool.and_eq_true] at hsep
-  have hq' : q.drop qi = w ++ sep.first :: (sep.pieces.flatMap SepPiece.text ++ tail) := by
-    simpa [Sep.text, Item.text] using hq
-  obtain ⟨σ1, h1, hc1, hf1, hp1⟩ := word_item_al q cap qi σ w sep.first _ hc hq' hcap hshape hctx hsep.1 hplain
-  obtain ⟨σ2, h2, hc2, hs2⟩ := sep_rest_run q cap qi σ σ1 (Item.word w) sep h1 hc1 hsep.2
-  exact ⟨σ2, h2, hc2, by rw [hs2.1, hf1]; rfl, by rw [hs2.2, hp1]⟩
-
-/-- A value list with its (white-space only) separator. -/
-theorem vlist_sep_run (q : List Char) (cap : Nat) (qi : Nat) (σ : St) (kw gap content : List Char) (sep : Sep)
-    (tail : List Char) (hc : Clean qi σ)
-    (hq : q.drop qi = (Item.vlist kw gap content).text ++ sep.text ++ tail) (hcap : 2 * q.length < cap)
-    (hshape : listShape kw gap content = true) (hcall : σ.prevWord ≠ kwCall) (hsep : sep.ok = true)
-    (hws : sep.pieces.all (fun p => match p with | .ws _ => true | _ => false) = true) :
-    ∃ σ', runSeg q cap qi σ ((Item.vlist kw gap content).text ++ sep.text) = .next σ' ∧
-      AfterList (qi + ((Item.vlist kw gap content).text ++ sep.text).length) σ' ∧
-      σ'.f = σ.f ++ (Item.vlist kw gap content).norm ++ [' '] ∧ σ'.prevWord = lower kw := by
-  simp only [Sep.ok, Bool.and_eq_true] at hsep
-  have hq' : q.drop qi = (kw ++ gap ++ '(' :: content ++ [')']) ++
-      sep.first :: (sep.pieces.flatMap SepPiece.text ++ tail) := by
-    simpa [Sep.text, Item.text] using hq
-  obtain ⟨σ1, h1, hc1, hf1, hp1⟩ := vlist_item q cap qi σ kw gap content sep.first _ hc hq' hcap hshape hcall hsep.1
-  obtain ⟨σ2, h2, hc2, hs2⟩ := ws_pieces_run_al q cap sep.pieces _ σ1 hc1 hws hsep.2
-  refine ⟨σ2, ?_, ?_, by rw [hs2.1, hf1], by rw [hs2.2, hp1]⟩
-  · have e : (Item.vlist kw gap content).text ++ sep.text =
-        ((kw ++ gap ++ '(' :: content ++ [')']) ++ [sep.first]) ++ sep.pieces.flatMap SepPiece.text := by
-      simp [Sep.text, Item.text]
-    rw [e]
-    apply runSeg_trans q cap _ _ qi σ σ1 σ2 h1
-    simpa [Nat.add_assoc] using h2
-  · have e : qi + ((Item.vlist kw gap content).text ++ sep.text).length =
-        qi + (kw ++ gap ++ '(' :: content ++ [')']).length + 1 + (sep.pieces.flatMap SepPiece.text).length := by
-      simp [Sep.text, Item.text]; omega
-    rw [e]; exact hc2
-
-/-- Does the item list start with a word that may follow a value list? -/
-def startsPlain : List (Item × Sep) → Bool
+/-- Does the item list start with a chunk that may follow a value list? -/
+def startsPlain : List (Item × Gap) → Bool
   | [] => true
-  | (.word w, _) :: _ => plainFirst w
-  | _ => false
+  | (nx, _) :: _ => nx.isPlain
 
-theorem drop_after (q : List Char) (qi : Nat) (a b : List Char) (h : q.drop qi = a ++ b) :
-    q.drop (qi + a.length) = b := by
-  have : q.drop (qi + a.length) = (q.drop qi).drop a.length := by rw [List.drop_drop]
-  rw [this, h]; simp
+/-- The states between two items: clean, or right after a value list (and its
+    separator) when a plain chunk follows. -/
+def Inv (d : Bool) (qi : Nat) (σ : St) (rest : List (Item × Gap)) : Prop :=
+  Clean d qi σ ∨ (d = false ∧ (∃ F, Between qi σ F) ∧ startsPlain rest = true)
+
+/-- An item with its separator. -/
+theorem item_run (q : List Char) (cap : Nat) (hcap : 2 * q.length < cap) (qi : Nat) (σ : St) (it : Item) (g : Gap)
+    (rest : List (Item × Gap)) (tail : List Char)
+    (hinv : Inv d qi σ ((it, g) :: rest)) (hq : q.drop qi = it.text ++ (gapText g ++ tail))
+    (hcore : it.core = true) (hg : wsGap g = true) (hctx : it.ctxOK1 σ.prevWord d = true)
+    (hseps : sepsOK ((it, g) :: rest) = true) :
+    ∃ σ', runSeg q cap qi σ (it.text ++ gapText g) = .next σ' ∧
+      Inv (it.nextDupe σ.prevWord d) (qi + (it.text ++ gapText g).length) σ' rest ∧
+      σ'.f = σ.f ++ it.norm ++ (if g.isEmpty then [] else [' ']) ∧ σ'.prevWord = it.nextPrev σ.prevWord := by
+  have hgws := gapText_ws g hg
+  have hgempty : g.isEmpty = true → gapText g = [] := by
+    intro h; cases g with
+    | nil => rfl
+    | cons _ _ => simp at h
+  have hgne : g.isEmpty = false → ∃ r ws, gapText g = r :: ws := by
+    intro h
+    cases g with
+    | nil => simp at h
+    | cons p g' =>
+      cases p with
+      | ws c => exact ⟨c, gapText g', by simp [gapText, SepPiece.text]⟩
+      | mlc b => simp [wsGap, gapIsWs, SepPiece.isWs] at hg
+      | dash c b => simp [wsGap, gapIsWs, SepPiece.isWs] at hg
+      | hash b => simp [wsGap, gapIsWs, SepPiece.isWs] at hg
+  simp only [sepsOK, Bool.and_eq_true] at hseps
+  obtain ⟨⟨hs1, hs2⟩, _⟩ := hseps
+  cases it with
+  | chunk segs =>
+    have hge : g.isEmpty = false := by
+      cases hgi : g.isEmpty with
+      | false => rfl
+      | true => rw [hgi] at hs1; simp [Item.isList] at hs1
+    obtain ⟨r, ws, hrw⟩ := hgne hge
+    rw [hrw] at hq hgws ⊢
+    simp only [List.all_cons, Bool.and_eq_true] at hgws
+    have hq1 : q.drop qi = segsText segs ++ r :: (ws ++ tail) := by simpa [Item.text] using hq
+    have key : ∃ σ1, runSeg q cap qi σ (segsText segs ++ [r]) = .next σ1 ∧
+        Clean (segsDupe σ.prevWord d segs) (qi + (segsText segs).length + 1) σ1 ∧
+        σ1.f = σ.f ++ segsNorm segs ++ [' '] ∧ σ1.prevWord = segsPrev σ.prevWord segs := by
+      rcases hinv with hc | ⟨hd0, ⟨F, hb⟩, hsp⟩
+      · exact chunk_run q cap hcap segs.length segs (Nat.le_refl _) d qi σ true r _ hc.toReady (by simp)
+          (by simpa [Item.core] using hcore) (by simpa [Item.ctxOK1] using hctx) hq1 hgws.1
+      · subst hd0
+        exact chunk_after_list q cap hcap qi σ F segs r _ hb (by simpa [startsPlain] using hsp)
+          (by simpa [Item.core] using hcore) (by simpa [Item.ctxOK1] using hctx) hq1 hgws.1
+    obtain ⟨σ1, h1, hc1, hf1, hp1⟩ := key
+    obtain ⟨σ2, h2, hc2, hs2'⟩ := ws_run q cap ws _ σ1 hc1 hgws.2
+    refine ⟨σ2, ?_, Or.inl ?_, ?_, ?_⟩
+    · have e : (Item.chunk segs).text ++ r :: ws = (segsText segs ++ [r]) ++ ws := by simp [Item.text]
+      rw [e]
+      apply runSeg_trans q cap _ _ qi σ σ1 σ2 h1
+      simpa [Nat.add_assoc] using h2
+    · have e : qi + ((Item.chunk segs).text ++ r :: ws).length = qi + (segsText segs).length + 1 + ws.length := by
+        simp [Item.text]; omega
+      rw [e]; exact hc2
+    · rw [hs2'.1, hf1, hge]; simp [Item.norm]
+    · rw [hs2'.2, hp1]; rfl
+  | vlist kw gap content rows =>
+    simp only [Item.ctxOK1, Bool.and_eq_true, Bool.not_eq_true', decide_eq_false_iff_not] at hctx
+    obtain ⟨hctx, hd0⟩ := hctx
+    subst hd0
+    have hcl : Clean false qi σ := by
+      rcases hinv with hc | ⟨_, _, hsp⟩
+      · exact hc
+      · simp [startsPlain, Item.isPlain] at hsp
+    obtain ⟨σ1, h1, hb1, hp1, hpr1, hf1⟩ := vlist_run q cap hcap qi σ kw gap content rows _ hcl.toReady hq hcore hctx
+    have hsp : startsPlain rest = true := by
+      simp only [Item.isList, Bool.not_true, Bool.false_or] at hs2
+      cases rest with
+      | nil => rfl
+      | cons p _ => obtain ⟨nx, _⟩ := p; simpa [startsPlain] using hs2
+    have hqlen : qi + (Item.vlist kw gap content rows).text.length + (gapText g).length ≤ q.length := by
+      have := congrArg List.length hq
+      rw [List.length_drop, List.length_append, List.length_append] at this
+      have hpos : 0 < (Item.vlist kw gap content rows).text.length := by
+        simp only [Item.text, List.length_append, List.length_cons]; omega
+      omega
+    obtain ⟨σ2, h2, hb2, hp2, hne2, he2⟩ := between_ws_run q cap hcap (gapText g) _ σ1 _ hb1 hgws (by omega)
+    refine ⟨σ2, runSeg_trans q cap _ _ qi σ σ1 σ2 h1 h2,
+      Or.inr ⟨rfl, ⟨σ.f ++ (Item.vlist kw gap content rows).norm, ?_⟩, hsp⟩, ?_, by rw [hp2, hp1]; rfl⟩
+    · simpa [Nat.add_assoc] using hb2
+    · cases hgi : g.isEmpty with
+      | true =>
+        have hrows : rows = [] := by
+          rw [hgi] at hs1
+          simp only [if_true, Bool.and_eq_true, Item.rows, List.isEmpty_iff] at hs1
+          exact hs1.1.2
+        rw [he2 (hgempty hgi), hf1 hrows]; simp
+      | false =>
+        obtain ⟨r, ws, hrw⟩ := hgne hgi
+        rw [(hne2 (by rw [hrw]; simp)).1]; simp
 
 /-- A whole list of items with their separators. -/
 theorem items_run (q : List Char) (cap : Nat) (hcap : 2 * q.length < cap) :
-    ∀ (its : List (Item × Sep)) (qi : Nat) (σ : St),
-      (Clean qi σ ∨ (AfterList qi σ ∧ startsPlain its = true)) → q.drop qi = renderItems its →
-      (∀ p ∈ its, p.1.shapeOK = true ∧ p.2.ok = true) → ctxOK σ.prevWord (its.map (·.1)) = true →
-      listsOK its = true →
-      ∃ σ', runSeg q cap qi σ (renderItems its) = .next σ' ∧ σ'.f = σ.f ++ normAll (its.map (·.1)) := by
+    ∀ (its : List (Item × Gap)) (d : Bool) (qi : Nat) (σ : St),
+      Inv d qi σ its → q.drop qi = renderItems its →
+      (∀ p ∈ its, p.1.core = true ∧ wsGap p.2 = true) → ctxOK σ.prevWord d (its.map (·.1)) = true →
+      sepsOK its = true →
+      ∃ σ', runSeg q cap qi σ (renderItems its) = .next σ' ∧ σ'.f = σ.f ++ normAll its := by
   intro its
   induction its with
-  | nil => intro qi σ _ _ _ _ _; exact ⟨σ, by simp [renderItems, runSeg], by simp [normAll]⟩
+  | nil => intro d qi σ _ _ _ _ _; exact ⟨σ, by simp [renderItems, runSeg], by simp [normAll]⟩
   | cons p rest ih =>
-    intro qi σ hinv hq hok hctx hlists
-    obtain ⟨it, sep⟩ := p
+    intro d qi σ hinv hq hok hctx hseps
+    obtain ⟨it, g⟩ := p
     simp only [List.map_cons, ctxOK, Bool.and_eq_true] at hctx
-    simp only [listsOK, Bool.and_eq_true] at hlists
-    have hq1 : q.drop qi = it.text ++ sep.text ++ renderItems rest := by
-      simpa [renderItems] using hq
-    have hp := hok (it, sep) (by simp)
-    have hq2 := drop_after q qi (it.text ++ sep.text) (renderItems rest) hq1
-    have e : renderItems ((it, sep) :: rest) = (it.text ++ sep.text) ++ renderItems rest := by
-      simp [renderItems]
-    have finish : ∀ σ1, runSeg q cap qi σ (it.text ++ sep.text) = .next σ1 →
-        (Clean (qi + (it.text ++ sep.text).length) σ1 ∨
-          (AfterList (qi + (it.text ++ sep.text).length) σ1 ∧ startsPlain rest = true)) →
-        σ1.f = σ.f ++ it.norm ++ [' '] → σ1.prevWord = it.nextPrev σ.prevWord →
-        ∃ σ', runSeg q cap qi σ (renderItems ((it, sep) :: rest)) = .next σ' ∧
-          σ'.f = σ.f ++ normAll (it :: rest.map (·.1)) := by
-      intro σ1 h1 hinv1 hf1 hp1
-      obtain ⟨σ2, h2, hf2⟩ := ih (qi + (it.text ++ sep.text).length) σ1 hinv1 hq2
-        (fun p hp => hok p (by simp [hp])) (by rw [hp1]; exact hctx.2) hlists.2
-      refine ⟨σ2, ?_, ?_⟩
-      · rw [e]; exact runSeg_trans q cap _ _ qi σ σ1 σ2 h1 h2
-      · rw [hf2, hf1]; simp [normAll]
-    rcases hinv with hc | ⟨hal, hstart⟩
-    · -- from a clean state
-      by_cases hl : it.isList = true
-      · cases it with
-        | vlist kw gap content =>
-          simp only [Item.ctxOK1, Bool.not_eq_true', decide_eq_false_iff_not] at hctx
-          have hl2 := hlists.1
-          simp only [hl, Bool.not_true, Bool.false_or, Bool.and_eq_true] at hl2
-          obtain ⟨σ1, h1, hc1, hf1, hp1⟩ := vlist_sep_run q cap qi σ kw gap content sep (renderItems rest) hc hq1 hcap
-            hp.1 hctx.1 hp.2 hl2.1
-          have hsp : startsPlain rest = true := by
-            have := hl2.2
-            cases rest with
-            | nil => rfl
-            | cons p2 rest2 =>
-              obtain ⟨it2, sep2⟩ := p2
-              cases it2 <;> simp_all [startsPlain]
-          exact finish σ1 h1 (Or.inr ⟨hc1, hsp⟩) hf1 hp1
-        | word w => simp [Item.isList] at hl
-        | num n => simp [Item.isList] at hl
-        | str t => simp [Item.isList] at hl
-        | cmpNum w n => simp [Item.isList] at hl
-        | cmpStr w t => simp [Item.isList] at hl
-      · have hl' : it.isList = false := by simpa using hl
-        obtain ⟨σ1, h1, hc1, hf1, hp1⟩ := item_sep_run q cap qi σ it sep (renderItems rest) hc hq1 hcap hp.1 hctx.1 hp.2 hl'
-        exact finish σ1 h1 (Or.inl hc1) hf1 hp1
-    · -- after a value list: a plain word
-      cases it with
-      | word w =>
-        simp only [startsPlain] at hstart
-        obtain ⟨σ1, h1, hc1, hf1, hp1⟩ := word_sep_run_al q cap qi σ w sep (renderItems rest) hal hq1 hcap hp.1 hctx.1 hp.2 hstart
-        exact finish σ1 h1 (Or.inl hc1) hf1 hp1
-      | num n => simp [startsPlain] at hstart
-      | str t => simp [startsPlain] at hstart
-      | cmpNum w n => simp [startsPlain] at hstart
-      | cmpStr w t => simp [startsPlain] at hstart
-      | vlist kw gap content => simp [startsPlain] at hstart
+    have hp := hok (it, g) (by simp)
+    have hq1 : q.drop qi = it.text ++ (gapText g ++ renderItems rest) := by simpa [renderItems] using hq
+    obtain ⟨σ1, h1, hinv1, hf1, hp1⟩ := item_run q cap hcap qi σ it g rest _ hinv hq1 hp.1 hp.2 hctx.1 hseps
+    have hq2 : q.drop (qi + (it.text ++ gapText g).length) = renderItems rest := by
+      apply drop_after q qi; rw [hq1]; simp
+    have hseps2 : sepsOK rest = true := by
+      simp only [sepsOK, Bool.and_eq_true] at hseps; exact hseps.2
+    obtain ⟨σ2, h2, hf2⟩ := ih _ _ σ1 hinv1 hq2 (fun p hp => hok p (by simp [hp])) (by rw [hp1]; exact hctx.2) hseps2
+    refine ⟨σ2, ?_, ?_⟩
+    · have e : renderItems ((it, g) :: rest) = (it.text ++ gapText g) ++ renderItems rest := by simp [renderItems]
+      rw [e]; exact runSeg_trans q cap _ _ qi σ σ1 σ2 h1 h2
+    · rw [hf2, hf1]; simp [normAll]
 
 end GaeaVerif.FingerprintSteps
